@@ -1,37 +1,46 @@
 /-
-C01 — the layout Twp/Rge–desc–Sec (`TR_desc_S`) on TEXT, with no lexical premise at chunk level
-(continuation of `Lemmas/LayoutText.lean` = Twp/Rge–Sec–desc and `Lemmas/LayoutText2.lean` = Sec–desc–Twp/Rge).
+C01 — the layouts Twp/Rge–desc–Sec (`TR_desc_S`) and desc–Sec–Twp/Rge (`desc_STR`) on TEXT, through the whole parser, with no
+lexical premise (continuation of `Lemmas/LayoutText.lean` = Twp/Rge–Sec–desc and `Lemmas/LayoutText2.lean` = Sec–desc–Twp/Rge;
+with this file all four documented layouts are covered).
 
-The canonical text `rText sp g gs`: per group the Twp/Rge `T154N-R97W`, a separator `sp` (blanks / line breaks, at least
-one), then the lines `<inert block>, Sec nn:` separated by line breaks; groups separated by line breaks, e.g.
+TR_desc_S.  The canonical text `rText sp g gs`: per group the Twp/Rge `T154N-R97W`, a separator `sp` (blanks / line breaks, at
+least one), then the lines `<inert block>, Sec nn:` separated by line breaks; groups separated by line breaks, e.g.
 `"T154N-R97W hog valley by bluff, Sec 14:\nfern gully, Sec 15:\nT7S-R102E wy Wyoming; f/k/a marker, Sec 36:"`.
 The colon behind the section number is part of the rendering: it is what stops every Twp/Rge pattern behind the two digits
 whatever the next line starts with (`GapSkips.ref`), so that no lexical premise on the blocks beyond `Inert` is needed.
-The first block of the text must have at least 3 characters: `deduce_layout` chooses TR_desc_S only if at least 4
-characters (block and comma) stand between the first Twp/Rge and the first section word
-(`C01_TR_desc_S_short_block_not_deduced`).
+If the layout has to be DEDUCED the first block of the text must have at least 3 characters: `deduce_layout` chooses TR_desc_S
+only if at least 4 characters (block and comma) stand between the first Twp/Rge and the first section word
+(`C01_TR_desc_S_short_block_not_deduced`); with the layout given the premise is not needed
+(`C01_canonical_forward_TR_desc_S_given`).
+
+desc_STR.  The canonical text `dText v sp g gs` (`dTextF v sp fin g gs` with blanks / line breaks `fin` at the end): per group the
+lines `<inert block>, Sec nn:` (separated by line breaks), the character `v` (a blank or a line break: class `VSep`), the Twp/Rge
+that CLOSES the group; groups separated by `sp`, e.g. (`v` = line break) `"hog valley by bluff, Sec 14:\nfern gully, Sec 15:\nT154N-R97W\nwy Wyoming; f/k/a marker, Sec 36:\nT7S-R102E"`.
 
 Contents.
 * Part 1: the text `rText`; `RGap` (what a header pattern cannot do in white space + block + `, ` in front of `Sec nn:`),
   `rTiles` — tiling by headers for any pattern with `GapSkips` and `RGap` (also usable for the scrubbers: the header token may
   swallow a part `e` of the separator).
 * Part 2: `twprgeFinder_rText` (no context check in this layout: `trStepR`); the section token `secTokG` (`Sec nn:` followed
-  by ANYTHING on which the list continuation `(…)*` has no path), `secX_fails_hdr` (no path across `:`, line break, `T<digit>`:
-  the coarse neighbour relation allows every single step, so the sequence is split by hand with `FailsOn.seq_foot`), `RTail`,
-  `multisec_tiles_rText`.
-* Part 3: the arrangement `rGroups`, `ItemOK`, `secFinder_rText`, `populateMarkers_R` (a text that STARTS with a Twp/Rge and
-  ENDS with a section reference: both the start-of-text and the end-of-text marker are overwritten).
-* Part 4: `rGroups_comps` (the blocks in FRONT of the section references clean up to the descriptions),
-  **`C01_finders_TR_desc_S`**, **`C01_reports_TR_desc_S`**, **`C01_chunk_canonical_TR_desc_S_partial`**,
-  the full statement `C01_chunk_canonical_TR_desc_S_statement`.
-* Part 5: concrete instances.
-
-NOT done (time): (1) `MarkersOK` in general — `populateMarkers_R` is proved; missing is the arithmetic that the markers of
-`rGroups` stand at strictly increasing positions and that the last section reference ends the text (the `Within` lemmas of
-LayoutText, as `sGroups_within` in LayoutText2); (2) `deduceLayout (rText …) = TR_DESC_S` for a first block of ≥ 3 characters
-(`no_num_sec_regex` skips header, separator and block: `skips_header`, first-sets inside `Danger`; `pyStrip` of
-`sp ++ d ++ ", "` is `d ++ ","`); both are checked by kernel evaluation on the instance of Part 5; (3) preprocessing and the
-parser level; (4) the layout desc_STR.
+  by ANYTHING on which the list continuation `(…)*` has no path), `secX_fails_hdr`, `RTail`, `multisec_tiles_rText`.
+* Part 3: the arrangement `rGroups`, `ItemOK`, `secFinder_rText`, `populateMarkers_R`.
+* Part 4: `rGroups_comps`, **`C01_finders_TR_desc_S`**, `C01_reports_TR_desc_S`, `C01_chunk_canonical_TR_desc_S_partial`, the
+  statement `C01_chunk_canonical_TR_desc_S_statement`.
+* Part 4b/4c: `markersOK_rText` (`rGroups_within`, `rGroups_last`), `deduceLayout_rText`, **`C01_chunk_canonical_TR_desc_S`**
+  (= the statement: `C01_chunk_canonical_TR_desc_S_full`), **`C01_reports_canonical_TR_desc_S`**.
+* Part 6: preprocessing: `rewrite_rhdr`, `scrub_rText`, the six scrubbers, white-space reduction, **`plssPreprocess_rText`**.
+* Part 7: the unused blocks of the TR_desc_S walk (`unusedBlockD`, `fold_unusedD`, `rText_unused`),
+  **`C01_chunk_canonical_TR_desc_S_unused`**.
+* Part 8: **`C01_canonical_forward_TR_desc_S`** (whole parser, no premise); **`C01_canonical_forward_TR_desc_S_given`** (layout
+  given, no length premise) stands behind Part 11.
+* Part 9: desc_STR: `dText`, `dTiles`, `twprgeFinder_dText`, `secFinder_dText`, `populateMarkers_D` / `populateMarkers_dText`,
+  `dGroups_comps`, **`C01_finders_desc_STR`**, **`C01_reports_desc_STR`**, `deduceLayout_dText`,
+  **`C01_chunk_canonical_desc_STR`**, `dText_unused`, **`C01_chunk_canonical_desc_STR_unused`**.
+* Part 10: preprocessing of `dTextF`: `dTilesF`, `rewrite_dhdrF`, `scrub_dText`, the six scrubbers, **`plssPreprocess_dText`**.
+* Part 11: **`C01_canonical_forward_desc_STR`** (whole parser, no premise).
+* Part 12: `layText`, **`C01_canonical_forward_all_layouts`**: the rendering of one abstract description in each of the four
+  documented layouts is parsed into the same tracts, the layout reported being the one rendered in.
+* Part 5 (at the end): concrete instances (non-vacuity), replayed on the library.
 -/
 import PyTRS.Lemmas.LayoutText2
 import PyTRS.Lemmas.LayoutText
@@ -268,8 +277,10 @@ theorem secX_decomp : secX = .seq sxA sxB := rfl
 
 /-- behind `Sec nn` the list continuation has no path across `:`, a line break and a header `T<digit>…`
     (the coarse neighbour relation allows every single step — "to", "Sect 7" — so the sequence is split by hand) -/
-theorem secX_fails_hdr (t0 : Char) (ht : asciiDigits.mem t0 = true) (rest : Str) :
-    FailsOn secX (':' :: '\n' :: 'T' :: t0 :: rest) := by
+theorem secX_fails_vhdr (v : Char) (hv : v = ' ' ∨ v = '\n') (t0 : Char) (ht : asciiDigits.mem t0 = true) (rest : Str) :
+    FailsOn secX (':' :: v :: 'T' :: t0 :: rest) := by
+  have hadj : sxB.adjB v 'T' = false := by rcases hv with rfl | rfl <;> decide +kernel
+  have hvd : digitD.mem v = false := by rcases hv with rfl | rfl <;> decide +kernel
   rw [secX_decomp]
   have hB : sxB.mustHitP (fun cs => cs.sub digitD) = true := by decide +kernel
   have hBn : sxB.nullable = false := by decide +kernel
@@ -282,11 +293,11 @@ theorem secX_fails_hdr (t0 : Char) (ht : asciiDigits.mem t0 = true) (rest : Str)
   | [a], hY, _, _, _ =>
     simp only [List.cons_append, List.nil_append, List.cons.injEq] at hY
     obtain ⟨_, rfl⟩ := hY
-    refine FailsOn.of_break hB [] '\n' 'T' _ (by decide +kernel) ?_
+    refine FailsOn.of_break hB [] v 'T' _ hadj ?_
     intro c hc
     simp only [List.nil_append, List.mem_singleton] at hc
     subst hc
-    exact noHit_of_notMem (by decide +kernel)
+    exact noHit_of_notMem hvd
   | [a, b], hY, _, _, _ =>
     simp only [List.cons_append, List.nil_append, List.cons.injEq] at hY
     obtain ⟨_, _, rfl⟩ := hY
@@ -313,17 +324,20 @@ theorem secX_fails_hdr (t0 : Char) (ht : asciiDigits.mem t0 = true) (rest : Str)
     simp only [List.all_eq_true] at this
     rw [CharSet.disj_mem (this cs hcs) ht] at hm; cases hm
 
+theorem secX_fails_hdr (t0 : Char) (ht : asciiDigits.mem t0 = true) (rest : Str) :
+    FailsOn secX (':' :: '\n' :: 'T' :: t0 :: rest) := secX_fails_vhdr '\n' (Or.inr rfl) t0 ht rest
+
 /-- what may follow a section reference `Sec nn:`: nothing, or a line break and a character that cannot continue a section
-    list, or a line break and a header -/
+    list, or a line break / a blank and a header -/
 def RTail (T : Str) : Prop :=
   T = [] ∨ (∃ y rest, T = '\n' :: y :: rest ∧ secX.adjB '\n' y = false) ∨
-    ∃ t0 rest, T = '\n' :: 'T' :: t0 :: rest ∧ asciiDigits.mem t0 = true
+    ∃ v t0 rest, T = v :: 'T' :: t0 :: rest ∧ (v = ' ' ∨ v = '\n') ∧ asciiDigits.mem t0 = true
 
 theorem secX_after_nl :
     secX.follow.all (fun p => !p.1.mem '\n' || p.2.sub ((Gen.PY_SPACE : CharSet) ++ (Danger ++ HeadDanger))) = true := by decide +kernel
 
 theorem RTail.fails {T : Str} (h : RTail T) : FailsOn secX (':' :: T) := by
-  rcases h with rfl | ⟨y, rest, rfl, hadj⟩ | ⟨t0, rest, rfl, ht⟩
+  rcases h with rfl | ⟨y, rest, rfl, hadj⟩ | ⟨v, t0, rest, rfl, hv, ht⟩
   · refine FailsOn.of_noHit secX_hit _ ?_
     intro c hc
     simp only [List.mem_singleton] at hc
@@ -335,15 +349,17 @@ theorem RTail.fails {T : Str} (h : RTail T) : FailsOn secX (':' :: T) := by
     rcases hc with rfl | rfl
     · exact noHit_of_notMem (by decide +kernel)
     · exact noHit_of_notMem (by decide +kernel)
-  · exact secX_fails_hdr t0 ht rest
+  · exact secX_fails_vhdr v hv t0 ht rest
 
-theorem rTail_hdr (h : Hd) (hok : h.Ok) (rest : Str) : RTail ('\n' :: (h.text ++ rest)) := by
+theorem rTail_vhdr (v : Char) (hv : v = ' ' ∨ v = '\n') (h : Hd) (hok : h.Ok) (rest : Str) : RTail (v :: (h.text ++ rest)) := by
   obtain ⟨t0, t', ht⟩ : ∃ t0 t', h.t = t0 :: t' := by
     cases e : h.t with
     | nil => have := hok.t_len; rw [e] at this; simp at this
     | cons a b => exact ⟨a, b, rfl⟩
-  refine Or.inr (Or.inr ⟨t0, (t' ++ h.ns :: '-' :: 'R' :: (h.r ++ [h.ew])) ++ rest, by simp [Hd.text, canonText, ht], ?_⟩)
+  refine Or.inr (Or.inr ⟨v, t0, (t' ++ h.ns :: '-' :: 'R' :: (h.r ++ [h.ew])) ++ rest, by simp [Hd.text, canonText, ht], hv, ?_⟩)
   exact (isDigit_iff_mem t0).1 (hok.t_dig t0 (by rw [ht]; simp))
+
+theorem rTail_hdr (h : Hd) (hok : h.Ok) (rest : Str) : RTail ('\n' :: (h.text ++ rest)) := rTail_vhdr '\n' (Or.inr rfl) h hok rest
 
 theorem rTail_block (d : Str) (hd : Inert d) (rest : Str) : RTail ('\n' :: (d ++ rest)) := by
   obtain ⟨d0, d', e, h1, h2⟩ := hd.head_cons
@@ -808,8 +824,7 @@ theorem Reports.intro' {mc : MC} {rc : ReqColon} {txt : Str} {L : Lay} {groups :
     (h5 : populateMarkers txt.length secs trs = L.markers groups txt.length) : Reports mc rc txt L groups :=
   Reports.intro trs tff secs sff h1 h2 h3 h4 h5
 
-/-- the markers of the arrangement are what `populate_markers` builds (decidable for a concrete text; proved in general
-    below if `populateMarkers_rText` is present) -/
+/-- the markers of the arrangement are what `populate_markers` builds (proved in general: `markersOK_rText`, Part 4b) -/
 def MarkersOK (sp : Str) (g : Gp) (gs : List Gp) : Prop :=
   populateMarkers (rText sp g gs).length (secsOf (rGroups sp 0 (g :: gs))) (trsOf (rGroups sp 0 (g :: gs))) =
     Lay.trDescS.markers (rGroups sp 0 (g :: gs)) (rText sp g gs).length
@@ -880,6 +895,2642 @@ theorem C01_finders_TR_desc_S (mc : MC) (hns : isLegal Gen.LEGAL_NS mc.ns = true
   refine ⟨?_, secFinder_rText sp hsp g gs hok hgs rc, rGroups_comps sp hsp _ gs g [] (by simp [rText]) hok hgs⟩
   rw [trsOf_rGroups]; exact twprgeFinder_rText mc hns hew sp hsp g gs hok hgs
 
+/-! ## Part 4b — the markers of the canonical text -/
+
+theorem Within.mono {lo lo' hi hi' : Nat} {b : List (Nat × Marker)} (h : Within lo' hi' b) (h1 : lo ≤ lo') (h2 : hi' ≤ hi) :
+    Within lo hi b :=
+  ⟨h.1, fun e he => by have := h.2 e he; omega⟩
+
+theorem rItems_cons (p : Nat) (z : Ln) (zs : List Ln) : rItems p (z :: zs) = rItems1 (p + 1) z zs := rfl
+
+theorem rlines_length (l : Ln) (z : Ln) (zs : List Ln) :
+    (l.rt ++ rlns (z :: zs)).length = l.rt.length + 1 + (z.rt ++ rlns zs).length := by
+  simp [rlns]; omega
+
+/-- the markers of the lines of a group stand at strictly increasing positions; the last one at the end of the last line -/
+theorem rItems1_within : ∀ (ls : List Ln) (l : Ln) (p : Nat),
+    Within p (p + (l.rt ++ rlns ls).length + 1) (imk (rItems1 p l ls))
+  | [], l, p => by
+    have hl := l.rt_length
+    have e : imk (rItems1 p l []) = [(p + l.d.length + 2, Marker.secStart), (p + l.d.length + 9, Marker.secEnd)] := by
+      simp [rItems1, rItems, imk]
+    rw [e]
+    simp only [rlns, List.append_nil, hl]
+    refine Within.cons (by simp; omega) (Within.cons (by simp) (Within.nil _ _) (by simp; omega)) (by simp; omega)
+  | z :: zs, l, p => by
+    have hl := l.rt_length
+    have ih := rItems1_within zs z (p + l.rt.length + 1)
+    have e : imk (rItems1 p l (z :: zs)) = (p + l.d.length + 2, Marker.secStart) :: (p + l.d.length + 9, Marker.secEnd) ::
+        imk (rItems1 (p + l.rt.length + 1) z zs) := by
+      simp [rItems1, rItems, imk]
+    rw [e, rlines_length]
+    refine Within.cons (by simp; omega) (Within.cons (by simp) ?_ (by simp; omega)) (by simp; omega)
+    exact ih.mono (by simp; omega) (by omega)
+
+theorem rItems1_last : ∀ (ls : List Ln) (l : Ln) (p : Nat),
+    ∃ s, imk (rItems1 p l ls) = s ++ [(p + (l.rt ++ rlns ls).length, Marker.secEnd)]
+  | [], l, p => by
+    have hl := l.rt_length
+    refine ⟨[(p + l.d.length + 2, Marker.secStart)], ?_⟩
+    simp [rItems1, rItems, imk, rlns, hl]; omega
+  | z :: zs, l, p => by
+    obtain ⟨s, hs⟩ := rItems1_last zs z (p + l.rt.length + 1)
+    refine ⟨(p + l.d.length + 2, Marker.secStart) :: (p + l.d.length + 9, Marker.secEnd) :: s, ?_⟩
+    have e : imk (rItems1 p l (z :: zs)) = (p + l.d.length + 2, Marker.secStart) :: (p + l.d.length + 9, Marker.secEnd) ::
+        imk (rItems1 (p + l.rt.length + 1) z zs) := by
+      simp [rItems1, rItems, imk]
+    rw [e, hs, rlines_length]
+    simp; omega
+
+theorem rGroup_markers (sp : Str) (q : Nat) (g : Gp) :
+    groupMarkers (rGroup sp q g) = (q, Marker.trStart) :: (q + g.h.text.length, Marker.trEnd) ::
+      imk (rItems1 (q + g.h.text.length + sp.length) g.l g.ls) := rfl
+
+theorem rGroup_within (sp : Str) (hsp : SepOk sp) (g : Gp) (q : Nat) :
+    Within q (q + (g.rt sp).length + 1) (groupMarkers (rGroup sp q g)) := by
+  have hh := g.h.text_length
+  have hspl : 0 < sp.length := List.length_pos_iff.mpr hsp.ne
+  have ih := rItems1_within g.ls g.l (q + g.h.text.length + sp.length)
+  rw [rGroup_markers, g.rt_length]
+  refine Within.cons (Nat.le_refl _) (Within.cons (by simp; omega) ?_ (by simp; omega)) (by simp; omega)
+  exact ih.mono (by simp; omega) (by omega)
+
+theorem rdoc_length (sp : Str) (g g' : Gp) (gs : List Gp) :
+    (g.rt sp ++ rgps sp (g' :: gs)).length = (g.rt sp).length + 1 + (g'.rt sp ++ rgps sp gs).length := by
+  simp [rgps]; omega
+
+/-- the markers of the arrangement stand at strictly increasing positions -/
+theorem rGroups_within (sp : Str) (hsp : SepOk sp) : ∀ (gs : List Gp) (g : Gp) (q : Nat),
+    Within q (q + (g.rt sp ++ rgps sp gs).length + 1) ((rGroups sp q (g :: gs)).flatMap groupMarkers)
+  | [], g, q => by
+    have := rGroup_within sp hsp g q
+    simpa [rGroups, rgps] using this
+  | g' :: gs, g, q => by
+    have h1 := rGroup_within sp hsp g q
+    have ih := rGroups_within sp hsp gs g' (q + (g.rt sp).length + 1)
+    have e : (rGroups sp q (g :: g' :: gs)).flatMap groupMarkers = groupMarkers (rGroup sp q g) ++
+        (rGroups sp (q + (g.rt sp).length + 1) (g' :: gs)).flatMap groupMarkers := by
+      simp [rGroups]
+    rw [e, rdoc_length]
+    have hh : q + (g.rt sp).length + 1 + (g'.rt sp ++ rgps sp gs).length + 1 =
+        q + ((g.rt sp).length + 1 + (g'.rt sp ++ rgps sp gs).length) + 1 := by omega
+    rw [← hh]
+    exact Within.append h1 ih (Nat.le_refl _) (by omega) (by omega)
+
+theorem secMk_cons (G : TRGroup) (Gs : List TRGroup) : secMk (secsOf (G :: Gs)) = imk G.items ++ secMk (secsOf Gs) := by
+  simp [secMk, secsOf, imk, List.flatMap_append, List.flatMap_map]
+
+/-- the last marker is the end of the last section reference = the end of the text -/
+theorem rGroups_last (sp : Str) : ∀ (gs : List Gp) (g : Gp) (q : Nat),
+    ∃ s init, secMk (secsOf (rGroups sp q (g :: gs))) = s ++ [(q + (g.rt sp ++ rgps sp gs).length, Marker.secEnd)] ∧
+      (rGroups sp q (g :: gs)).flatMap groupMarkers = init ++ [(q + (g.rt sp ++ rgps sp gs).length, Marker.secEnd)]
+  | [], g, q => by
+    obtain ⟨s, hs⟩ := rItems1_last g.ls g.l (q + g.h.text.length + sp.length)
+    have hlen : q + g.h.text.length + sp.length + (g.l.rt ++ rlns g.ls).length = q + (g.rt sp ++ rgps sp []).length := by
+      simp only [rgps, List.append_nil, g.rt_length]; omega
+    rw [hlen] at hs
+    refine ⟨s, (q, Marker.trStart) :: (q + g.h.text.length, Marker.trEnd) :: s, ?_, ?_⟩
+    · rw [show rGroups sp q [g] = [rGroup sp q g] from rfl, secMk_cons]
+      simp [secMk, secsOf, rGroup, hs]
+    · simp [rGroups, rGroup_markers, hs]
+  | g' :: gs, g, q => by
+    obtain ⟨s, init, h1, h2⟩ := rGroups_last sp gs g' (q + (g.rt sp).length + 1)
+    have hlen : q + (g.rt sp).length + 1 + (g'.rt sp ++ rgps sp gs).length = q + (g.rt sp ++ rgps sp (g' :: gs)).length := by
+      rw [rdoc_length]; omega
+    rw [hlen] at h1 h2
+    refine ⟨imk (rGroup sp q g).items ++ s, groupMarkers (rGroup sp q g) ++ init, ?_, ?_⟩
+    · rw [show rGroups sp q (g :: g' :: gs) = rGroup sp q g :: rGroups sp (q + (g.rt sp).length + 1) (g' :: gs) from rfl,
+        secMk_cons, h1, List.append_assoc]
+    · rw [show rGroups sp q (g :: g' :: gs) = rGroup sp q g :: rGroups sp (q + (g.rt sp).length + 1) (g' :: gs) from rfl,
+        List.flatMap_cons, h2, List.append_assoc]
+
+/-- **the markers of the canonical text** -/
+theorem markersOK_rText (sp : Str) (hsp : SepOk sp) (g : Gp) (gs : List Gp) : MarkersOK sp g gs := by
+  unfold MarkersOK
+  obtain ⟨s, init, h1, h2⟩ := rGroups_last sp gs g 0
+  rw [Nat.zero_add] at h1 h2
+  have hw := rGroups_within sp hsp gs g 0
+  have hmk : Lay.trDescS.markers (rGroups sp 0 (g :: gs)) (rText sp g gs).length =
+      (rGroups sp 0 (g :: gs)).flatMap groupMarkers := by
+    have hfirstT : firstT (rGroups sp 0 (g :: gs)) = 0 := by simp [rGroups, firstT, rGroup]
+    simp only [Lay.markers, Lay.core, hfirstT, pre0, if_true, List.nil_append, withEnd]
+    rw [if_pos]
+    rw [h2]; simp [lastPos, rText]
+  rw [hmk]
+  refine populateMarkers_R _ _ _ _ hw.1 (markers_perm _) (trMk (trsOf (rGroups sp 0 (g :: gs)))).tail s [] ?_ ?_
+  · simp [rGroups, rGroup, trsOf, trMk]
+  · rw [h1]; rfl
+
+/-! ## Part 4c — the layout is deduced -/
+
+theorem rbody_last : ∀ (ls : List Ln) (l : Ln), ∃ X, l.rt ++ rlns ls = X ++ [':']
+  | [], l => ⟨l.d ++ [',', ' ', 'S', 'e', 'c', ' ', l.n1, l.n2], by simp [Ln.rt, Ln.ref, rlns]⟩
+  | z :: zs, l => by
+    obtain ⟨X, h⟩ := rbody_last zs z
+    exact ⟨l.rt ++ '\n' :: X, by simp [rlns, h]⟩
+
+theorem rText_last (sp : Str) : ∀ (gs : List Gp) (g : Gp), ∃ X, g.rt sp ++ rgps sp gs = X ++ [':']
+  | [], g => by
+    obtain ⟨X, h⟩ := rbody_last g.ls g.l
+    exact ⟨g.h.text ++ sp ++ X, by simp [Gp.rt, Gp.rbody, rgps, h]⟩
+  | g' :: gs, g => by
+    obtain ⟨X, h⟩ := rText_last sp gs g'
+    exact ⟨g.rt sp ++ '\n' :: X, by simp [rgps, h]⟩
+
+theorem pyStrip_rText (sp : Str) (g : Gp) (gs : List Gp) : pyStrip (rText sp g gs) = rText sp g gs := by
+  obtain ⟨X, hX⟩ := rText_last sp gs g
+  have hhead : rText sp g gs = 'T' :: ((g.h.t ++ g.h.ns :: '-' :: 'R' :: (g.h.r ++ [g.h.ew])) ++ (g.rbody sp ++ rgps sp gs)) := by
+    simp [rText, Gp.rt, Hd.text, canonText]
+  have hlast : (rText sp g gs).getLast? = some ':' := by
+    rw [rText, hX]; exact List.getLast?_concat
+  unfold pyStrip stripBy
+  have h1 : lstripBy pyIsSpace (rText sp g gs) = rText sp g gs := by
+    rw [hhead]; exact Pretty.lstripBy_head_false _ _ _ Pretty.pyIsSpace_T
+  rw [h1]
+  exact Pretty.rstripBy_getLast_false _ _ ':' hlast (by decide)
+
+theorem nonum_skips_safe (seg tail : Str) (h : ∀ c ∈ seg, Danger.mem c = false) : Skips Gen.no_num_sec_regex seg tail := by
+  refine Skips.of_first (by decide +kernel) _ _ ?_
+  intro c hc cs hcs
+  have : Gen.no_num_sec_regex.firstSets.all (fun cs => cs.sub Danger) = true := by decide +kernel
+  simp only [List.all_eq_true] at this
+  exact noHit_of_notMem (h c hc) cs (this cs hcs)
+
+/-- the first section word of the canonical text stands behind the first header, its separator and the first block -/
+theorem nonum_search_rText (sp : Str) (hsp : SepOk sp) (g : Gp) (hok : g.Ok) (rest : Str) :
+    ∃ sm, Gen.no_num_sec_regex.search (g.rt sp ++ rest) = some sm ∧ sm.start = g.h.text.length + sp.length + g.l.d.length + 2 := by
+  have hl := hok.ls g.l (by simp [Gp.lines])
+  have hsk1 : Skips Gen.no_num_sec_regex (g.h.text ++ sp) ((g.l.d ++ [',', ' ']) ++ (g.l.ref ++ (rlns g.ls ++ rest))) :=
+    skips_header nonum_skips_plain (fun r => FailsOn.congr nonum_decomp (FailsOn.grp 1 (failsOn_secA_S r))) g.h hok.h sp hsp.chars _
+  have hsk2 : Skips Gen.no_num_sec_regex (g.l.d ++ [',', ' ']) (g.l.ref ++ (rlns g.ls ++ rest)) :=
+    nonum_skips_safe _ _ (by
+      intro c hc
+      rcases List.mem_append.1 hc with hc | hc
+      · exact hl.d.safe c hc
+      · simp only [List.mem_cons, List.not_mem_nil, or_false] at hc
+        rcases hc with rfl | rfl <;> decide +kernel)
+  have hsk := Skips.append hsk1 hsk2
+  have htxt : g.rt sp ++ rest = ((g.h.text ++ sp) ++ (g.l.d ++ [',', ' '])) ++ (g.l.ref ++ (rlns g.ls ++ rest)) := by
+    simp [Gp.rt, Gp.rbody, Ln.rt]
+  rw [search_default, htxt, scan_skipSeg hsk none 0]
+  have hL := (eats_secWord 1 (g.l.n1 :: g.l.n2 :: ':' :: (rlns g.ls ++ rest))) (lastOr none ((g.h.text ++ sp) ++ (g.l.d ++ [',', ' '])))
+    (0 + ((g.h.text ++ sp) ++ (g.l.d ++ [',', ' '])).length) []
+  rw [← nonum_decomp] at hL
+  have hm := matchHere_of_leads false hL (Or.inl rfl)
+  have e : g.l.ref ++ (rlns g.ls ++ rest) = 'S' :: (['e', 'c'] ++ ' ' :: (g.l.n1 :: g.l.n2 :: ':' :: (rlns g.ls ++ rest))) := by
+    simp [Ln.ref]
+  rw [e, LT.scan_cons]
+  have e2 : (['S', 'e', 'c'] ++ ' ' :: (g.l.n1 :: g.l.n2 :: ':' :: (rlns g.ls ++ rest))) =
+      'S' :: (['e', 'c'] ++ ' ' :: (g.l.n1 :: g.l.n2 :: ':' :: (rlns g.ls ++ rest))) := rfl
+  rw [e2] at hm
+  rw [hm]
+  exact ⟨_, rfl, by simp; omega⟩
+
+theorem pyStrip_block (sp : Str) (hsp : SepOk sp) (d : Str) (hd : Inert d) : pyStrip (sp ++ d ++ [',', ' ']) = d ++ [','] := by
+  obtain ⟨d0, d', e, h1, h2⟩ := hd.head_cons
+  have hne : d0 ≠ ' ' := by rintro rfl; rw [headDanger_blank] at h2; cases h2
+  have hd0 : pyIsSpace d0 = false := notSpace_of_safe h1 hne
+  have hall : ∀ c ∈ sp, pyIsSpace c = true := by
+    intro c hc
+    rcases hsp.chars c hc with rfl | rfl
+    · exact pyIsSpace_blank
+    · exact pyIsSpace_nl'
+  have := Pretty.stripBy_around pyIsSpace sp (d ++ [',']) [' '] hall (by intro c hc; simp at hc; subst hc; exact pyIsSpace_blank)
+    (by rw [e]; exact Pretty.lstripBy_head_false _ _ _ hd0)
+    (Pretty.rstripBy_getLast_false _ _ ',' List.getLast?_concat (by decide))
+  unfold pyStrip
+  rw [← this]; simp
+
+/-- **the layout of the canonical text is deduced** (first block of at least 3 characters): the Twp/Rge comes first, and at
+    least 4 characters stand between it and the first section word -/
+theorem deduceLayout_rText (sp : Str) (hsp : SepOk sp) (g : Gp) (gs : List Gp) (hok : g.Ok) (hgs : ∀ x ∈ gs, x.Ok)
+    (h3 : 3 ≤ g.l.d.length) : deduceLayout (rText sp g gs) = TR_DESC_S := by
+  have hl := hok.ls g.l (by simp [Gp.lines])
+  obtain ⟨sm, hsm, hstart⟩ := nonum_search_rText sp hsp g hok (rgps sp gs)
+  have htr : twprge.rx.search (rText sp g gs) = some (twMk g.h 0) :=
+    (twprge_tiles_rText sp hsp g gs hok hgs).search_eq.trans rfl
+  have hstop : (twMk g.h 0).stop = g.h.text.length := by simp [twMk, Spelling.matchAt, g.h.sp_text]
+  have hslice : slice (rText sp g gs) g.h.text.length (g.h.text.length + sp.length + g.l.d.length + 2) = sp ++ g.l.d ++ [',', ' '] := by
+    refine slice_at _ g.h.text _ (g.l.ref ++ (rlns g.ls ++ rgps sp gs)) _ _ ?_ rfl (by simp; omega)
+    simp [rText, Gp.rt, Gp.rbody, Ln.rt]
+  have h0 : (twMk g.h 0).start = 0 := rfl
+  unfold deduceLayout
+  rw [pyStrip_rText sp g gs]
+  simp only []
+  rw [show g.rt sp ++ rgps sp gs = rText sp g gs from rfl] at hsm
+  rw [hsm, htr]
+  simp only [hstart, hstop, hslice, pyStrip_block sp hsp g.l.d hl.d, h0]
+  have hc : ([TRS_DESC, DESC_STR, S_DESC_TR, TR_DESC_S] : List Str).contains TR_DESC_S = true := by decide
+  have hlen : (g.l.d ++ [',']).length ≥ 4 := by simp; omega
+  simp [hc, hlen]
+  intro h; omega
+
+/-- **C01 (layout Twp/Rge–desc–Sec, chunk level, no lexical premise)**: `parse_chunk` on the canonical text — per group the
+    Twp/Rge, a separator of blanks / line breaks, then lines `<inert block>, Sec nn:`; first block of at least 3 characters —
+    deduces (or accepts) the layout TR_desc_S, raises neither an error nor a warning flag, and (without `sec_within`) stages
+    exactly one component per line, in reading order, with the Twp/Rge of its group, its section and its block verbatim -/
+theorem C01_chunk_canonical_TR_desc_S (mc : MC) (pc : ParserCfg) (hns : isLegal Gen.LEGAL_NS mc.ns = true)
+    (hew : isLegal Gen.LEGAL_EW mc.ew = true) (sp : Str) (hsp : SepOk sp) (g : Gp) (gs : List Gp) (hok : g.Ok)
+    (hgs : ∀ x ∈ gs, x.Ok) (h3 : 3 ≤ g.l.d.length) (parentLayout : Str)
+    (hml : pc.mandateLayout = true → parentLayout = TR_DESC_S) :
+    ∃ c, parseChunkCore mc pc (rText sp g gs) false parentLayout = .ok c ∧ c.fl.e = [] ∧ c.fl.w = [] ∧
+      (pc.secWithin = false → c.comps = docComps (g :: gs)) := by
+  have hlay : chunkLayoutOf pc (rText sp g gs) false parentLayout = TR_DESC_S := by
+    unfold chunkLayoutOf
+    simp only [Bool.false_eq_true, if_false]
+    split
+    · rename_i h; exact hml h
+    · exact deduceLayout_rText sp hsp g gs hok hgs h3
+  exact C01_chunk_canonical_TR_desc_S_partial mc pc hns hew sp hsp g gs hok hgs parentLayout hlay (markersOK_rText sp hsp g gs)
+
+/-- the full chunk-level statement recorded in Part 4 is proved -/
+theorem C01_chunk_canonical_TR_desc_S_full : C01_chunk_canonical_TR_desc_S_statement :=
+  fun mc pc hns hew sp hsp g gs hok hgs h3 parentLayout hml =>
+    C01_chunk_canonical_TR_desc_S mc pc hns hew sp hsp g gs hok hgs h3 parentLayout hml
+
+/-- **C01 (layout Twp/Rge–desc–Sec): the lexical premise `Reports` of `Lemmas/Segment.lean` holds for the canonical text**, no premise -/
+theorem C01_reports_canonical_TR_desc_S (mc : MC) (hns : isLegal Gen.LEGAL_NS mc.ns = true) (hew : isLegal Gen.LEGAL_EW mc.ew = true)
+    (sp : Str) (hsp : SepOk sp) (g : Gp) (gs : List Gp) (hok : g.Ok) (hgs : ∀ x ∈ gs, x.Ok) (rc : ReqColon) :
+    Reports mc rc (rText sp g gs) .trDescS (rGroups sp 0 (g :: gs)) :=
+  C01_reports_TR_desc_S mc hns hew sp hsp g gs hok hgs rc (markersOK_rText sp hsp g gs)
+
+/-! ## Part 6 — preprocessing of the canonical text
+
+Every scrubber rewrites a Twp/Rge into its canonical text and a blank; `pp_twprge_comma_remove` swallows the separator.  The
+text ends in `Sec nn:`, so nothing is stripped at the end. -/
+
+/-- a pattern that must hit a digit and has no path from `e` to `c` -/
+theorem RGap.ofDigit {r : Rx} (hmD : r.mustHitP (fun cs => cs.sub digitD) = true) (hec : r.adjB 'e' 'c' = false) : RGap r where
+  blk := by
+    intro ws l rest hws hl
+    have hnd : ∀ c, c = ' ' ∨ c = '\n' ∨ c = 'S' ∨ c = 'e' ∨ c = ',' → ∀ cs : CharSet, cs.sub digitD = true → cs.mem c = false := by
+      intro c hc
+      rcases hc with rfl | rfl | rfl | rfl | rfl <;> exact noHit_of_notMem (by decide +kernel)
+    have e : l.ref ++ rest = ['S'] ++ 'e' :: 'c' :: (' ' :: l.n1 :: l.n2 :: ':' :: rest) := by simp [Ln.ref]
+    rw [e]
+    refine Skips.of_break hmD _ ['S'] 'e' 'c' _ ?_ ?_ hec
+    · intro c hc
+      rcases List.mem_append.1 hc with hc | hc
+      · rcases hws c hc with rfl | rfl
+        · exact hnd _ (Or.inl rfl)
+        · exact hnd _ (Or.inr (Or.inl rfl))
+      · rcases List.mem_append.1 hc with hc | hc
+        · exact noHit_of_notMem (danger_not_digit (hl.d.safe c hc))
+        · simp only [List.mem_cons, List.not_mem_nil, or_false] at hc
+          rcases hc with rfl | rfl
+          · exact hnd _ (Or.inr (Or.inr (Or.inr (Or.inr rfl))))
+          · exact hnd _ (Or.inl rfl)
+    · intro c hc
+      simp only [List.cons_append, List.nil_append, List.mem_cons, List.not_mem_nil, or_false] at hc
+      rcases hc with rfl | rfl
+      · exact hnd _ (Or.inr (Or.inr (Or.inl rfl)))
+      · exact hnd _ (Or.inr (Or.inr (Or.inr (Or.inl rfl))))
+
+theorem nswe_rGap : RGap Gen.pp_twprge_no_nswe := RGap.ofFirst (by decide +kernel) (by decide +kernel)
+theorem nsr_rGap : RGap Gen.pp_twprge_no_nsr := RGap.ofFirst (by decide +kernel) (by decide +kernel)
+theorem ewt_rGap : RGap Gen.pp_twprge_no_ewt := RGap.ofDigit (by decide +kernel) (by decide +kernel)
+theorem comma_rGap : RGap Gen.pp_twprge_comma_remove where
+  blk := fun ws l rest hws hl => skips_comma (twprge_rGap.blk ws l rest hws hl)
+
+/-- **one scrubbing pass along the headers** of the Twp/Rge–desc–Sec text: every header (with the part `e` of its separator
+    `e ++ w` that the pattern swallows) is replaced by its canonical text and a blank, everything else is kept -/
+theorem rewrite_rhdr (p : Pat) (ns ew e w : Str) (mk : Hd → Nat → Match) (text : Str)
+    (hstart : ∀ h pos, (mk h pos).start = pos)
+    (hstop : ∀ h pos, (mk h pos).stop = pos + h.text.length + e.length)
+    (hcan : ∀ (g : Gp) (pre post : Str), g.Ok → g.h.Canon → text = pre ++ (g.rt (e ++ w) ++ post) →
+      canonTR p (mk g.h pre.length) text ns ew false = g.h.text) :
+    ∀ (gs : List Gp) (g : Gp) (pre mid : Str), g.Ok → g.h.Canon → (∀ x ∈ gs, x.Ok ∧ x.h.Canon) →
+      text = pre ++ mid ++ (g.rt (e ++ w) ++ rgps (e ++ w) gs) →
+      rewrite p text ns ew false (rhdrMs mk (e ++ w) (pre ++ mid).length (g :: gs)) pre.length =
+        mid ++ (g.rt (' ' :: w) ++ rgps (' ' :: w) gs)
+  | [], g, pre, mid, hok, hc, _, htext => by
+    have hm := hcan g (pre ++ mid) [] hok hc (by rw [htext]; simp [rgps])
+    have hsl : slice text pre.length (pre ++ mid).length = mid :=
+      slice_at text pre mid (g.rt (e ++ w) ++ rgps (e ++ w) []) _ _ (by rw [htext]; simp) rfl (by simp)
+    have hd : text.drop ((pre ++ mid).length + g.h.text.length + e.length) = w ++ (g.l.rt ++ rlns g.ls) := by
+      have : text = (pre ++ mid ++ g.h.text ++ e) ++ (w ++ (g.l.rt ++ rlns g.ls)) := by rw [htext]; simp [Gp.rt, Gp.rbody, rgps]
+      rw [this]
+      have hl : (pre ++ mid).length + g.h.text.length + e.length = (pre ++ mid ++ g.h.text ++ e).length := by simp; omega
+      rw [hl, List.drop_left]
+    simp only [rhdrMs, rewrite, hstart, hstop, hm, hsl, hd, rgps]
+    simp [Gp.rt, Gp.rbody]
+  | g' :: gs, g, pre, mid, hok, hc, hgs, htext => by
+    have hm := hcan g (pre ++ mid) (rgps (e ++ w) (g' :: gs)) hok hc (by rw [htext])
+    have hsl : slice text pre.length (pre ++ mid).length = mid :=
+      slice_at text pre mid (g.rt (e ++ w) ++ rgps (e ++ w) (g' :: gs)) _ _ (by rw [htext]; simp) rfl (by simp)
+    have hg' := hgs g' (by simp)
+    have hgs' : ∀ x ∈ gs, x.Ok ∧ x.h.Canon := fun x hx => hgs x (by simp [hx])
+    rw [show rhdrMs mk (e ++ w) (pre ++ mid).length (g :: g' :: gs) =
+      mk g.h (pre ++ mid).length :: rhdrMs mk (e ++ w) ((pre ++ mid).length + (g.rt (e ++ w)).length + 1) (g' :: gs) from rfl]
+    simp only [rewrite, hstart, hstop, hm, hsl]
+    have ih := rewrite_rhdr p ns ew e w mk text hstart hstop hcan gs g' (pre ++ mid ++ g.h.text ++ e) (w ++ (g.l.rt ++ rlns g.ls) ++ ['\n'])
+      hg'.1 hg'.2 hgs' (by rw [htext]; simp [Gp.rt, Gp.rbody, rgps])
+    have hl1 : (pre ++ mid ++ g.h.text ++ e ++ (w ++ (g.l.rt ++ rlns g.ls) ++ ['\n'])).length = (pre ++ mid).length + (g.rt (e ++ w)).length + 1 := by
+      simp [Gp.rt, Gp.rbody]; omega
+    have hl2 : (pre ++ mid ++ g.h.text ++ e).length = (pre ++ mid).length + g.h.text.length + e.length := by simp; omega
+    rw [hl1, hl2] at ih
+    rw [ih]
+    simp [Gp.rt, Gp.rbody, rgps]
+
+/-- one pass of a scrubber whose matches are the headers (with the part `e` of the separator) -/
+theorem scrub_rText (name : String) (p : Pat) (hp : findPat name = p) (hocr : (name == Gen.PLSS_OCR_SCRUBBER) = false)
+    (hg : GapSkips p.rx) (hr : RGap p.rx) (e w : Str) (hw : WsOk w) (mk : Hd → Nat → Match)
+    (hstart : ∀ h pos, (mk h pos).start = pos)
+    (hstop : ∀ h pos, (mk h pos).stop = pos + h.text.length + e.length)
+    (htok : ∀ (h : Hd) (l : Ln) (rest : Str) (prev : Option Char) (pos : Nat), h.Ok → l.Ok →
+       isWord Gen.cs_14d6aa8a prev = false →
+       matchHere p.rx ⟨prev, (h.text ++ e) ++ (w ++ (l.d ++ rest)), pos, []⟩ false = some (mk h pos))
+    (ns ew : Str) (h1 : isLegal Gen.LEGAL_NS ns = true) (h2 : isLegal Gen.LEGAL_EW ew = true)
+    (hcan : ∀ (text : Str) (g : Gp) (pre post : Str), g.Ok → g.h.Canon → text = pre ++ (g.rt (e ++ w) ++ post) →
+      canonTR p (mk g.h pre.length) text ns ew false = g.h.text)
+    (g : Gp) (gs : List Gp) (hok : g.Ok) (hc : g.h.Canon) (hgs : ∀ x ∈ gs, x.Ok ∧ x.h.Canon) :
+    subScrubber name (rText (e ++ w) g gs) ns ew = .ok (rText (' ' :: w) g gs) := by
+  have hgs' : ∀ x ∈ gs, x.Ok := fun x hx => (hgs x hx).1
+  have hfi : p.rx.finditer (rText (e ++ w) g gs) = rhdrMs mk (e ++ w) 0 (g :: gs) :=
+    (rTiles p.rx hg hr e w hw mk
+      (fun h l rest prev pos hh hl hprev => ⟨htok h l rest prev pos hh hl hprev, hstart h pos, by rw [hstop]; simp; omega⟩)
+      gs g 0 none hok hgs' isWord_none).finditer_eq
+  rw [C08_subScrubber_rewrites name _ ns ew h1 h2, hp, hocr, hfi]
+  have := rewrite_rhdr p ns ew e w mk (rText (e ++ w) g gs) hstart hstop (hcan _) gs g [] [] hok hc hgs (by simp [rText])
+  simp only [List.append_nil, List.length_nil, List.nil_append] at this
+  rw [this]; rfl
+
+theorem endsTwprge_rbody (sp : Str) (hsp : SepOk sp) (g : Gp) (post : Str) : EndsTwprge (g.rbody sp ++ post) := by
+  simp only [Gp.rbody, List.append_assoc]; exact endsTwprge_sep sp _ hsp
+
+theorem twprge_hcanR (sp : Str) (hsp : SepOk sp) (ns ew : Str) (text : Str) (g : Gp) (pre post : Str) (hok : g.Ok) (hc : g.h.Canon)
+    (htext : text = pre ++ (g.rt sp ++ post)) : canonTR twprge (twMk g.h pre.length) text ns ew false = g.h.text := by
+  have hv := g.h.valid hok.h (g.rbody sp ++ post) (endsTwprge_rbody sp hsp g post)
+  have htext' : text = pre ++ (g.h.sp.text ++ (g.rbody sp ++ post)) := by rw [htext, g.h.sp_text]; simp [Gp.rt]
+  rw [htext']
+  exact (g.h.sp.canonTR_at pre _ hv ns ew).trans (g.h.canon_text hok.h hc)
+
+/-- scrubber 1 (`twprge_regex`): a blank is inserted behind every header -/
+theorem scrub1_rText (sp : Str) (hsp : SepOk sp) (ns ew : Str) (h1 : isLegal Gen.LEGAL_NS ns = true) (h2 : isLegal Gen.LEGAL_EW ew = true)
+    (g : Gp) (gs : List Gp) (hok : g.Ok) (hc : g.h.Canon) (hgs : ∀ x ∈ gs, x.Ok ∧ x.h.Canon) :
+    subScrubber "twprge_regex" (rText sp g gs) ns ew = .ok (rText (' ' :: sp) g gs) := by
+  have := scrub_rText "twprge_regex" twprge rfl (by decide) twprge_gapSkips twprge_rGap [] sp hsp.ws twMk (fun _ _ => rfl)
+    (fun h pos => by simp [twMk, Spelling.matchAt, h.sp_text])
+    (fun h l rest prev pos hh hl hprev => (twprge_tokR sp hsp h l rest prev pos hh hprev).1) ns ew h1 h2
+    (fun text g' pre post hok' hc' htext => twprge_hcanR sp hsp ns ew text g' pre post hok' hc' (by simpa using htext))
+    g gs hok hc hgs
+  simpa using this
+
+/-- the common part of scrubbers 2–4 -/
+theorem scrubPP_rText (name : String) (p : Pat) (hp : findPat name = p) (hocr : (name == Gen.PLSS_OCR_SCRUBBER) = false)
+    (hg : GapSkips p.rx) (hr : RGap p.rx)
+    (hidx : p.idx? "twpnum" = some 3 ∧ p.idx? "ns" = some 4 ∧ p.idx? "rgenum" = some 6 ∧ p.idx? "ew" = some 7)
+    (caps : Str → Str → Nat → Caps) (hcaps : ∀ t r pos stop, CanonAt ⟨pos, stop, caps t r pos⟩ pos t r)
+    (hat : ∀ (t r : Str) (nc ec : Char) (ctx : Str), CanonHyp t r nc ec ctx → ∀ (prev : Option Char) (pos : Nat),
+      isWord Gen.cs_14d6aa8a prev = false →
+      matchHere p.rx ⟨prev, canonText t nc r ec ++ ctx, pos, []⟩ false = some ⟨pos, pos + (5 + t.length + r.length), caps t r pos⟩)
+    (sp : Str) (hsp : SepOk sp) (ns ew : Str) (h1 : isLegal Gen.LEGAL_NS ns = true) (h2 : isLegal Gen.LEGAL_EW ew = true)
+    (g : Gp) (gs : List Gp) (hok : g.Ok) (hc : g.h.Canon) (hgs : ∀ x ∈ gs, x.Ok ∧ x.h.Canon) :
+    subScrubber name (rText sp g gs) ns ew = .ok (rText (' ' :: sp) g gs) := by
+  have := scrub_rText name p hp hocr hg hr [] sp hsp.ws
+    (fun h pos => ⟨pos, pos + (5 + h.t.length + h.r.length), caps h.t h.r pos⟩) (fun _ _ => rfl)
+    (fun h pos => by simp [h.text_length])
+    (fun h l rest prev pos hh hl hprev => by
+      have := hat h.t h.r h.ns h.ew _ (h.canonHyp hh (sp ++ (l.d ++ rest)) (endsTwprge_sep sp _ hsp)) prev pos hprev
+      simpa [Hd.text] using this)
+    ns ew h1 h2
+    (fun text g' pre post hok' hc' htext => by
+      have htext' : text = pre ++ (canonText g'.h.t g'.h.ns g'.h.r g'.h.ew ++ (g'.rbody sp ++ post)) := by
+        rw [htext]; simp [Gp.rt, Hd.text]
+      rw [htext']
+      exact (canonTR_of_canonAt p hidx _ g'.h.t g'.h.r g'.h.ns g'.h.ew pre _ (hcaps _ _ _ _) hok'.h.ns hok'.h.ew ns ew).trans
+        (g'.h.canon_canonText hc'))
+    g gs hok hc hgs
+  simpa using this
+
+/-- the characters of the text -/
+theorem docCh_rline (l : Ln) (hl : l.Ok) : ∀ c ∈ l.rt, DocCh c := by
+  intro c hc
+  have : c = ',' ∨ c ∈ l.text := by
+    simp only [Ln.rt, Ln.text, List.mem_append, List.mem_cons] at hc ⊢
+    rcases hc with h | h | h | h
+    · exact Or.inr (Or.inr (Or.inr h))
+    · exact Or.inl h
+    · exact Or.inr (Or.inr (Or.inl h))
+    · exact Or.inr (Or.inl h)
+  rcases this with rfl | h
+  · exact Or.inr (Or.inr (Or.inr (Or.inr (Or.inr (by decide +kernel)))))
+  · exact docCh_line l hl c h
+
+theorem docCh_rlns : ∀ (ls : List Ln), (∀ l ∈ ls, l.Ok) → ∀ c ∈ rlns ls, DocCh c
+  | [], _, c, hc => by cases hc
+  | l :: ls, hls, c, hc => by
+    simp only [rlns, List.mem_cons, List.mem_append] at hc
+    rcases hc with rfl | hc | hc
+    · exact Or.inl (by decide)
+    · exact docCh_rline l (hls l (by simp)) c hc
+    · exact docCh_rlns ls (fun x hx => hls x (by simp [hx])) c hc
+
+theorem docCh_rgroup (sp : Str) (hsp : SepOk sp) (g : Gp) (hok : g.Ok) : ∀ c ∈ g.rt sp, DocCh c := by
+  intro c hc
+  simp only [Gp.rt, Gp.rbody, List.mem_append] at hc
+  rcases hc with hc | hc | hc | hc
+  · exact docCh_hdr g.h hok.h c hc
+  · rcases hsp.chars c hc with rfl | rfl <;> exact Or.inl (by decide)
+  · exact docCh_rline g.l (hok.ls g.l (by simp [Gp.lines])) c hc
+  · exact docCh_rlns g.ls (fun x hx => hok.ls x (by simp [Gp.lines, hx])) c hc
+
+theorem docCh_rgps (sp : Str) (hsp : SepOk sp) : ∀ (gs : List Gp), (∀ g ∈ gs, g.Ok) → ∀ c ∈ rgps sp gs, DocCh c
+  | [], _, c, hc => by cases hc
+  | g :: gs, hgs, c, hc => by
+    simp only [rgps, List.mem_cons, List.mem_append] at hc
+    rcases hc with rfl | hc | hc
+    · exact Or.inl (by decide)
+    · exact docCh_rgroup sp hsp g (hgs g (by simp)) c hc
+    · exact docCh_rgps sp hsp gs (fun x hx => hgs x (by simp [hx])) c hc
+
+theorem docCh_rText (sp : Str) (hsp : SepOk sp) (g : Gp) (gs : List Gp) (hok : g.Ok) (hgs : ∀ x ∈ gs, x.Ok) :
+    ∀ c ∈ rText sp g gs, DocCh c := by
+  intro c hc
+  rw [rText, List.mem_append] at hc
+  rcases hc with hc | hc
+  · exact docCh_rgroup sp hsp g hok c hc
+  · exact docCh_rgps sp hsp gs hgs c hc
+
+/-- scrubber 5 (`pp_twprge_pm`) finds nothing -/
+theorem scrub5_rText (sp : Str) (hsp : SepOk sp) (ns ew : Str) (h1 : isLegal Gen.LEGAL_NS ns = true) (h2 : isLegal Gen.LEGAL_EW ew = true)
+    (g : Gp) (gs : List Gp) (hok : g.Ok) (hgs : ∀ x ∈ gs, x.Ok) :
+    subScrubber "pp_twprge_pm" (rText sp g gs) ns ew = .ok (rText sp g gs) := by
+  have hm : Gen.pp_twprge_pm.mustHitP (fun cs => cs.sub pD) = true := by decide +kernel
+  refine scrub_none "pp_twprge_pm" ppPmPat rfl _ ns ew h1 h2 (finditer_nil_of_noHit hm _ ?_)
+  intro c hc
+  exact docCh_avoid pD (by decide) (by decide +kernel) (by decide) (docCh_rText sp hsp g gs hok hgs c hc)
+
+theorem comma_tokR (sp : Str) (hsp : SepOk sp) (h : Hd) (d0 : Char) (rest : Str) (hd0 : Gen.cs_0c338893.mem d0 = false)
+    (prev : Option Char) (pos : Nat) (hok : h.Ok) (hprev : isWord Gen.cs_14d6aa8a prev = false) :
+    matchHere Gen.pp_twprge_comma_remove ⟨prev, h.text ++ (sp ++ (d0 :: rest)), pos, []⟩ false = some (commaMk sp h pos) := by
+  have hv := h.valid hok (sp ++ (d0 :: rest)) (endsTwprge_sep sp _ hsp)
+  obtain ⟨c, t, htext, hc⟩ := hv.text_head
+  obtain ⟨f, hf, hcaps⟩ := eats_twBody h.sp (sp ++ (d0 :: rest)) hv
+  have h1 := leads_twG1 prev c t pos [] hprev hc
+  rw [← htext] at h1
+  have h2 := hf prev pos [(1, pos, pos)]
+  have h12 : Leads Gen.twprge_regex _ _ := Leads.congr_rx twprge_decomp (Leads.seq h1 h2)
+  have hws : ∀ c ∈ sp, Gen.cs_0c338893.mem c = true := by
+    intro c hc
+    rcases hsp.chars c hc with rfl | rfl <;> decide
+  have hstop : StopAt Gen.cs_0c338893 (d0 :: rest) := StopAt.cons hd0
+  have h15 := Eats.grp 15 (eats_dead Gen.cs_0c338893 sp (d0 :: rest) hws hstop) (lastOr prev h.sp.text) (pos + h.sp.text.length)
+    (f pos [(1, pos, pos)])
+  have hL := Leads.congr_rx comma_decomp (Leads.snoc (Leads.seq h12 h15))
+  rw [h.sp_text] at hL
+  rw [matchHere_of_leads false hL (Or.inl rfl), hcaps]
+  simp [commaMk, h.sp_text]
+
+theorem inert_head_notWs {d : Str} (hd : Inert d) : ∃ d0 d', d = d0 :: d' ∧ Gen.cs_0c338893.mem d0 = false := by
+  obtain ⟨d0, d', e, h1, h2⟩ := hd.head_cons
+  refine ⟨d0, d', e, ?_⟩
+  have hsub : Gen.cs_0c338893.sub ((Gen.PY_SPACE : CharSet) ++ (Danger ++ HeadDanger)) = true := by decide +kernel
+  exact noHit_of_notMem (head_out h1 h2) _ hsub
+
+/-- scrubber 6 (`pp_twprge_comma_remove`): every header with ALL the white space behind it becomes the header and one blank -/
+theorem scrub6_rText (sp : Str) (hsp : SepOk sp) (ns ew : Str) (h1 : isLegal Gen.LEGAL_NS ns = true) (h2 : isLegal Gen.LEGAL_EW ew = true)
+    (g : Gp) (gs : List Gp) (hok : g.Ok) (hc : g.h.Canon) (hgs : ∀ x ∈ gs, x.Ok ∧ x.h.Canon) :
+    subScrubber "pp_twprge_comma_remove" (rText sp g gs) ns ew = .ok (rText [' '] g gs) := by
+  have := scrub_rText "pp_twprge_comma_remove" commaPat rfl (by decide) comma_gapSkips comma_rGap sp [] (fun _ h => by cases h)
+    (commaMk sp) (fun _ _ => rfl) (fun h pos => by simp [commaMk])
+    (fun h l rest prev pos hh hl hprev => by
+      obtain ⟨d0, d', e, hd0⟩ := inert_head_notWs hl.d
+      have := comma_tokR sp hsp h d0 (d' ++ rest) hd0 prev pos hh hprev
+      rw [e]
+      have e2 : commaPat.rx = Gen.pp_twprge_comma_remove := rfl
+      rw [e2]
+      simpa using this)
+    ns ew h1 h2
+    (fun text g' pre post hok' hc' htext => by
+      have hv := g'.h.valid hok'.h (g'.rbody sp ++ post) (endsTwprge_rbody sp hsp g' post)
+      have htext' : text = pre ++ (g'.h.sp.text ++ (g'.rbody sp ++ post)) := by rw [htext, g'.h.sp_text]; simp [Gp.rt]
+      have := (g'.h.sp.canonTR_at pre _ hv ns ew).trans (g'.h.canon_text hok'.h hc')
+      rw [← htext'] at this
+      rw [← this]
+      simp only [canonTR, twpPart, rgePart, dirPart, commaMk, comma_group])
+    g gs hok hc hgs
+  simpa using this
+
+/-! ### white-space reduction -/
+
+theorem Good.snoc {x : Str} (hx : Good x) (c : Char) (hc : neutral c) : Good (x ++ [c]) where
+  np := noWsPair_join x c [] hx.np rfl hx.ne hx.last (fun _ h => by cases h)
+  ne := by simp
+  first := by
+    intro a ha
+    cases x with
+    | nil => exact absurd rfl hx.ne
+    | cons b x' => exact hx.first a (by simpa using ha)
+  last := by
+    intro a ha
+    rw [List.getLast?_concat] at ha
+    cases ha; exact hc
+
+theorem good_rline_after (x : Str) (hx : Good x) (w : Char) (l : Ln) (hl : l.Ok) : Good (x ++ w :: l.rt) := by
+  have h1 := ((hx.join (good_desc l.d hl.d) w).snoc ',' ⟨by decide, by decide⟩).join (good_ref l hl) ' '
+  simpa [Ln.rt, List.append_assoc] using h1
+
+theorem good_rlns : ∀ (ls : List Ln) (x : Str), Good x → (∀ l ∈ ls, l.Ok) → Good (x ++ rlns ls)
+  | [], x, hx, _ => by simpa [rlns] using hx
+  | l :: ls, x, hx, hls => by
+    have h1 := good_rline_after x hx '\n' l (hls l (by simp))
+    have := good_rlns ls _ h1 (fun y hy => hls y (by simp [hy]))
+    simpa [rlns, List.append_assoc] using this
+
+theorem good_rgroup (g : Gp) (hok : g.Ok) : Good (g.rt [' ']) := by
+  have h1 := good_rline_after _ (good_hdr g.h hok.h) ' ' g.l (hok.ls g.l (by simp [Gp.lines]))
+  have := good_rlns g.ls _ h1 (fun y hy => hok.ls y (by simp [Gp.lines, hy]))
+  simpa [Gp.rt, Gp.rbody, List.append_assoc] using this
+
+theorem good_rgps : ∀ (gs : List Gp) (x : Str), Good x → (∀ g ∈ gs, g.Ok) → Good (x ++ rgps [' '] gs)
+  | [], x, hx, _ => by simpa [rgps] using hx
+  | g :: gs, x, hx, hgs => by
+    have h1 := hx.join (good_rgroup g (hgs g (by simp))) '\n'
+    have := good_rgps gs _ h1 (fun y hy => hgs y (by simp [hy]))
+    simpa [rgps, List.append_assoc] using this
+
+theorem good_rText (g : Gp) (gs : List Gp) (hok : g.Ok) (hgs : ∀ x ∈ gs, x.Ok) : Good (rText [' '] g gs) :=
+  good_rgps gs _ (good_rgroup g hok) hgs
+
+/-- white-space reduction leaves the canonical text with one blank behind every header unchanged -/
+theorem reduceWhitespace_rText (g : Gp) (gs : List Gp) (hok : g.Ok) (hgs : ∀ x ∈ gs, x.Ok) :
+    reduceWhitespace (rText [' '] g gs) = some (rText [' '] g gs) := by
+  have hgood := good_rText g gs hok hgs
+  have hch := docCh_rText [' '] sepOk_blank g gs hok hgs
+  have hhead : rText [' '] g gs = 'T' :: ((g.h.t ++ g.h.ns :: '-' :: 'R' :: (g.h.r ++ [g.h.ew])) ++ (g.rbody [' '] ++ rgps [' '] gs)) := by
+    simp [rText, Gp.rt, Hd.text, canonText]
+  have hstep : reduceWhitespaceStep (rText [' '] g gs) = rText [' '] g gs := by
+    generalize hT : rText [' '] g gs = T at hgood hch hhead
+    have e0 : Gen.inl_plss_preprocess_reduce_whitespace_0.sub (S " ") T = T := sub_blank_runs T hgood.np
+    have e1 : Gen.inl_plss_preprocess_reduce_whitespace_1.sub (S " ") T = T :=
+      sub_id_of_noHit (P := fun cs => cs.sub [(9, 9)]) (by decide) _ _
+        (fun c hc => docCh_avoid [(9, 9)] (by decide) (by decide +kernel) (by decide) (hch c hc))
+    have e2 : Gen.inl_plss_preprocess_reduce_whitespace_2.sub (S "\n") T = T :=
+      sub_id_of_noHit (P := fun cs => cs.sub [(13, 13)]) (by decide) _ _
+        (fun c hc => docCh_avoid [(13, 13)] (by decide) (by decide +kernel) (by decide) (hch c hc))
+    have e3 : Gen.inl_plss_preprocess_reduce_whitespace_3.sub (S "\n\n") T = T := sub_nl_runs T hgood.np
+    have e4 : Gen.inl_plss_preprocess_reduce_whitespace_4.sub [] T = T := by
+      rw [hhead]; exact sub_bos_blank 'T' _ (by decide)
+    unfold reduceWhitespaceStep
+    simp only [e0, e1, e2, e3, e4]
+  unfold reduceWhitespace
+  simp only [pyStrip_rText [' '] g gs]
+  rw [show 2 * (rText [' '] g gs).length + 8 = (2 * (rText [' '] g gs).length + 7) + 1 from rfl]
+  exact Tract.untilStable_of_fixed _ _ _ hstep
+
+/-! ### `find_twprge` and `plss_preprocess` -/
+
+theorem map_canon_rhdr (p : Pat) (mk : Hd → Nat → Match) (sp ns ew text : Str)
+    (hcan : ∀ (g : Gp) (pre post : Str), g.Ok → g.h.Canon → text = pre ++ (g.rt sp ++ post) →
+      canonTR p (mk g.h pre.length) text ns ew false = g.h.text) :
+    ∀ (gs : List Gp) (g : Gp) (pre : Str), g.Ok → g.h.Canon → (∀ x ∈ gs, x.Ok ∧ x.h.Canon) →
+      text = pre ++ (g.rt sp ++ rgps sp gs) →
+      (rhdrMs mk sp pre.length (g :: gs)).map (fun m => canonTR p m text ns ew false) = (g :: gs).map (fun x => x.h.text)
+  | [], g, pre, hok, hc, _, htext => by
+    simp only [rhdrMs, List.map_cons, List.map_nil, hcan g pre _ hok hc htext]
+  | g' :: gs, g, pre, hok, hc, hgs, htext => by
+    have ih := map_canon_rhdr p mk sp ns ew text hcan gs g' (pre ++ g.rt sp ++ ['\n']) (hgs g' (by simp)).1 (hgs g' (by simp)).2
+      (fun x hx => hgs x (by simp [hx])) (by rw [htext]; simp [rgps])
+    have hl : (pre ++ g.rt sp ++ ['\n']).length = pre.length + (g.rt sp).length + 1 := by simp; omega
+    rw [hl] at ih
+    rw [show rhdrMs mk sp pre.length (g :: g' :: gs) = mk g.h pre.length :: rhdrMs mk sp (pre.length + (g.rt sp).length + 1) (g' :: gs) from rfl]
+    simp only [List.map_cons, hcan g pre _ hok hc htext]
+    congr 1
+
+/-- `find_twprge` on the canonical text: the headers, in order -/
+theorem findTwprgeRaw_rText (sp : Str) (hsp : SepOk sp) (ns ew : Str) (h1 : isLegal Gen.LEGAL_NS ns = true) (h2 : isLegal Gen.LEGAL_EW ew = true)
+    (g : Gp) (gs : List Gp) (hok : g.Ok) (hc : g.h.Canon) (hgs : ∀ x ∈ gs, x.Ok ∧ x.h.Canon) :
+    findTwprgeRaw (rText sp g gs) ns ew = .ok ((g :: gs).map (fun x => x.h.text)) := by
+  rw [C08_findTwprgeRaw_order _ ns ew h1 h2, twprge_finditer_rText sp hsp g gs hok (fun x hx => (hgs x hx).1)]
+  have := map_canon_rhdr twprge twMk sp ns ew (rText sp g gs)
+    (fun g' pre post hok' hc' ht => twprge_hcanR sp hsp ns ew _ g' pre post hok' hc' ht) gs g [] hok hc hgs (by simp [rText])
+  simp only [List.length_nil] at this
+  rw [this]
+
+/-- **`plss_preprocess` on the canonical text of the layout Twp/Rge–desc–Sec** (whatever blanks / line breaks stand behind
+    the Twp/Rges): the separator behind every Twp/Rge becomes one blank, everything else is kept; no `fixed_twprge`, no
+    divergence -/
+theorem plssPreprocess_rText (mc : MC) (defNS defEW : Option Str)
+    (hm1 : isLegal Gen.LEGAL_NS mc.ns = true) (hm2 : isLegal Gen.LEGAL_EW mc.ew = true)
+    (h1 : isLegal Gen.LEGAL_NS (resolve defNS mc.ns) = true) (h2 : isLegal Gen.LEGAL_EW (resolve defEW mc.ew) = true)
+    (sp : Str) (hsp : SepOk sp) (g : Gp) (gs : List Gp) (hok : g.Ok) (hc : g.h.Canon) (hgs : ∀ x ∈ gs, x.Ok ∧ x.h.Canon) :
+    plssPreprocess mc (rText sp g gs) defNS defEW false =
+      .ok { text := rText [' '] g gs, fixed := [], diverged := false } := by
+  have hgs' : ∀ x ∈ gs, x.Ok := fun x hx => (hgs x hx).1
+  have hsp1 := sepOk_cons_blank hsp
+  have hsp2 := sepOk_cons_blank hsp1
+  have hsp3 := sepOk_cons_blank hsp2
+  have hsp4 := sepOk_cons_blank hsp3
+  have ho := findTwprgeRaw_rText sp hsp mc.ns mc.ew hm1 hm2 g gs hok hc hgs
+  have hp := findTwprgeRaw_rText [' '] sepOk_blank mc.ns mc.ew hm1 hm2 g gs hok hc hgs
+  have s1 := scrub1_rText sp hsp _ _ h1 h2 g gs hok hc hgs
+  have s2 := scrubPP_rText "pp_twprge_no_nswe" ppNswePat rfl (by decide) nswe_gapSkips nswe_rGap (by decide) nsweCaps canonAt_nswe
+    (fun t r nc ec ctx h prev pos hprev => no_nswe_at t r nc ec ctx h prev pos hprev) _ hsp1 _ _ h1 h2 g gs hok hc hgs
+  have s3 := scrubPP_rText "pp_twprge_no_nsr" ppNsrPat rfl (by decide) nsr_gapSkips nsr_rGap (by decide) nsrCaps canonAt_nsr
+    (fun t r nc ec ctx h prev pos hprev => no_nsr_at t r nc ec ctx h prev pos hprev) _ hsp2 _ _ h1 h2 g gs hok hc hgs
+  have s4 := scrubPP_rText "pp_twprge_no_ewt" ppEwtPat rfl (by decide) ewt_gapSkips ewt_rGap (by decide) ewtCaps canonAt_ewt
+    (fun t r nc ec ctx h prev pos hprev => no_ewt_at t r nc ec ctx h prev pos hprev) _ hsp3 _ _ h1 h2 g gs hok hc hgs
+  have s5 := scrub5_rText _ hsp4 _ _ h1 h2 g gs hok hgs'
+  have s6 := scrub6_rText _ hsp4 _ _ h1 h2 g gs hok hc hgs
+  have hrw := reduceWhitespace_rText g gs hok hgs'
+  have hnames : scrubberNames false = ["twprge_regex", "pp_twprge_no_nswe", "pp_twprge_no_nsr", "pp_twprge_no_ewt",
+    "pp_twprge_pm", "pp_twprge_comma_remove"] := rfl
+  unfold plssPreprocess
+  simp only [ho, hnames, List.foldlM_cons, List.foldlM_nil, s1, s2, s3, s4, s5, s6, bind, Except.bind, pure, Except.pure, hrw, hp,
+    C08_fixed_nil_of_same]
+
+/-! ## Part 7 — the unused blocks of the walk (layout Twp/Rge–desc–Sec) -/
+
+/-- the unused block a (marker, next marker) pair contributes in the TR_desc_S layout: the text behind a text-like marker
+    that is NOT followed by a section reference -/
+def unusedBlockD (txt : Str) (p : (Nat × Marker) × (Nat × Marker)) : Option Str :=
+  match p.1.2 with
+  | .trEnd | .secEnd | .textStart => if p.2.2 = .secStart then none else some (slice txt p.1.1 p.2.1)
+  | _ => none
+
+theorem unusedBlockD_secStart (txt : Str) (p : Nat) (n : Nat × Marker) : unusedBlockD txt ((p, .secStart), n) = none := rfl
+theorem unusedBlockD_trStart (txt : Str) (p : Nat) (n : Nat × Marker) : unusedBlockD txt ((p, .trStart), n) = none := rfl
+
+theorem stepD_unusedMap (txt : Str) (c : Chunk) (p : (Nat × Marker) × (Nat × Marker)) :
+    (stepP txt TR_DESC_S c p).unused.map (·.2) = c.unused.map (·.2) ++ (unusedBlockD txt p).toList := by
+  obtain ⟨⟨pos, ty⟩, ⟨q, nty⟩⟩ := p
+  have htexty : ∀ ty', texty ty' → (stepP txt TR_DESC_S c ((pos, ty'), (q, nty))).unused.map (·.2) =
+      c.unused.map (·.2) ++ (if nty = .secStart then none else some (slice txt pos q)).toList := by
+    intro ty' hty
+    by_cases hn : nty = .secStart
+    · subst hn
+      rw [stepD_tract txt c pos q ty' hty]; simp
+    · rw [stepD_unused txt c pos ty' hty (q, nty) hn]; simp [hn]
+  cases ty
+  · exact htexty _ (Or.inl rfl)
+  · simp [stepP_textEnd, unusedBlockD]
+  · simp [stepP_secStart, getNextSec_unused, unusedBlockD]
+  · exact htexty _ (Or.inr (Or.inr rfl))
+  · simp [stepP_trStart, getNextTwprge_unused, unusedBlockD]
+  · exact htexty _ (Or.inr (Or.inl rfl))
+
+theorem fold_unusedD (txt : Str) : ∀ (ps : List ((Nat × Marker) × (Nat × Marker))) (c : Chunk),
+    (ps.foldl (stepP txt TR_DESC_S) c).unused.map (·.2) = c.unused.map (·.2) ++ ps.filterMap (unusedBlockD txt)
+  | [], c => by simp
+  | p :: ps, c => by
+    rw [List.foldl_cons, fold_unusedD txt ps, stepD_unusedMap, List.filterMap_cons]
+    cases unusedBlockD txt p <;> simp
+
+theorem parseMeaningful_pairs_D (c0 : Chunk) (txt : Str) (ms : List (Nat × Marker)) :
+    parseMeaningful c0 txt TR_DESC_S ms = (pairs ms).foldl (stepP txt TR_DESC_S) (getNextSec c0) := by
+  unfold parseMeaningful
+  simp only [sDescLays_TR_DESC_S, trFirstLays_TR_DESC_S, Bool.not_true, Bool.not_false, Bool.false_eq_true, if_false, if_true]
+  exact walk_eq_pairs _ _ _ _
+
+/-- the markers of the lines of a group contribute no unused block; what follows the last one decides about the block behind it -/
+theorem rItems1_unused (txt : Str) (R : List (Nat × Marker)) : ∀ (ls : List Ln) (l : Ln) (p : Nat),
+    (pairs (imk (rItems1 p l ls) ++ R)).filterMap (unusedBlockD txt) =
+      (pairs ((p + (l.rt ++ rlns ls).length, Marker.secEnd) :: R)).filterMap (unusedBlockD txt)
+  | [], l, p => by
+    have hl := l.rt_length
+    have e : imk (rItems1 p l []) = [(p + l.d.length + 2, Marker.secStart), (p + l.d.length + 9, Marker.secEnd)] := by
+      simp [rItems1, rItems, imk]
+    have e2 : p + (l.rt ++ rlns []).length = p + l.d.length + 9 := by simp [rlns, hl]; omega
+    rw [e, e2]
+    simp only [List.cons_append, List.nil_append, pairs, List.filterMap_cons, List.head?_cons, Option.getD_some, unusedBlockD_secStart]
+  | z :: zs, l, p => by
+    have hl := l.rt_length
+    have ih := rItems1_unused txt R zs z (p + l.rt.length + 1)
+    have e : imk (rItems1 p l (z :: zs)) = (p + l.d.length + 2, Marker.secStart) :: (p + l.d.length + 9, Marker.secEnd) ::
+        imk (rItems1 (p + l.rt.length + 1) z zs) := by
+      simp [rItems1, rItems, imk]
+    have hhead : (imk (rItems1 (p + l.rt.length + 1) z zs) ++ R).head? =
+        some (p + l.rt.length + 1 + z.d.length + 2, Marker.secStart) := by
+      simp [rItems1, imk]
+    have e2 : p + (l.rt ++ rlns (z :: zs)).length = p + l.rt.length + 1 + (z.rt ++ rlns zs).length := by
+      rw [rlines_length]; omega
+    rw [e, e2, ← ih]
+    simp only [List.cons_append, pairs, List.filterMap_cons, List.head?_cons, Option.getD_some, hhead]
+    simp [unusedBlockD]
+
+/-- **the unused blocks of the walk**: the line breaks between the groups, and an empty block at the end of the text -/
+theorem rText_unused (sp : Str) (txt : Str) : ∀ (gs : List Gp) (g : Gp) (pre : Str), txt = pre ++ (g.rt sp ++ rgps sp gs) →
+    (pairs ((rGroups sp pre.length (g :: gs)).flatMap groupMarkers)).filterMap (unusedBlockD txt) =
+      gs.map (fun _ => ['\n']) ++ [[]]
+  | [], g, pre, htxt => by
+    have e : (rGroups sp pre.length [g]).flatMap groupMarkers = (pre.length, Marker.trStart) :: (pre.length + g.h.text.length, Marker.trEnd) ::
+        (imk (rItems1 (pre.length + g.h.text.length + sp.length) g.l g.ls) ++ []) := by
+      simp [rGroups, rGroup_markers]
+    have hhead : (imk (rItems1 (pre.length + g.h.text.length + sp.length) g.l g.ls) ++ []).head? =
+        some (pre.length + g.h.text.length + sp.length + g.l.d.length + 2, Marker.secStart) := by
+      simp [rItems1, imk]
+    have hs : ∀ n, slice txt n n = [] := by
+      intro n; simp [slice, List.drop_eq_nil_iff]
+    rw [e]
+    simp only [pairs, List.filterMap_cons, List.head?_cons, Option.getD_some, hhead]
+    rw [rItems1_unused]
+    simp [pairs, unusedBlockD, hs]
+  | g' :: gs, g, pre, htxt => by
+    have ih := rText_unused sp txt gs g' (pre ++ g.rt sp ++ ['\n']) (by rw [htxt]; simp [rgps])
+    have hlen : (pre ++ g.rt sp ++ ['\n']).length = pre.length + (g.rt sp).length + 1 := by simp; omega
+    rw [hlen] at ih
+    have e : (rGroups sp pre.length (g :: g' :: gs)).flatMap groupMarkers = (pre.length, Marker.trStart) ::
+        (pre.length + g.h.text.length, Marker.trEnd) :: (imk (rItems1 (pre.length + g.h.text.length + sp.length) g.l g.ls) ++
+          (rGroups sp (pre.length + (g.rt sp).length + 1) (g' :: gs)).flatMap groupMarkers) := by
+      simp [rGroups, rGroup_markers]
+    have hhead : (imk (rItems1 (pre.length + g.h.text.length + sp.length) g.l g.ls) ++
+        (rGroups sp (pre.length + (g.rt sp).length + 1) (g' :: gs)).flatMap groupMarkers).head? =
+        some (pre.length + g.h.text.length + sp.length + g.l.d.length + 2, Marker.secStart) := by
+      simp [rItems1, imk]
+    obtain ⟨T, hnext⟩ : ∃ T, ((rGroups sp (pre.length + (g.rt sp).length + 1) (g' :: gs)).flatMap groupMarkers) =
+        (pre.length + (g.rt sp).length + 1, Marker.trStart) :: T := ⟨_, by simp [rGroups, rGroup_markers]; rfl⟩
+    have hend : pre.length + g.h.text.length + sp.length + (g.l.rt ++ rlns g.ls).length = pre.length + (g.rt sp).length := by
+      rw [g.rt_length]; omega
+    have hslice : slice txt (pre.length + (g.rt sp).length) (pre.length + (g.rt sp).length + 1) = ['\n'] := by
+      refine slice_at txt (pre ++ g.rt sp) ['\n'] (g'.rt sp ++ rgps sp gs) _ _ ?_ (by simp) (by simp)
+      rw [htxt]; simp [rgps]
+    rw [e]
+    simp only [pairs, List.filterMap_cons, List.head?_cons, Option.getD_some, hhead]
+    rw [rItems1_unused, hend]
+    have h1 : unusedBlockD txt ((pre.length, Marker.trStart), (pre.length + g.h.text.length, Marker.trEnd)) = none := rfl
+    have h2 : unusedBlockD txt ((pre.length + g.h.text.length, Marker.trEnd),
+        (pre.length + g.h.text.length + sp.length + g.l.d.length + 2, Marker.secStart)) = none := by simp [unusedBlockD]
+    rw [h1, h2]
+    rw [hnext]
+    simp only [pairs, List.filterMap_cons, List.head?_cons, Option.getD_some]
+    have h3 : unusedBlockD txt ((pre.length + (g.rt sp).length, Marker.secEnd), (pre.length + (g.rt sp).length + 1, Marker.trStart)) =
+        some ['\n'] := by simp [unusedBlockD, hslice]
+    rw [h3]
+    rw [hnext] at ih
+    simp only [pairs, List.filterMap_cons, unusedBlockD_trStart] at ih ⊢
+    simp only [List.map_cons, List.cons_append]
+    rw [← ih]
+
+theorem startChunk_unused (fl0 : Tract.Flags) (groups : List TRGroup) : (startChunk fl0 groups).unused = [] := rfl
+
+/-- **C01 (layout Twp/Rge–desc–Sec, chunk level, no lexical premise), with the unused text**: as
+    `C01_chunk_canonical_TR_desc_S`, and the only unused text are the line breaks between the groups (and an empty block at
+    the end of the text); the length premise on the first block is needed only if the layout has to be deduced -/
+theorem C01_chunk_canonical_TR_desc_S_unused (mc : MC) (pc : ParserCfg) (hns : isLegal Gen.LEGAL_NS mc.ns = true)
+    (hew : isLegal Gen.LEGAL_EW mc.ew = true) (sp : Str) (hsp : SepOk sp) (g : Gp) (gs : List Gp) (hok : g.Ok)
+    (hgs : ∀ x ∈ gs, x.Ok) (h3 : pc.mandateLayout = false → 3 ≤ g.l.d.length) (parentLayout : Str)
+    (hml : pc.mandateLayout = true → parentLayout = TR_DESC_S) :
+    ∃ c, parseChunkCore mc pc (rText sp g gs) false parentLayout = .ok c ∧ c.fl.e = [] ∧ c.fl.w = [] ∧
+      (pc.secWithin = false → c.comps = docComps (g :: gs) ∧ c.unused.map (·.2) = gs.map (fun _ => ['\n']) ++ [[]]) := by
+  have hlay : chunkLayoutOf pc (rText sp g gs) false parentLayout = TR_DESC_S := by
+    unfold chunkLayoutOf
+    simp only [Bool.false_eq_true, if_false]
+    split
+    · rename_i h; exact hml h
+    · rename_i h; exact deduceLayout_rText sp hsp g gs hok hgs (h3 (by simpa using h))
+  have hmark := markersOK_rText sp hsp g gs
+  have htr := twprgeFinder_rText mc hns hew sp hsp g gs hok hgs
+  have hsec := secFinder_rText sp hsp g gs hok hgs pc.requireColon
+  have hne := rGroups_items_ne sp (g :: gs) 0
+  have hg : rGroups sp 0 (g :: gs) ≠ [] := by simp [rGroups]
+  have hcopy : (TR_DESC_S == COPY_ALL) = false := by decide
+  have htrl : (rtrOut sp 0 (g :: gs)).map (·.twprge) = (rGroups sp 0 (g :: gs)).map (·.tr) := by
+    rw [← trsOf_rGroups]; simp [trsOf, List.map_map, Function.comp_def]
+  have hsecl : (secsOf (rGroups sp 0 (g :: gs))).map (·.secs) = allSecs (rGroups sp 0 (g :: gs)) := secsOf_secs _
+  have hmark' : populateMarkers (rText sp g gs).length (secsOf (rGroups sp 0 (g :: gs))) (rtrOut sp 0 (g :: gs)) =
+      Lay.trDescS.markers (rGroups sp 0 (g :: gs)) (rText sp g gs).length := by
+    rw [← trsOf_rGroups]; exact hmark
+  have W := C20_walk_all_layouts .trDescS (rText sp g gs) (rGroups sp 0 (g :: gs))
+    (rText sp g gs).length { w := [], wl := [] } hne hg
+  rw [show Lay.trDescS.str = TR_DESC_S from rfl] at W
+  obtain ⟨w1, w2, w3, w4, w5, w6⟩ := W
+  obtain ⟨f1, f2⟩ := finishChunk_clean pc _ w2 w3 w5 w6
+  refine ⟨finishChunk pc (parseMeaningful (startChunk { w := [], wl := [] } (rGroups sp 0 (g :: gs))) (rText sp g gs)
+    TR_DESC_S (Lay.trDescS.markers (rGroups sp 0 (g :: gs)) (rText sp g gs).length)), ?_, ?_, ?_, ?_⟩
+  · unfold parseChunkCore
+    simp only [hlay, htr, hsec, hcopy, hmark', htrl, hsecl]
+    rfl
+  · rw [f1]; exact (congrArg (·.e) w4)
+  · rw [f1]; exact (congrArg (·.w) w4)
+  · intro hsw
+    refine ⟨((f2 hsw).1).trans (w1.trans ?_), ?_⟩
+    · exact rGroups_comps sp hsp _ gs g [] (by simp [rText]) hok hgs
+    · rw [(f2 hsw).2]
+      show (parseMeaningful _ _ TR_DESC_S _).unused.map (·.2) = _
+      rw [parseMeaningful_pairs_D, fold_unusedD, getNextSec_unused, startChunk_unused]
+      have hmk : Lay.trDescS.markers (rGroups sp 0 (g :: gs)) (rText sp g gs).length =
+          (rGroups sp 0 (g :: gs)).flatMap groupMarkers := by
+        obtain ⟨s, init, h1, h2⟩ := rGroups_last sp gs g 0
+        rw [Nat.zero_add] at h2
+        have hfirstT : firstT (rGroups sp 0 (g :: gs)) = 0 := by simp [rGroups, firstT, rGroup]
+        simp only [Lay.markers, Lay.core, hfirstT, pre0, if_true, List.nil_append, withEnd]
+        rw [if_pos]
+        rw [h2]; simp [lastPos, rText]
+      rw [hmk]
+      have := rText_unused sp (rText sp g gs) gs g [] (by simp [rText])
+      simp only [List.length_nil] at this
+      rw [this]
+      rfl
+
+/-! ## Part 8 — the whole parser on the canonical text of the layout Twp/Rge–desc–Sec -/
+
+/-- **C01 — the layout Twp/Rge–desc–Sec on TEXT, through the whole parser, with no lexical premise.**
+    For every abstract description — a non-empty list of standard Twp/Rges (numbers below 1000), each with a non-empty list
+    of (two-digit section, inert block), the first block of at least 3 characters — the canonical text `rText sp g gs`
+    (per group the Twp/Rge, any separator `sp` of blanks / line breaks, then lines `<block>, Sec nn:`) is parsed by
+    `PLSSParser` (layout deduced or given as TR_desc_S; any `require_colon` mode, any `clean_up`, any legal default
+    directions; no OCR scrubbing, no segmenting, no `sec_within`) into exactly one tract per line, in reading order, with the
+    Twp/Rge of its group, its section and its block verbatim; the layout is TR_desc_S; the preprocessed text has one blank
+    behind every Twp/Rge; there is no error flag; no tract has an error Twp/Rge/Sec. -/
+theorem C01_canonical_forward_TR_desc_S (mc : MC) (uid0 : Nat) (a : ParserArgs) (sp : Str) (hsp : SepOk sp) (g : Gp) (gs : List Gp)
+    (hstd : ∀ x ∈ g :: gs, StdGp x) (h3 : 3 ≤ g.l.d.length)
+    (hm1 : isLegal Gen.LEGAL_NS mc.ns = true) (hm2 : isLegal Gen.LEGAL_EW mc.ew = true)
+    (h1 : isLegal Gen.LEGAL_NS (resolve a.defaultNS mc.ns) = true) (h2 : isLegal Gen.LEGAL_EW (resolve a.defaultEW mc.ew) = true)
+    (ha1 : a.ocrScrub = false) (ha2 : a.segment = false) (ha3 : a.secWithin = false)
+    (hlay : a.layout = none ∨ a.layout = some TR_DESC_S) (hd : Str) (c : Config.Cfg)
+    (hhd : handedDownText a = .ok hd) (hcfg : Config.ofText hd = .ok c) :
+    ∃ out, plssParser mc uid0 (rText sp g gs) a = .ok out ∧ out.layout = TR_DESC_S ∧
+      out.text = rText [' '] g gs ∧ out.fl.e = [] ∧
+      out.tracts.map (fun t => (t.trs, t.desc)) = (docTracts (g :: gs)).map (fun p => (TRS.trsToDict (some p.1), p.2)) ∧
+      (∀ t ∈ out.tracts, TRS.isError t.trs = false) := by
+  have hok : g.Ok := (hstd g (by simp)).ok
+  have hgs : ∀ x ∈ gs, x.Ok := fun x hx => (hstd x (by simp [hx])).ok
+  have hgsc : ∀ x ∈ gs, x.Ok ∧ x.h.Canon := fun x hx => ⟨(hstd x (by simp [hx])).ok, (hstd x (by simp [hx])).canon⟩
+  have hall : ∀ x ∈ g :: gs, x.Ok := fun x hx => (hstd x hx).ok
+  -- preprocessing
+  have hpp := plssPreprocess_rText mc a.defaultNS a.defaultEW hm1 hm2 h1 h2 sp hsp g gs hok (hstd g (by simp)).canon hgsc
+  -- the layout
+  have hdl := deduceLayout_rText [' '] sepOk_blank g gs hok hgs h3
+  -- the chunk
+  let pc : ParserCfg := { mandateLayout := !a.segment && a.layout.isSome, requireColon := a.requireColon, secWithin := a.secWithin }
+  obtain ⟨ck, k1, k2, _, k4⟩ := C01_chunk_canonical_TR_desc_S_unused mc pc hm1 hm2 [' '] sepOk_blank g gs hok hgs (fun _ => h3) TR_DESC_S (fun _ => rfl)
+  obtain ⟨k5, k6⟩ := k4 ha3
+  have hne : ck.comps.isEmpty = false := by
+    rw [k5]; simp [docComps, Gp.lines]
+  -- the tracts
+  obtain ⟨ts, hts, hlen⟩ := C03_buildTracts_total uid0 hd a.parseQQ a.source (rText sp g gs) TRS.trsToDict c hcfg
+    ((docPairs (g :: gs)).map (fun p => (p.2.d, p.1 ++ [p.2.n1, p.2.n2], false))) 0
+  have hpairs := TractsOf.buildTracts_pairs _ _ _ _ _ _ _ _ _ hts
+  have hidx : secWithinIndexes ((docPairs (g :: gs)).map (fun p => (p.2.d, p.1 ++ [p.2.n1, p.2.n2], false))) = [] :=
+    secWithinIndexes_false _ (by intro s hs; simp only [List.mem_map] at hs; obtain ⟨p, _, rfl⟩ := hs; rfl)
+  have hunused : ∀ u ∈ ck.unused, u.2.length < Gen.MIN_REPORTABLE_UNUSED_LEN := by
+    intro u hu
+    have : u.2 ∈ ck.unused.map (·.2) := List.mem_map_of_mem hu
+    rw [k6] at this
+    simp only [List.mem_append, List.mem_map, List.mem_singleton] at this
+    rcases this with ⟨_, _, e⟩ | e
+    · rw [← e]; decide
+    · rw [e]; decide
+  have hnoerr : ∀ t ∈ ts, TRS.isError t.trs = false := by
+    intro t ht
+    have : (t.trs, t.desc) ∈ ts.map (fun t => (t.trs, t.desc)) := List.mem_map_of_mem ht
+    rw [hpairs] at this
+    simp only [List.map_map, List.mem_map, Function.comp_apply, Prod.mk.injEq] at this
+    obtain ⟨p, hp, e1, _⟩ := this
+    obtain ⟨a', b', ns, ew, ha', hb', hns, hew, hk, hl⟩ := docPairs_std _ hstd p hp
+    rw [← e1, hk]
+    exact (std_trs_ok a' b' ns ew ha' hb' hns hew p.2.n1 p.2.n2 hl.n1 hl.n2).1
+  have hany : ts.any (fun t => TRS.isError t.trs) = false := by
+    rw [List.any_eq_false]
+    intro t ht
+    simp [hnoerr t ht]
+  have herr : ∀ fl, errorTractFlag fl ts = fl := by
+    intro fl; unfold errorTractFlag; simp [hany]
+  have hspecs' := fun cu => tractSpecs_pairs cu (docPairs (g :: gs)) (docPairs_ok _ hall)
+  have hk1 : ∀ ml, parseChunkCore mc { mandateLayout := ml, requireColon := a.requireColon, secWithin := false }
+      (rText [' '] g gs) false TR_DESC_S = .ok ck := by
+    intro ml
+    have : parseChunkCore mc pc (rText [' '] g gs) false TR_DESC_S =
+        parseChunkCore mc { mandateLayout := ml, requireColon := a.requireColon, secWithin := false }
+          (rText [' '] g gs) false TR_DESC_S := by
+      unfold parseChunkCore chunkLayoutOf
+      simp only [Bool.false_eq_true, if_false, pc, ha3, hdl]
+      cases ml <;> cases (!a.segment && a.layout.isSome) <;> simp [hdl, finishChunk, ha3]
+    rw [← this]; exact k1
+  let pfl := genFlagsChunk (rText [' '] g gs) (fixedFlags [])
+  let P : ParentSt := { fl := { w := pfl.w ++ ck.fl.w, wl := pfl.wl ++ ck.fl.wl, e := pfl.e ++ ck.fl.e, el := pfl.el ++ ck.fl.el },
+                        comps := [] ++ ck.comps, unused := [] ++ ck.unused }
+  have hchunk : ∀ ml, chunkParser mc { mandateLayout := ml, requireColon := a.requireColon, secWithin := false } (rText [' '] g gs) false TR_DESC_S
+      { fl := fixedFlags [] } = .ok P := by
+    intro ml
+    unfold chunkParser
+    rw [hk1 ml]
+    simp only [hne, Bool.false_eq_true, if_false]
+    rfl
+  have hblocks : parseAllBlocks mc (rText [' '] g gs) TR_DESC_S a (fixedFlags []) = .ok P := by
+    have hcopy : (TR_DESC_S == COPY_ALL) = false := by decide
+    unfold parseAllBlocks
+    simp only [ha2, ha3, Bool.false_eq_true, if_false, parseBlocks, hcopy, hchunk]
+  have hPc : P.comps = (docPairs (g :: gs)).map (fun p => lnComp p.1 p.2) := by
+    show [] ++ ck.comps = _
+    rw [List.nil_append, k5, docComps_pairs]
+  have hrest : ∀ cu, ∃ out, (match tractSpecs cu P.comps with
+        | .error e => (.error e : Except PyErr ParserOut)
+        | .ok specs =>
+          match buildTracts uid0 hd a.parseQQ a.source (rText sp g gs) TRS.trsToDict 0 specs with
+          | .error e => .error e
+          | .ok tracts =>
+            match secWithinFlags tracts (examineUnused P.fl P.unused) (secWithinIndexes specs) with
+            | .error e => .error e
+            | .ok fl1 =>
+              let fl := errorTractFlag fl1 tracts
+              let tracts := handDownFlags fl tracts
+              .ok { tracts := tracts, fl := fl, layout := TR_DESC_S, text := (rText [' '] g gs), nextUid := uid0 + specs.length,
+                    diverged := false || tracts.any (·.diverged), handedDown := hd }) = .ok out ∧
+      out.layout = TR_DESC_S ∧ out.text = (rText [' '] g gs) ∧ out.fl.e = [] ∧
+      out.tracts.map (fun t => (t.trs, t.desc)) = (docTracts (g :: gs)).map (fun p => (TRS.trsToDict (some p.1), p.2)) ∧
+      (∀ t ∈ out.tracts, TRS.isError t.trs = false) := by
+    intro cu
+    rw [hPc, hspecs' cu]
+    simp only [hts, hidx, secWithinFlags, herr]
+    refine ⟨_, rfl, rfl, rfl, ?_, ?_, ?_⟩
+    · simp only []
+      have hu : ∀ u ∈ P.unused, u.2.length < Gen.MIN_REPORTABLE_UNUSED_LEN := by
+        intro u hu; exact hunused u (by simpa [P] using hu)
+      rw [examineUnused_short _ _ hu]
+      show pfl.e ++ ck.fl.e = []
+      rw [k2, (genFlagsChunk_e _ _).1]
+      rfl
+    · simp only [handDownFlags, List.map_map, Function.comp_def]
+      rw [hpairs]
+      simp [docTracts, List.map_map, Function.comp_def]
+    · intro t ht
+      simp only [handDownFlags, List.mem_map] at ht
+      obtain ⟨t', ht', rfl⟩ := ht
+      exact hnoerr t' ht'
+  unfold plssParser
+  simp only [hhd, ha1, hpp]
+  rcases hlay with e | e
+  · simp only [e, hdl]
+    rw [hblocks]
+    exact hrest _
+  · simp only [e]
+    rw [hblocks]
+    exact hrest _
+
+/-! ## Part 9 — the layout desc–Sec–Twp/Rge (`desc_STR`): the canonical text and the two finders
+
+The canonical text `dText v sp g gs`: per group the lines `<inert block>, Sec nn:` (separated by line breaks), the character `v`
+(a blank or a line break), the Twp/Rge `T154N-R97W` that CLOSES the group; groups separated by `sp` (blanks / line breaks, at least one), e.g.
+`"hog valley by bluff, Sec 14:\nfern gully, Sec 15:\nT154N-R97W\nwy Wyoming; f/k/a marker, Sec 36:\nT7S-R102E"`. -/
+
+/-- the character between the last line of a group and the Twp/Rge that closes it: a blank or a line break -/
+class VSep (v : Char) : Prop where
+  ok : v = ' ' ∨ v = '\n'
+
+instance : VSep ' ' := ⟨Or.inl rfl⟩
+instance : VSep '\n' := ⟨Or.inr rfl⟩
+
+theorem isWord_v {v : Char} [h : VSep v] : isWord Gen.cs_14d6aa8a (some v) = false := by
+  rcases h.ok with rfl | rfl <;> decide +kernel
+
+theorem hdrPlain_v {v : Char} [h : VSep v] : hdrPlain.mem v = true := by
+  rcases h.ok with rfl | rfl <;> decide
+
+theorem multisec_fails_v {v : Char} [VSep v] (tail : Str) : FailsOn Gen.multisec_regex (v :: tail) := by
+  have := multisec_skips_plain [v] tail (by intro c hc; simp only [List.mem_singleton] at hc; subst hc; exact hdrPlain_v) [] [] v rfl
+  simpa using this
+
+/-- what a header pattern must be unable to do in front of a header: start at the blank / line break before it -/
+structure DGap (r : Rx) : Prop where
+  hdr : ∀ (v : Char) (h : Hd) (rest : Str), (v = ' ' ∨ v = '\n') → h.Ok → FailsOn r (v :: (h.text ++ rest))
+
+theorem DGap.ofFirst {r : Rx} (hn : r.nullable = false) (hp : plainFirst r = true) : DGap r where
+  hdr := by
+    intro v h rest hv _
+    refine FailsOn.of_first hn ?_
+    intro c hc
+    simp only [List.head?_cons, Option.some.injEq] at hc
+    subst hc
+    rcases hv with rfl | rfl
+    · exact plainFirst.not_mem hp (by decide)
+    · exact plainFirst.not_mem hp (by decide)
+
+theorem twprge_dGap : DGap Gen.twprge_regex := DGap.ofFirst (by decide +kernel) (by decide +kernel)
+theorem nswe_dGap : DGap Gen.pp_twprge_no_nswe := DGap.ofFirst (by decide +kernel) (by decide +kernel)
+theorem nsr_dGap : DGap Gen.pp_twprge_no_nsr := DGap.ofFirst (by decide +kernel) (by decide +kernel)
+theorem ewt_dGap : DGap Gen.pp_twprge_no_ewt where
+  hdr := by
+    intro v h rest hv hok
+    rcases hv with rfl | rfl
+    · have hmD : Gen.pp_twprge_no_ewt.mustHitP (fun cs => cs.sub digitD) = true := by decide +kernel
+      have hadj : Gen.pp_twprge_no_ewt.adjB ' ' 'T' = false := by decide +kernel
+      have e : ' ' :: (h.text ++ rest) = [] ++ ' ' :: 'T' :: ((h.t ++ h.ns :: '-' :: 'R' :: (h.r ++ [h.ew])) ++ rest) := by
+        simp [Hd.text, canonText]
+      rw [e]
+      refine FailsOn.of_break hmD [] ' ' 'T' _ hadj ?_
+      intro c hc
+      simp only [List.nil_append, List.mem_cons, List.not_mem_nil, or_false] at hc
+      subst hc
+      exact noHit_of_notMem (by decide +kernel)
+    · exact ewt_gapSkips.nlHdr h rest hok
+theorem comma_dGap : DGap Gen.pp_twprge_comma_remove where
+  hdr := fun v h rest hv hok => failsOn_comma (twprge_dGap.hdr v h rest hv hok)
+
+section DescStr
+set_option linter.unusedSectionVars false
+variable {v : Char} [VSep v]
+
+/-- a group: its lines, the character `v` (a blank or a line break), the Twp/Rge -/
+def Gp.dt (v : Char) (g : Gp) : Str := (g.l.rt ++ rlns g.ls) ++ v :: g.h.text
+
+/-- further groups, each preceded by the separator -/
+def dgps (v : Char) (sp : Str) : List Gp → Str
+  | [] => []
+  | g :: gs => sp ++ ((g.dt v) ++ dgps v sp gs)
+
+/-- the canonical text -/
+def dText (v : Char) (sp : Str) (g : Gp) (gs : List Gp) : Str := (g.dt v) ++ dgps v sp gs
+
+theorem Gp.dt_length (v : Char) (g : Gp) : (g.dt v).length = (g.l.rt ++ rlns g.ls).length + 1 + g.h.text.length := by
+  simp [Gp.dt]; omega
+
+/-- the header matches; `q` = position of the first block of the first group -/
+def dhdrMs (v : Char) (mk : Hd → Nat → Match) (sp : Str) : Nat → List Gp → List Match
+  | _, [] => []
+  | q, g :: gs => mk g.h (q + (g.l.rt ++ rlns g.ls).length + 1) :: dhdrMs v mk sp (q + (g.dt v).length + sp.length) gs
+
+/-- **tiling by headers** (layout desc–Sec–Twp/Rge): a pattern that matches each header and nothing in between; `w` = white
+    space in front of the first block -/
+theorem dTiles (r : Rx) (hg : GapSkips r) (hr : RGap r) (hd : DGap r) (sp : Str) (hsp : SepOk sp)
+    (mk : Hd → Nat → Match)
+    (htok : ∀ (h : Hd) (ctx : Str) (prev : Option Char) (pos : Nat), h.Ok → EndsTwprge ctx →
+       isWord Gen.cs_14d6aa8a prev = false →
+       matchHere r ⟨prev, h.text ++ ctx, pos, []⟩ false = some (mk h pos) ∧ (mk h pos).start = pos ∧
+       (mk h pos).stop = pos + h.text.length) :
+    ∀ (gs : List Gp) (g : Gp) (w : Str) (q : Nat) (prev : Option Char), WsOk w → g.Ok → (∀ x ∈ gs, x.Ok) →
+      Tiles r prev (w ++ ((g.dt v) ++ dgps v sp gs)) q (dhdrMs v mk sp (q + w.length) (g :: gs)) := by
+  intro gs
+  induction gs with
+  | nil =>
+    intro g w q prev hw hok _
+    have hl := hok.ls g.l (by simp [Gp.lines])
+    have hls : ∀ x ∈ g.ls, x.Ok := fun x hx => hok.ls x (by simp [Gp.lines, hx])
+    have htxt : w ++ ((g.dt v) ++ dgps v sp []) = (w ++ (g.l.rt ++ rlns g.ls)) ++ (v :: (g.h.text ++ [])) := by
+      simp [Gp.dt, dgps]
+    rw [htxt]
+    refine Tiles.skipSeg (rbody_skips hg hr w hw g.l g.ls _ hl hls) _ _ ?_
+    refine Tiles.skip _ v _ _ _ (matchHere_of_failsOn (hd.hdr v g.h [] VSep.ok hok.h) _ _ false) ?_
+    obtain ⟨h1, h2, h3⟩ := htok g.h [] (some v) (q + (w ++ (g.l.rt ++ rlns g.ls)).length + 1) hok.h EndsTwprge.nil isWord_v
+    have hpos : q + (w ++ (g.l.rt ++ rlns g.ls)).length + 1 = q + w.length + (g.l.rt ++ rlns g.ls).length + 1 := by
+      simp only [List.length_append]; omega
+    simp only [dhdrMs]
+    rw [← hpos]
+    exact Tiles.tok _ g.h.text [] _ _ [] h1 h2 h3 g.h.text_ne (Tiles.nil _ _ (matchHere_of_failsOn hg.fin0 _ _ false))
+  | cons g' gs ih =>
+    intro g w q prev hw hok hgs
+    have hok' := hgs g' (by simp)
+    have hgs' : ∀ x ∈ gs, x.Ok := fun x hx => hgs x (by simp [hx])
+    have hl := hok.ls g.l (by simp [Gp.lines])
+    have hls : ∀ x ∈ g.ls, x.Ok := fun x hx => hok.ls x (by simp [Gp.lines, hx])
+    have htxt : w ++ ((g.dt v) ++ dgps v sp (g' :: gs)) =
+        (w ++ (g.l.rt ++ rlns g.ls)) ++ (v :: (g.h.text ++ (sp ++ ((g'.dt v) ++ dgps v sp gs)))) := by
+      simp [Gp.dt, dgps]
+    rw [htxt]
+    refine Tiles.skipSeg (rbody_skips hg hr w hw g.l g.ls _ hl hls) _ _ ?_
+    refine Tiles.skip _ v _ _ _ (matchHere_of_failsOn (hd.hdr v g.h _ VSep.ok hok.h) _ _ false) ?_
+    obtain ⟨h1, h2, h3⟩ := htok g.h (sp ++ ((g'.dt v) ++ dgps v sp gs)) (some v) (q + (w ++ (g.l.rt ++ rlns g.ls)).length + 1) hok.h
+      (endsTwprge_sep sp _ hsp) isWord_v
+    have hpos : q + (w ++ (g.l.rt ++ rlns g.ls)).length + 1 = q + w.length + (g.l.rt ++ rlns g.ls).length + 1 := by
+      simp only [List.length_append]; omega
+    rw [show dhdrMs v mk sp (q + w.length) (g :: g' :: gs) = mk g.h (q + w.length + (g.l.rt ++ rlns g.ls).length + 1) ::
+      dhdrMs v mk sp (q + w.length + (g.dt v).length + sp.length) (g' :: gs) from rfl]
+    rw [← hpos]
+    refine Tiles.tok _ g.h.text _ _ _ _ h1 h2 h3 g.h.text_ne ?_
+    have := ih g' sp (q + (w ++ (g.l.rt ++ rlns g.ls)).length + 1 + g.h.text.length) (lastOr (some v) g.h.text) hsp.ws hok' hgs'
+    have hq : q + (w ++ (g.l.rt ++ rlns g.ls)).length + 1 + g.h.text.length + sp.length = q + w.length + (g.dt v).length + sp.length := by
+      rw [g.dt_length v]; simp only [List.length_append]; omega
+    rw [hq] at this
+    exact this
+
+theorem twprge_tokD (h : Hd) (ctx : Str) (prev : Option Char) (pos : Nat) (hok : h.Ok) (hctx : EndsTwprge ctx)
+    (hprev : isWord Gen.cs_14d6aa8a prev = false) :
+    matchHere Gen.twprge_regex ⟨prev, h.text ++ ctx, pos, []⟩ false = some (twMk h pos) ∧ (twMk h pos).start = pos ∧
+      (twMk h pos).stop = pos + h.text.length := by
+  have hv := h.valid hok ctx hctx
+  have := C08_spelling_matchHere h.sp _ hv prev hprev pos false
+  rw [h.sp_text] at this
+  refine ⟨by simpa [twMk] using this, rfl, ?_⟩
+  simp [twMk, Spelling.matchAt, h.sp_text]
+
+theorem wsOk_nil : WsOk [] := fun _ h => by cases h
+
+theorem twprge_tiles_dText (sp : Str) (hsp : SepOk sp) (g : Gp) (gs : List Gp) (hok : g.Ok) (hgs : ∀ x ∈ gs, x.Ok) :
+    Tiles Gen.twprge_regex none (dText v sp g gs) 0 (dhdrMs v twMk sp 0 (g :: gs)) := by
+  have := dTiles (v := v) Gen.twprge_regex twprge_gapSkips twprge_rGap twprge_dGap sp hsp twMk
+    (fun h ctx prev pos hok hctx hprev => twprge_tokD h ctx prev pos hok hctx hprev) gs g [] 0 none wsOk_nil hok hgs
+  simpa [dText] using this
+
+theorem twprge_finditer_dText (sp : Str) (hsp : SepOk sp) (g : Gp) (gs : List Gp) (hok : g.Ok) (hgs : ∀ x ∈ gs, x.Ok) :
+    twprge.rx.finditer (dText v sp g gs) = dhdrMs v twMk sp 0 (g :: gs) :=
+  (twprge_tiles_dText sp hsp g gs hok hgs).finditer_eq
+
+/-- one step of `findall_matching_twprge` in a layout without context check -/
+theorem trStepL (L : Str) (hL : (L == DESC_STR || L == TR_DESC_S || L == COPY_ALL) = true)
+    (mc : MC) (hns : isLegal Gen.LEGAL_NS mc.ns = true) (hew : isLegal Gen.LEGAL_EW mc.ew = true)
+    (text pre ctx : Str) (h : Hd) (hok : h.Ok) (hctx : EndsTwprge ctx) (htext : text = pre ++ (h.text ++ ctx)) (st : TRFindSt) :
+    trFindStep mc text L st (twMk h pre.length) =
+      .ok { st with out := st.out ++ [⟨h.key, pre.length, pre.length + h.text.length⟩] } := by
+  have hv := h.valid hok ctx hctx
+  have htext' : text = pre ++ (h.sp.text ++ ctx) := by rw [htext, h.sp_text]
+  have hunp : unpackTwprge twprge (twMk h pre.length) text mc.ns mc.ew false = .ok h.sp.canon := by
+    rw [unpackTwprge_canon _ _ _ _ _ _ hns hew, htext']
+    exact congrArg _ (h.sp.canonTR_at pre ctx hv mc.ns mc.ew)
+  have hstart : (twMk h pre.length).start = pre.length := rfl
+  have hstop : (twMk h pre.length).stop = pre.length + h.text.length := by
+    simp [twMk, Spelling.matchAt, h.sp_text]
+  unfold trFindStep
+  simp only [hunp, hL, if_true, hstart, hstop]
+  rfl
+
+/-- what `TwpRgeFinder` reports; `q` = position of the first block of the first group -/
+def dtrOut (v : Char) (sp : Str) : Nat → List Gp → List TRMatch
+  | _, [] => []
+  | q, g :: gs => ⟨g.h.key, q + (g.l.rt ++ rlns g.ls).length + 1, q + (g.l.rt ++ rlns g.ls).length + 1 + g.h.text.length⟩ ::
+      dtrOut v sp (q + (g.dt v).length + sp.length) gs
+
+theorem desc_str_layouts : (DESC_STR == DESC_STR || DESC_STR == TR_DESC_S || DESC_STR == COPY_ALL) = true := by decide
+
+theorem trFoldD (mc : MC) (hns : isLegal Gen.LEGAL_NS mc.ns = true) (hew : isLegal Gen.LEGAL_EW mc.ew = true)
+    (sp : Str) (hsp : SepOk sp) (text : Str) : ∀ (gs : List Gp) (g : Gp) (pre : Str) (st : TRFindSt),
+    g.Ok → (∀ x ∈ gs, x.Ok) → text = pre ++ ((g.dt v) ++ dgps v sp gs) →
+    (dhdrMs v twMk sp pre.length (g :: gs)).foldlM (trFindStep mc text DESC_STR) st =
+      .ok { st with out := st.out ++ dtrOut v sp pre.length (g :: gs) }
+  | [], g, pre, st, hok, _, htext => by
+    have h1 := trStepL DESC_STR desc_str_layouts mc hns hew text (pre ++ (g.l.rt ++ rlns g.ls) ++ [v]) [] g.h hok.h
+      EndsTwprge.nil (by rw [htext]; simp [Gp.dt, dgps]) st
+    have hlen : (pre ++ (g.l.rt ++ rlns g.ls) ++ [v]).length = pre.length + (g.l.rt ++ rlns g.ls).length + 1 := by
+      simp only [List.length_append, List.length_cons, List.length_nil]
+    rw [hlen] at h1
+    simp only [dhdrMs, List.foldlM_cons, h1, dtrOut]
+    rfl
+  | g' :: gs, g, pre, st, hok, hgs, htext => by
+    have h1 := trStepL DESC_STR desc_str_layouts mc hns hew text (pre ++ (g.l.rt ++ rlns g.ls) ++ [v]) (sp ++ ((g'.dt v) ++ dgps v sp gs)) g.h hok.h
+      (endsTwprge_sep sp _ hsp) (by rw [htext]; simp [Gp.dt, dgps]) st
+    have hlen : (pre ++ (g.l.rt ++ rlns g.ls) ++ [v]).length = pre.length + (g.l.rt ++ rlns g.ls).length + 1 := by
+      simp only [List.length_append, List.length_cons, List.length_nil]
+    rw [hlen] at h1
+    have ih := trFoldD mc hns hew sp hsp text gs g' (pre ++ (g.dt v) ++ sp)
+      { st with out := st.out ++ [⟨g.h.key, pre.length + (g.l.rt ++ rlns g.ls).length + 1,
+          pre.length + (g.l.rt ++ rlns g.ls).length + 1 + g.h.text.length⟩] } (hgs g' (by simp))
+      (fun x hx => hgs x (by simp [hx])) (by rw [htext]; simp [dgps])
+    have hlen2 : (pre ++ (g.dt v) ++ sp).length = pre.length + (g.dt v).length + sp.length := by simp; omega
+    rw [hlen2] at ih
+    rw [show dhdrMs v twMk sp pre.length (g :: g' :: gs) = twMk g.h (pre.length + (g.l.rt ++ rlns g.ls).length + 1) ::
+      dhdrMs v twMk sp (pre.length + (g.dt v).length + sp.length) (g' :: gs) from rfl]
+    simp only [List.foldlM_cons, h1]
+    show (dhdrMs v twMk sp (pre.length + (g.dt v).length + sp.length) (g' :: gs)).foldlM (trFindStep mc text DESC_STR) _ = _
+    rw [ih]
+    simp [dtrOut]
+
+/-- **`TwpRgeFinder` on the canonical text** -/
+theorem twprgeFinder_dText (mc : MC) (hns : isLegal Gen.LEGAL_NS mc.ns = true) (hew : isLegal Gen.LEGAL_EW mc.ew = true)
+    (sp : Str) (hsp : SepOk sp) (g : Gp) (gs : List Gp) (hok : g.Ok) (hgs : ∀ x ∈ gs, x.Ok) :
+    twprgeFinder mc (dText v sp g gs) DESC_STR = .ok (dtrOut v sp 0 (g :: gs), {}) := by
+  have h := trFoldD (v := v) mc hns hew sp hsp (dText v sp g gs) gs g [] {} hok hgs (by simp [dText])
+  unfold twprgeFinder
+  rw [twprge_finditer_dText sp hsp g gs hok hgs]
+  simp only [List.length_nil] at h
+  rw [h]
+  rfl
+
+/-! ### the section references -/
+
+/-- the section references of a group whose first block stands at `q` -/
+def dgpRefMs (q : Nat) (g : Gp) : List Match :=
+  secMatch (q + g.l.d.length + 2) :: rrefMs (q + g.l.rt.length) g.ls
+
+def ddocRefMs (v : Char) (sp : Str) : Nat → List Gp → List Match
+  | _, [] => []
+  | q, g :: gs => dgpRefMs q g ++ ddocRefMs v sp (q + (g.dt v).length + sp.length) gs
+
+/-- one group, the white space `spx` behind its Twp/Rge, and what follows -/
+theorem sec_dgroup (g : Gp) (hok : g.Ok) (q : Nat) (spx : Str) (hspx : WsOk spx) (tail : Str) (ms' : List Match)
+    (h : ∀ p, Tiles Gen.multisec_regex p tail (q + (g.dt v).length + spx.length) ms') :
+    ∀ p, Tiles Gen.multisec_regex p ((g.dt v) ++ (spx ++ tail)) q (dgpRefMs q g ++ ms') := by
+  intro p
+  have hl := hok.ls g.l (by simp [Gp.lines])
+  have hls : ∀ x ∈ g.ls, x.Ok := fun x hx => hok.ls x (by simp [Gp.lines, hx])
+  have hT1 : RTail (v :: (g.h.text ++ (spx ++ tail))) := rTail_vhdr v VSep.ok g.h hok.h _
+  have hT : RTail (rlns g.ls ++ v :: (g.h.text ++ (spx ++ tail))) := by
+    cases hg : g.ls with
+    | nil => simpa [rlns] using hT1
+    | cons z zs =>
+      have : rlns (z :: zs) ++ v :: (g.h.text ++ (spx ++ tail)) =
+          '\n' :: (z.d ++ ((',' :: ' ' :: z.ref) ++ (rlns zs ++ v :: (g.h.text ++ (spx ++ tail))))) := by simp [rlns, Ln.rt]
+      rw [this]; exact rTail_block z.d (hls z (by rw [hg]; simp)).d _
+  have htl : ∀ p, Tiles Gen.multisec_regex p (v :: (g.h.text ++ (spx ++ tail))) (q + g.l.rt.length + (rlns g.ls).length) ms' := by
+    intro p
+    refine Tiles.skip p v _ _ _ (matchHere_of_failsOn (multisec_fails_v _) _ _ false) ?_
+    have hsk : Skips Gen.multisec_regex (g.h.text ++ spx) tail :=
+      skips_header multisec_skips_plain failsOn_multisec_S g.h hok.h spx hspx tail
+    have e : g.h.text ++ (spx ++ tail) = (g.h.text ++ spx) ++ tail := by simp
+    rw [e]
+    refine Tiles.skipSeg hsk _ _ ?_
+    have hq : q + g.l.rt.length + (rlns g.ls).length + 1 + (g.h.text ++ spx).length = q + (g.dt v).length + spx.length := by
+      rw [g.dt_length v]; simp only [List.length_append]; omega
+    rw [hq]
+    exact h _
+  have h2 := sec_rlines g.ls (q + g.l.rt.length) _ ms' hls hT1 htl
+  have h1 := sec_rline [] wsOk_nil g.l hl _ hT _ q (by simpa using h2)
+  have e : (g.dt v) ++ (spx ++ tail) = [] ++ (g.l.rt ++ (rlns g.ls ++ v :: (g.h.text ++ (spx ++ tail)))) := by simp [Gp.dt]
+  rw [e]
+  have := h1 p
+  simpa [dgpRefMs] using this
+
+theorem multisec_tiles_dgps (sp : Str) (hsp : SepOk sp) : ∀ (gs : List Gp) (g : Gp) (q : Nat), g.Ok → (∀ x ∈ gs, x.Ok) →
+    ∀ p, Tiles Gen.multisec_regex p ((g.dt v) ++ dgps v sp gs) q (ddocRefMs v sp q (g :: gs))
+  | [], g, q, hok, _ => by
+    intro p
+    have := sec_dgroup (v := v) g hok q [] wsOk_nil [] [] (fun p => Tiles.nil p _ (matchHere_of_failsOn multisec_fails_nil _ _ false)) p
+    simpa [dgps, ddocRefMs] using this
+  | g' :: gs, g, q, hok, hgs => by
+    intro p
+    have ih := multisec_tiles_dgps sp hsp gs g' (q + (g.dt v).length + sp.length) (hgs g' (by simp)) (fun x hx => hgs x (by simp [hx]))
+    have := sec_dgroup (v := v) g hok q sp hsp.ws ((g'.dt v) ++ dgps v sp gs) _ ih p
+    simpa [dgps, ddocRefMs] using this
+
+theorem multisec_tiles_dText (sp : Str) (hsp : SepOk sp) (g : Gp) (gs : List Gp) (hok : g.Ok) (hgs : ∀ x ∈ gs, x.Ok) :
+    Tiles Gen.multisec_regex none (dText v sp g gs) 0 (ddocRefMs v sp 0 (g :: gs)) :=
+  multisec_tiles_dgps sp hsp gs g 0 hok hgs none
+
+/-! ### the arrangement and `SecFinder` -/
+
+def dGroup (q : Nat) (g : Gp) : TRGroup :=
+  ⟨q + (g.l.rt ++ rlns g.ls).length + 1, q + (g.l.rt ++ rlns g.ls).length + 1 + g.h.text.length, g.h.key, rItems1 q g.l g.ls⟩
+
+/-- the arrangement of the canonical text; `q` = position of the first block of the first group -/
+def dGroups (v : Char) (sp : Str) : Nat → List Gp → List TRGroup
+  | _, [] => []
+  | q, g :: gs => dGroup q g :: dGroups v sp (q + (g.dt v).length + sp.length) gs
+
+theorem dGroups_ok (sp : Str) (text : Str) : ∀ (gs : List Gp) (g : Gp) (pre : Str), text = pre ++ ((g.dt v) ++ dgps v sp gs) →
+    g.Ok → (∀ x ∈ gs, x.Ok) → ∀ G ∈ dGroups v sp pre.length (g :: gs), ∀ s ∈ G.items, ItemOK text s
+  | gs, g, pre, htxt, hok, hgs => by
+    intro G hG
+    simp only [dGroups, List.mem_cons] at hG
+    rcases hG with rfl | hG
+    · exact rItems1_ok text g.l g.ls pre (v :: g.h.text ++ dgps v sp gs) (by rw [htxt]; simp [Gp.dt])
+        (hok.ls g.l (by simp [Gp.lines])) (fun x hx => hok.ls x (by simp [Gp.lines, hx]))
+    · match gs, hgs, htxt, hG with
+      | [], _, _, hG => simp [dGroups] at hG
+      | g' :: gs', hgs, htxt, hG =>
+        have := dGroups_ok sp text gs' g' (pre ++ (g.dt v) ++ sp) (by rw [htxt]; simp [dgps]) (hgs g' (by simp))
+          (fun x hx => hgs x (by simp [hx])) G
+        have hlen : (pre ++ (g.dt v) ++ sp).length = pre.length + (g.dt v).length + sp.length := by simp; omega
+        rw [hlen] at this
+        exact this hG
+termination_by gs => gs.length
+
+/-- one step of `findall_matching_sec` at a section reference `Sec nn:` in a layout that does not start with the section -/
+theorem secStepL (L : Str) (hL : firstLayouts L = false) (text : Str) (s : SecItem) (hs : ItemOK text s) (st : SecFindSt)
+    (needColon : Bool) :
+    secFindStep text L needColon st (secMatch s.sStart) =
+      .ok { out := st.out ++ [⟨s.secs, s.sStart, s.sEnd⟩], lastNums := s.secs, ff := st.ff } := by
+  obtain ⟨l, hl, h1, h2, pre, post, htext, hp⟩ := hs
+  obtain ⟨u1, u2, u3⟩ := unpack_ref l hl
+  rw [← hp] at h2 ⊢
+  have hg0 : (secMatch pre.length).group0 text = l.ref := by
+    unfold Match.group0
+    exact slice_at text pre l.ref post _ _ htext rfl rfl
+  have hcolon : (multisec.group (secMatch pre.length) text "colon").isNone = false := by
+    simp [Pat.group, multisec_idx.1, Match.group?, Match.span?, secMatch]
+  have hmulti : isMulti multisec "sec" (secMatch pre.length) text = some false := by
+    simp [isMulti, multisec_idx, Pat.group, Match.group?, Match.span?, secMatch, List.find?]
+  unfold secFindStep
+  simp only [hg0, hcolon, hmulti, u1, u2, u3, hL, Bool.false_and, Bool.and_false, Bool.not_false, Bool.and_self,
+    Bool.not_true, Bool.false_eq_true, if_false, List.append_nil, h1, h2]
+  rfl
+
+theorem secFoldL (L : Str) (hL : firstLayouts L = false) (text : Str) (nc : Bool) : ∀ (its : List SecItem) (st : SecFindSt),
+    (∀ s ∈ its, ItemOK text s) →
+    ∃ st', (its.map (fun s => secMatch s.sStart)).foldlM (secFindStep text L nc) st = .ok st' ∧
+      st'.out = st.out ++ its.map (fun s => (⟨s.secs, s.sStart, s.sEnd⟩ : SecMatch)) ∧ st'.ff = st.ff
+  | [], st, _ => ⟨st, rfl, by simp, rfl⟩
+  | s :: its, st, h => by
+    obtain ⟨st', a1, a2, a3⟩ := secFoldL L hL text nc its
+      { out := st.out ++ [⟨s.secs, s.sStart, s.sEnd⟩], lastNums := s.secs, ff := st.ff } (fun x hx => h x (by simp [hx]))
+    refine ⟨st', ?_, ?_, a3⟩
+    · simp only [List.map_cons, List.foldlM_cons, secStepL L hL text s (h s (by simp)) st nc]
+      exact a1
+    · rw [a2]; simp
+
+theorem ddocRefMs_items (sp : Str) : ∀ (gs : List Gp) (q : Nat),
+    ddocRefMs v sp q gs = (allItems (dGroups v sp q gs)).map (fun s => secMatch s.sStart)
+  | [], _ => rfl
+  | g :: gs, q => by
+    simp [ddocRefMs, dGroups, allItems, dgpRefMs, dGroup, rItems1, rrefMs_items, ddocRefMs_items sp gs]
+
+theorem firstLayouts_dstr : firstLayouts DESC_STR = false := by decide
+
+/-- **`SecFinder` on the canonical text** -/
+theorem secFinder_dText (sp : Str) (hsp : SepOk sp) (g : Gp) (gs : List Gp) (hok : g.Ok) (hgs : ∀ x ∈ gs, x.Ok) (rc : ReqColon) :
+    secFinder (dText v sp g gs) DESC_STR rc = .ok (secsOf (dGroups v sp 0 (g :: gs)), {}) := by
+  have hfind : multisec.rx.finditer (dText v sp g gs) = (allItems (dGroups v sp 0 (g :: gs))).map (fun s => secMatch s.sStart) := by
+    rw [← ddocRefMs_items]
+    exact (multisec_tiles_dText (v := v) sp hsp g gs hok hgs).finditer_eq
+  have hitems : ∀ s ∈ allItems (dGroups v sp 0 (g :: gs)), ItemOK (dText v sp g gs) s := by
+    intro s hs
+    simp only [allItems, List.mem_flatMap] at hs
+    obtain ⟨G, hG, hs⟩ := hs
+    exact dGroups_ok (v := v) sp (dText v sp g gs) gs g [] (by simp [dText]) hok hgs G hG s hs
+  have hpass : ∀ nc, ∃ nums, secFinderPass (dText v sp g gs) DESC_STR nc = .ok (secsOf (dGroups v sp 0 (g :: gs)), {}, nums) := by
+    intro nc
+    obtain ⟨st', a1, a2, a3⟩ := secFoldL DESC_STR firstLayouts_dstr (dText v sp g gs) nc _ {} hitems
+    refine ⟨st'.lastNums, ?_⟩
+    unfold secFinderPass
+    rw [hfind, a1]
+    simp only [a2, a3, secsOf_allItems, List.nil_append]
+  unfold secFinder
+  obtain ⟨nums, hp⟩ := hpass ((rc == .yes || rc == .cautious) && firstLayouts DESC_STR)
+  simp only [hp]
+  simp [secsOf, dGroups, dGroup, rItems1]
+
+theorem trsOf_dGroups (sp : Str) : ∀ (gs : List Gp) (q : Nat), trsOf (dGroups v sp q gs) = dtrOut v sp q gs
+  | [], _ => rfl
+  | g :: gs, q => by simp [dGroups, trsOf, dtrOut, dGroup, ← trsOf_dGroups sp gs]
+
+/-! ### the markers -/
+
+/-- **`populate_markers` for a text that starts with a description and ends with a Twp/Rge**: the start-of-text marker stays,
+    the end-of-text marker is overwritten -/
+theorem populateMarkers_D (len : Nat) (secs : List SecMatch) (trs : List TRMatch) (T : List (Nat × Marker))
+    (hs : ((0, Marker.textStart) :: T).Pairwise (fun a b => a.1 < b.1)) (hperm : T.Perm (secMk secs ++ trMk trs))
+    (init : List (Nat × Marker)) (hE : trMk trs = init ++ [(len, Marker.trEnd)]) :
+    populateMarkers len secs trs = (0, Marker.textStart) :: T := by
+  have hperm2 : T.Perm ((len, Marker.trEnd) :: (secMk secs ++ init)) := by
+    refine hperm.trans ?_
+    rw [hE, ← List.append_assoc]
+    exact List.perm_append_comm
+  have hperm3 : ((0, Marker.textStart) :: T).Perm ((0, Marker.textStart) :: (len, Marker.trEnd) :: (secMk secs ++ init)) :=
+    List.Perm.cons _ hperm2
+  have hkeys : (0 :: len :: ((secMk secs ++ init).map (·.1))).Nodup := by
+    have hT : (((0, Marker.textStart) :: T).map (·.1)).Nodup := by
+      rw [List.Nodup, List.pairwise_map]
+      exact hs.imp (fun h => Nat.ne_of_lt h)
+    have := (hperm3.map (·.1)).nodup_iff.1 hT
+    simpa using this
+  have hk0 := List.nodup_cons.1 hkeys
+  have hk1 := List.nodup_cons.1 hk0.2
+  have hlen0 : (0 : Nat) ≠ len := by intro e; exact hk0.1 (by simp [e])
+  have hd1 : markSet (markSet [] 0 .textStart) len .textEnd = [(0, Marker.textStart), (len, Marker.textEnd)] := by
+    rw [markSet_fresh [] 0 _ (fun _ h => by cases h)]
+    exact markSet_fresh _ len _ (by intro e he; simp at he; rw [he]; exact hlen0)
+  unfold populateMarkers
+  simp only [hd1, secs_fold, trs_fold, hE, List.foldl_cons, List.foldl_append, List.foldl_nil]
+  have hnd : (([(0, Marker.textStart), (len, Marker.textEnd)] ++ (secMk secs ++ init)).map (·.1)).Nodup := by
+    simpa using hkeys
+  have hf : init.foldl (fun d e => markSet d e.1 e.2) ((secMk secs).foldl (fun d e => markSet d e.1 e.2)
+      [(0, Marker.textStart), (len, Marker.textEnd)]) = [(0, Marker.textStart), (len, Marker.textEnd)] ++ (secMk secs ++ init) := by
+    rw [← List.foldl_append]
+    exact foldl_markSet _ _ hnd
+  rw [hf]
+  have hlast : markSet ([(0, Marker.textStart), (len, Marker.textEnd)] ++ (secMk secs ++ init)) len Marker.trEnd =
+      (0, Marker.textStart) :: (len, Marker.trEnd) :: (secMk secs ++ init) := by
+    refine markSet_second _ len _ _ _ hlen0 ?_
+    intro e he h
+    exact hk1.1 (by rw [← h]; exact List.mem_map_of_mem he)
+  rw [hlast]
+  exact sortMarkers_eq _ _ hperm3 hs
+
+theorem dGroup_markers (q : Nat) (g : Gp) :
+    sGroupMarkers (dGroup q g) = imk (rItems1 q g.l g.ls) ++ [((q + (g.l.rt ++ rlns g.ls).length + 1, Marker.trStart) : Nat × Marker),
+      (q + (g.l.rt ++ rlns g.ls).length + 1 + g.h.text.length, Marker.trEnd)] := rfl
+
+theorem dGroup_within (g : Gp) (q : Nat) : Within q (q + (g.dt v).length + 1) (sGroupMarkers (dGroup q g)) := by
+  have hh := g.h.text_length
+  have ih := rItems1_within g.ls g.l q
+  rw [dGroup_markers, g.dt_length v]
+  refine Within.append ih (mid' := q + (g.l.rt ++ rlns g.ls).length + 1) ?_ (Nat.le_refl _) (by omega) (by omega)
+  refine Within.cons (by simp) (Within.cons (by simp; omega) (Within.nil _ _) (by simp; omega)) (by simp; omega)
+
+theorem ddoc_length (sp : Str) (g g' : Gp) (gs : List Gp) :
+    ((g.dt v) ++ dgps v sp (g' :: gs)).length = (g.dt v).length + sp.length + ((g'.dt v) ++ dgps v sp gs).length := by
+  simp [dgps]; omega
+
+/-- the markers of the arrangement stand at strictly increasing positions; the first block has at least one character, so
+    they all stand behind position 0 if `q = 0` -/
+theorem dGroups_within (sp : Str) (hsp : SepOk sp) : ∀ (gs : List Gp) (g : Gp) (q : Nat),
+    Within q (q + ((g.dt v) ++ dgps v sp gs).length + 1) ((dGroups v sp q (g :: gs)).flatMap sGroupMarkers)
+  | [], g, q => by
+    have := dGroup_within (v := v) g q
+    simpa [dGroups, dgps] using this
+  | g' :: gs, g, q => by
+    have hspl : 0 < sp.length := List.length_pos_iff.mpr hsp.ne
+    have h1 := dGroup_within (v := v) g q
+    have ih := dGroups_within sp hsp gs g' (q + (g.dt v).length + sp.length)
+    have e : (dGroups v sp q (g :: g' :: gs)).flatMap sGroupMarkers = sGroupMarkers (dGroup q g) ++
+        (dGroups v sp (q + (g.dt v).length + sp.length) (g' :: gs)).flatMap sGroupMarkers := by
+      simp [dGroups]
+    rw [e, ddoc_length]
+    have hh : q + (g.dt v).length + sp.length + ((g'.dt v) ++ dgps v sp gs).length + 1 =
+        q + ((g.dt v).length + sp.length + ((g'.dt v) ++ dgps v sp gs).length) + 1 := by omega
+    rw [← hh]
+    exact Within.append h1 ih (by omega) (by omega) (by omega)
+
+theorem dGroups_ne (sp : Str) (q : Nat) (g : Gp) (gs : List Gp) : dGroups v sp q (g :: gs) ≠ [] := by simp [dGroups]
+
+theorem endOf_dGroups (sp : Str) : ∀ (gs : List Gp) (g : Gp) (q : Nat),
+    endOf (dGroups v sp q (g :: gs)) = q + ((g.dt v) ++ dgps v sp gs).length
+  | [], g, q => by simp [dGroups, endOf, dGroup, dgps, g.dt_length v]; omega
+  | g' :: gs, g, q => by
+    have ih := endOf_dGroups sp gs g' (q + (g.dt v).length + sp.length)
+    have e : endOf (dGroups v sp q (g :: g' :: gs)) = endOf (dGroups v sp (q + (g.dt v).length + sp.length) (g' :: gs)) := by
+      simp only [endOf]
+      rw [show dGroups v sp q (g :: g' :: gs) = dGroup q g :: dGroups v sp (q + (g.dt v).length + sp.length) (g' :: gs) from rfl,
+        List.getLast?_cons_of_ne_nil (dGroups_ne sp _ g' gs)]
+    rw [e, ih, ddoc_length]; omega
+
+/-- **the markers of the canonical text** -/
+theorem populateMarkers_dText (sp : Str) (hsp : SepOk sp) (g : Gp) (gs : List Gp) (hok : g.Ok) :
+    populateMarkers (dText v sp g gs).length (secsOf (dGroups v sp 0 (g :: gs))) (trsOf (dGroups v sp 0 (g :: gs))) =
+      Lay.descStr.markers (dGroups v sp 0 (g :: gs)) (dText v sp g gs).length := by
+  have hne := dGroups_ne (v := v) sp 0 g gs
+  have hend := endOf_dGroups (v := v) sp gs g 0
+  rw [Nat.zero_add] at hend
+  obtain ⟨initM, hM⟩ := sMarkers_last _ hne
+  obtain ⟨initT, hT⟩ := trMk_last _ hne
+  rw [hend] at hM hT
+  have hw := dGroups_within (v := v) sp hsp gs g 0
+  have hmk : Lay.descStr.markers (dGroups v sp 0 (g :: gs)) (dText v sp g gs).length =
+      (0, Marker.textStart) :: (dGroups v sp 0 (g :: gs)).flatMap sGroupMarkers := by
+    have hc : Lay.descStr.core (dGroups v sp 0 (g :: gs)) = (0, Marker.textStart) :: (dGroups v sp 0 (g :: gs)).flatMap sGroupMarkers := rfl
+    unfold Lay.markers withEnd
+    rw [hc, if_pos]
+    rw [hM]
+    have : (0, Marker.textStart) :: (initM ++ [(((g.dt v) ++ dgps v sp gs).length, Marker.trEnd)]) =
+        ((0, Marker.textStart) :: initM) ++ [(((g.dt v) ++ dgps v sp gs).length, Marker.trEnd)] := rfl
+    rw [this]
+    simp only [lastPos, List.getLast?_concat, Option.map_some, Option.getD_some, dText]
+  rw [hmk]
+  have hd0 : 0 < g.l.d.length := List.length_pos_iff.mpr (hok.ls g.l (by simp [Gp.lines])).d.ne
+  refine populateMarkers_D _ _ _ _ ?_ (sMarkers_perm _) initT (by rw [hT]; rfl)
+  refine List.pairwise_cons.2 ⟨?_, hw.1⟩
+  intro e he
+  have hfirst : ∀ e ∈ (dGroups v sp 0 (g :: gs)).flatMap sGroupMarkers, g.l.d.length + 2 ≤ e.1 := by
+    have h1 := rItems1_within g.ls g.l 0
+    intro e he
+    rw [show dGroups v sp 0 (g :: gs) = dGroup 0 g :: dGroups v sp (0 + (g.dt v).length + sp.length) gs from rfl, List.flatMap_cons,
+      List.mem_append] at he
+    rcases he with he | he
+    · rw [dGroup_markers, List.mem_append] at he
+      rcases he with he | he
+      · obtain ⟨rest, hr⟩ : ∃ rest, imk (rItems1 0 g.l g.ls) = (0 + g.l.d.length + 2, Marker.secStart) :: rest :=
+          ⟨(0 + g.l.d.length + 9, Marker.secEnd) :: imk (rItems (0 + g.l.rt.length) g.ls), by simp [rItems1, imk]⟩
+        have hp := h1.1
+        rw [hr] at hp he
+        rcases List.mem_cons.1 he with rfl | he
+        · simp
+        · have := (List.pairwise_cons.1 hp).1 e he
+          simp at this; omega
+      · have hl := g.l.rt_length
+        simp only [List.mem_cons, List.not_mem_nil, or_false] at he
+        rcases he with rfl | rfl <;> simp <;> omega
+    · cases gs with
+      | nil => simp [dGroups] at he
+      | cons g' gs' =>
+        have := (dGroups_within (v := v) sp hsp gs' g' (0 + (g.dt v).length + sp.length)).2 e he
+        have hl := g.l.rt_length
+        have := g.dt_length v
+        simp only [List.length_append] at *
+        omega
+  have := hfirst e he
+  show 0 < e.1
+  omega
+
+/-! ### the walk stages exactly the lines; the layout is deduced; `parse_chunk` -/
+
+theorem ws_strip {w : Str} (hw : WsOk w) : ∀ c ∈ w, c ∈ cleanupStripSet := by
+  intro c hc
+  rcases hw c hc with rfl | rfl <;> decide
+
+theorem dGroup_comps (txt : Str) (g : Gp) (hok : g.Ok) (pre w tail : Str) (hw : WsOk w)
+    (htxt : txt = pre ++ (w ++ ((g.dt v) ++ tail))) :
+    dItemComps txt g.h.key pre.length (rItems1 (pre.length + w.length) g.l g.ls) = g.lines.map (lnComp g.h.key) := by
+  have hl := hok.ls g.l (by simp [Gp.lines])
+  have hls : ∀ x ∈ g.ls, x.Ok := fun x hx => hok.ls x (by simp [Gp.lines, hx])
+  have hslice : slice txt pre.length (pre.length + w.length + g.l.d.length + 2) = w ++ g.l.d ++ [',', ' '] := by
+    refine slice_at txt pre _ (g.l.ref ++ (rlns g.ls ++ (v :: g.h.text ++ tail))) _ _ ?_ rfl (by simp; omega)
+    rw [htxt]; simp [Gp.dt, Ln.rt]
+  have hclean : cleanupDesc (w ++ g.l.d ++ [',', ' ']) = g.l.d :=
+    C01_cleanup_block w g.l.d [',', ' '] (ws_strip hw) (by decide) hl.d.clean
+  have ih := rLines_comps txt g.h.key g.ls (pre ++ w ++ g.l.rt) (v :: g.h.text ++ tail) (by rw [htxt]; simp [Gp.dt]) hls
+  have hlen : (pre ++ w ++ g.l.rt).length = pre.length + w.length + g.l.rt.length := by simp; omega
+  rw [hlen] at ih
+  have hend : pre.length + w.length + g.l.d.length + 9 = pre.length + w.length + g.l.rt.length := by
+    rw [g.l.rt_length]; omega
+  simp only [rItems1, dItemComps, hslice, hclean, hend, ih, Gp.lines, List.map_cons, lnComp]
+
+theorem dGroups_comps (sp : Str) (hsp : SepOk sp) (txt : Str) : ∀ (gs : List Gp) (g : Gp) (pre w : Str), WsOk w →
+    txt = pre ++ (w ++ ((g.dt v) ++ dgps v sp gs)) → g.Ok → (∀ x ∈ gs, x.Ok) →
+    strComps txt pre.length (dGroups v sp (pre.length + w.length) (g :: gs)) = docComps (g :: gs)
+  | [], g, pre, w, hw, htxt, hok, _ => by
+    have h1 := dGroup_comps (v := v) txt g hok pre w (dgps v sp []) hw htxt
+    simp [strComps, dGroups, dGroup, docComps, h1]
+  | g' :: gs, g, pre, w, hw, htxt, hok, hgs => by
+    have h1 := dGroup_comps (v := v) txt g hok pre w (dgps v sp (g' :: gs)) hw htxt
+    have ih := dGroups_comps sp hsp txt gs g' (pre ++ w ++ (g.dt v)) sp hsp.ws (by rw [htxt]; simp [dgps]) (hgs g' (by simp))
+      (fun x hx => hgs x (by simp [hx]))
+    have hlen : (pre ++ w ++ (g.dt v)).length = pre.length + w.length + (g.l.rt ++ rlns g.ls).length + 1 + g.h.text.length := by
+      rw [List.length_append, List.length_append, g.dt_length v]; omega
+    have hlen2 : (pre ++ w ++ (g.dt v)).length + sp.length = pre.length + w.length + (g.dt v).length + sp.length := by
+      simp only [List.length_append]
+    rw [hlen2] at ih
+    rw [hlen] at ih
+    rw [show dGroups v sp (pre.length + w.length) (g :: g' :: gs) = dGroup (pre.length + w.length) g ::
+      dGroups v sp (pre.length + w.length + (g.dt v).length + sp.length) (g' :: gs) from rfl]
+    simp only [strComps, docComps, List.flatMap_cons] at ih ⊢
+    rw [show (dGroup (pre.length + w.length) g).tEnd = pre.length + w.length + (g.l.rt ++ rlns g.ls).length + 1 + g.h.text.length from rfl,
+      ih]
+    simp [dGroup, h1]
+
+theorem dGroups_items_ne (sp : Str) : ∀ (gs : List Gp) (q : Nat), ∀ G ∈ dGroups v sp q gs, G.items ≠ []
+  | [], _, G, h => by cases h
+  | g :: gs, q, G, h => by
+    simp only [dGroups, List.mem_cons] at h
+    rcases h with rfl | h
+    · simp [dGroup, rItems1]
+    · exact dGroups_items_ne sp gs _ G h
+
+/-- **C01 (layout desc–Sec–Twp/Rge): what the two finders report on the canonical text, and the marker list, no premise** -/
+theorem C01_finders_desc_STR (mc : MC) (hns : isLegal Gen.LEGAL_NS mc.ns = true) (hew : isLegal Gen.LEGAL_EW mc.ew = true)
+    (sp : Str) (hsp : SepOk sp) (g : Gp) (gs : List Gp) (hok : g.Ok) (hgs : ∀ x ∈ gs, x.Ok) (rc : ReqColon) :
+    twprgeFinder mc (dText v sp g gs) DESC_STR = .ok (trsOf (dGroups v sp 0 (g :: gs)), {}) ∧
+    secFinder (dText v sp g gs) DESC_STR rc = .ok (secsOf (dGroups v sp 0 (g :: gs)), {}) ∧
+    populateMarkers (dText v sp g gs).length (secsOf (dGroups v sp 0 (g :: gs))) (trsOf (dGroups v sp 0 (g :: gs))) =
+      Lay.descStr.markers (dGroups v sp 0 (g :: gs)) (dText v sp g gs).length ∧
+    strComps (dText v sp g gs) 0 (dGroups v sp 0 (g :: gs)) = docComps (g :: gs) := by
+  refine ⟨?_, secFinder_dText sp hsp g gs hok hgs rc, populateMarkers_dText sp hsp g gs hok, ?_⟩
+  · rw [trsOf_dGroups]; exact twprgeFinder_dText (v := v) mc hns hew sp hsp g gs hok hgs
+  · have := dGroups_comps (v := v) sp hsp (dText v sp g gs) gs g [] [] wsOk_nil (by simp [dText]) hok hgs
+    simpa using this
+
+/-- **C01 (layout desc–Sec–Twp/Rge): the lexical premise `Reports` of `Lemmas/Segment.lean` holds for the canonical text** -/
+theorem C01_reports_desc_STR (mc : MC) (hns : isLegal Gen.LEGAL_NS mc.ns = true) (hew : isLegal Gen.LEGAL_EW mc.ew = true)
+    (sp : Str) (hsp : SepOk sp) (g : Gp) (gs : List Gp) (hok : g.Ok) (hgs : ∀ x ∈ gs, x.Ok) (rc : ReqColon) :
+    Reports mc rc (dText v sp g gs) .descStr (dGroups v sp 0 (g :: gs)) := by
+  refine Reports.intro _ _ _ _ (twprgeFinder_dText mc hns hew sp hsp g gs hok hgs)
+    (secFinder_dText sp hsp g gs hok hgs rc) ?_ (secsOf_secs _) ?_
+  · rw [← trsOf_dGroups]; simp [trsOf, List.map_map, Function.comp_def]
+  · rw [← trsOf_dGroups]; exact populateMarkers_dText (v := v) sp hsp g gs hok
+
+/-! ### the layout desc_STR is deduced; `parse_chunk` -/
+
+theorem dText_last (sp : Str) : ∀ (gs : List Gp) (g : Gp), g.Ok → (∀ x ∈ gs, x.Ok) →
+    ∃ (Y : Str) (h : Hd), h.Ok ∧ (g.dt v) ++ dgps v sp gs = Y ++ h.text
+  | [], g, hok, _ => ⟨(g.l.rt ++ rlns g.ls) ++ [v], g.h, hok.h, by simp [Gp.dt, dgps]⟩
+  | g' :: gs, g, _, hgs => by
+    obtain ⟨Y, h, hh, e⟩ := dText_last sp gs g' (hgs g' (by simp)) (fun x hx => hgs x (by simp [hx]))
+    exact ⟨(g.dt v) ++ sp ++ Y, h, hh, by simp [dgps, e]⟩
+
+theorem pyStrip_dText (sp : Str) (g : Gp) (gs : List Gp) (hok : g.Ok) (hgs : ∀ x ∈ gs, x.Ok) :
+    pyStrip (dText v sp g gs) = dText v sp g gs := by
+  obtain ⟨Y, h, hh, hY⟩ := dText_last (v := v) sp gs g hok hgs
+  have hl := hok.ls g.l (by simp [Gp.lines])
+  obtain ⟨d0, d', e, h1, h2⟩ := hl.d.head_cons
+  have hne : d0 ≠ ' ' := by rintro rfl; rw [headDanger_blank] at h2; cases h2
+  have hd0 : pyIsSpace d0 = false := notSpace_of_safe h1 hne
+  have hns : pyIsSpace h.ew = false := by rcases hh.ew with e | e <;> rw [e] <;> decide
+  have hlast : (dText v sp g gs).getLast? = some h.ew := by
+    have e2 : dText v sp g gs = (Y ++ 'T' :: (h.t ++ h.ns :: '-' :: 'R' :: h.r)) ++ [h.ew] := by
+      rw [dText, hY]; simp [Hd.text, canonText]
+    rw [e2]; exact List.getLast?_concat
+  have hhead : dText v sp g gs = d0 :: (d' ++ ((',' :: ' ' :: g.l.ref) ++ rlns g.ls ++ v :: g.h.text ++ dgps v sp gs)) := by
+    simp [dText, Gp.dt, Ln.rt, e]
+  unfold pyStrip stripBy
+  have h1 : lstripBy pyIsSpace (dText v sp g gs) = dText v sp g gs := by
+    rw [hhead]; exact Pretty.lstripBy_head_false _ _ _ hd0
+  rw [h1]
+  exact Pretty.rstripBy_getLast_false _ _ h.ew hlast hns
+
+/-- **the layout of the canonical text is deduced**: the first section word stands behind the first block (at least 3
+    characters from the start of the text), the first Twp/Rge later -/
+theorem deduceLayout_dText (sp : Str) (hsp : SepOk sp) (g : Gp) (gs : List Gp) (hok : g.Ok) (hgs : ∀ x ∈ gs, x.Ok) :
+    deduceLayout (dText v sp g gs) = DESC_STR := by
+  have hl := hok.ls g.l (by simp [Gp.lines])
+  obtain ⟨sm, hsm, hstart⟩ : ∃ sm, Gen.no_num_sec_regex.search (dText v sp g gs) = some sm ∧ sm.start = g.l.d.length + 2 := by
+    have hsk : Skips Gen.no_num_sec_regex (g.l.d ++ [',', ' ']) (g.l.ref ++ (rlns g.ls ++ v :: g.h.text ++ dgps v sp gs)) :=
+      nonum_skips_safe _ _ (by
+        intro c hc
+        rcases List.mem_append.1 hc with hc | hc
+        · exact hl.d.safe c hc
+        · simp only [List.mem_cons, List.not_mem_nil, or_false] at hc
+          rcases hc with rfl | rfl <;> decide +kernel)
+    have htxt : dText v sp g gs = (g.l.d ++ [',', ' ']) ++ (g.l.ref ++ (rlns g.ls ++ v :: g.h.text ++ dgps v sp gs)) := by
+      simp [dText, Gp.dt, Ln.rt]
+    rw [search_default, htxt, scan_skipSeg hsk none 0]
+    have hL := (eats_secWord 1 (g.l.n1 :: g.l.n2 :: ':' :: (rlns g.ls ++ v :: g.h.text ++ dgps v sp gs))) (lastOr none (g.l.d ++ [',', ' ']))
+      (0 + (g.l.d ++ [',', ' ']).length) []
+    rw [← nonum_decomp] at hL
+    have hm := matchHere_of_leads false hL (Or.inl rfl)
+    have e : g.l.ref ++ (rlns g.ls ++ v :: g.h.text ++ dgps v sp gs) =
+        'S' :: (['e', 'c'] ++ ' ' :: (g.l.n1 :: g.l.n2 :: ':' :: (rlns g.ls ++ v :: g.h.text ++ dgps v sp gs))) := by
+      simp [Ln.ref]
+    rw [e, LT.scan_cons]
+    have e2 : (['S', 'e', 'c'] ++ ' ' :: (g.l.n1 :: g.l.n2 :: ':' :: (rlns g.ls ++ v :: g.h.text ++ dgps v sp gs))) =
+        'S' :: (['e', 'c'] ++ ' ' :: (g.l.n1 :: g.l.n2 :: ':' :: (rlns g.ls ++ v :: g.h.text ++ dgps v sp gs))) := rfl
+    rw [e2] at hm
+    rw [hm]
+    exact ⟨_, rfl, by simp⟩
+  obtain ⟨tm, htm, htstart⟩ : ∃ tm, twprge.rx.search (dText v sp g gs) = some tm ∧ tm.start = (g.l.rt ++ rlns g.ls).length + 1 := by
+    have := (twprge_tiles_dText (v := v) sp hsp g gs hok hgs).search_eq
+    exact ⟨_, this.trans rfl, by simp [twMk, Spelling.matchAt]⟩
+  unfold deduceLayout
+  rw [pyStrip_dText sp g gs hok hgs]
+  simp only []
+  rw [hsm, htm]
+  have hlt : sm.start < tm.start := by
+    rw [hstart, htstart]; simp only [List.length_append, g.l.rt_length]; omega
+  have hle : ¬ (sm.start ≤ 1) := by omega
+  have hc : ([TRS_DESC, DESC_STR, S_DESC_TR, TR_DESC_S] : List Str).contains DESC_STR = true := by decide
+  simp [hlt, hc, hle]
+
+/-- **C01 (layout desc–Sec–Twp/Rge, chunk level, no lexical premise)**: `parse_chunk` on the canonical text — per group the
+    lines `<inert block>, Sec nn:`, a blank or a line break `v`, the Twp/Rge closing the group; groups separated by blanks / line breaks —
+    deduces (or accepts) the layout desc_STR, raises neither an error nor a warning flag, and (without `sec_within`) stages
+    exactly one component per line, in reading order, with the Twp/Rge that closes its group, its section and its block
+    verbatim -/
+theorem C01_chunk_canonical_desc_STR (mc : MC) (pc : ParserCfg) (hns : isLegal Gen.LEGAL_NS mc.ns = true)
+    (hew : isLegal Gen.LEGAL_EW mc.ew = true) (sp : Str) (hsp : SepOk sp) (g : Gp) (gs : List Gp) (hok : g.Ok)
+    (hgs : ∀ x ∈ gs, x.Ok) (parentLayout : Str) (hml : pc.mandateLayout = true → parentLayout = DESC_STR) :
+    ∃ c, parseChunkCore mc pc (dText v sp g gs) false parentLayout = .ok c ∧ c.fl.e = [] ∧ c.fl.w = [] ∧
+      (pc.secWithin = false → c.comps = docComps (g :: gs)) := by
+  have hlay : chunkLayoutOf pc (dText v sp g gs) false parentLayout = DESC_STR := by
+    unfold chunkLayoutOf
+    simp only [Bool.false_eq_true, if_false]
+    split
+    · rename_i h; exact hml h
+    · exact deduceLayout_dText (v := v) sp hsp g gs hok hgs
+  have htr := twprgeFinder_dText (v := v) mc hns hew sp hsp g gs hok hgs
+  have hsec := secFinder_dText (v := v) sp hsp g gs hok hgs pc.requireColon
+  have hne := dGroups_items_ne (v := v) sp (g :: gs) 0
+  have hg : dGroups v sp 0 (g :: gs) ≠ [] := dGroups_ne (v := v) sp 0 g gs
+  have hcopy : (DESC_STR == COPY_ALL) = false := by decide
+  have htrl : (dtrOut v sp 0 (g :: gs)).map (·.twprge) = (dGroups v sp 0 (g :: gs)).map (·.tr) := by
+    rw [← trsOf_dGroups]; simp [trsOf, List.map_map, Function.comp_def]
+  have hsecl : (secsOf (dGroups v sp 0 (g :: gs))).map (·.secs) = allSecs (dGroups v sp 0 (g :: gs)) := secsOf_secs _
+  have hmark' : populateMarkers (dText v sp g gs).length (secsOf (dGroups v sp 0 (g :: gs))) (dtrOut v sp 0 (g :: gs)) =
+      Lay.descStr.markers (dGroups v sp 0 (g :: gs)) (dText v sp g gs).length := by
+    rw [← trsOf_dGroups]; exact populateMarkers_dText (v := v) sp hsp g gs hok
+  have W := C20_walk_all_layouts .descStr (dText v sp g gs) (dGroups v sp 0 (g :: gs))
+    (dText v sp g gs).length { w := [], wl := [] } hne hg
+  rw [show Lay.descStr.str = DESC_STR from rfl] at W
+  obtain ⟨w1, w2, w3, w4, w5, w6⟩ := W
+  obtain ⟨f1, f2⟩ := finishChunk_clean pc _ w2 w3 w5 w6
+  refine ⟨finishChunk pc (parseMeaningful (startChunk { w := [], wl := [] } (dGroups v sp 0 (g :: gs))) (dText v sp g gs)
+    DESC_STR (Lay.descStr.markers (dGroups v sp 0 (g :: gs)) (dText v sp g gs).length)), ?_, ?_, ?_, ?_⟩
+  · unfold parseChunkCore
+    simp only [hlay, htr, hsec, hcopy, hmark', htrl, hsecl]
+    rfl
+  · rw [f1]; exact (congrArg (·.e) w4)
+  · rw [f1]; exact (congrArg (·.w) w4)
+  · intro hsw
+    refine ((f2 hsw).1).trans (w1.trans ?_)
+    have := dGroups_comps (v := v) sp hsp (dText v sp g gs) gs g [] [] wsOk_nil (by simp [dText]) hok hgs
+    show strComps (dText v sp g gs) 0 (dGroups v sp 0 (g :: gs)) = _
+    simpa using this
+
+/-! ### the unused blocks of the walk (layout desc–Sec–Twp/Rge) -/
+
+theorem trFirstLays_DESC_STR' : trFirstLays DESC_STR = false := by decide
+
+theorem parseMeaningful_pairs_STR (c0 : Chunk) (txt : Str) (ms : List (Nat × Marker)) :
+    parseMeaningful c0 txt DESC_STR ms = (pairs ms).foldl (stepP txt TR_DESC_S) (getNextTwprge (getNextSec c0)) := by
+  unfold parseMeaningful
+  simp only [sDescLays_DESC_STR, trFirstLays_DESC_STR', Bool.not_true, Bool.not_false, Bool.false_eq_true, if_false, if_true]
+  rw [walk_eq_pairs, stepP_STR_eq_D]
+
+theorem unusedBlockD_secEnd_tr (txt : Str) (p q : Nat) :
+    unusedBlockD txt ((p, .secEnd), (q, .trStart)) = some (slice txt p q) := by
+  show (if Marker.trStart = Marker.secStart then none else some (slice txt p q)) = _
+  rw [if_neg (by decide)]
+
+theorem unusedBlockD_trEnd_self (txt : Str) (p : Nat) : unusedBlockD txt ((p, .trEnd), (p, .trEnd)) = some [] := by
+  show (if Marker.trEnd = Marker.secStart then none else some (slice txt p p)) = _
+  rw [if_neg (by decide)]
+  simp [slice, List.drop_eq_nil_iff]
+
+theorem unusedBlockD_trEnd_sec (txt : Str) (p q : Nat) : unusedBlockD txt ((p, .trEnd), (q, .secStart)) = none := by
+  simp [unusedBlockD]
+
+/-- **the unused blocks of the walk**: the line break in front of every Twp/Rge, and an empty block at the end of the text -/
+theorem dText_unused (sp : Str) (txt : Str) : ∀ (gs : List Gp) (g : Gp) (pre : Str), txt = pre ++ ((g.dt v) ++ dgps v sp gs) →
+    (pairs ((dGroups v sp pre.length (g :: gs)).flatMap sGroupMarkers)).filterMap (unusedBlockD txt) =
+      (g :: gs).map (fun _ => [v]) ++ [[]]
+  | [], g, pre, htxt => by
+    have e : (dGroups v sp pre.length [g]).flatMap sGroupMarkers = imk (rItems1 pre.length g.l g.ls) ++
+        [((pre.length + (g.l.rt ++ rlns g.ls).length + 1, Marker.trStart) : Nat × Marker),
+          (pre.length + (g.l.rt ++ rlns g.ls).length + 1 + g.h.text.length, Marker.trEnd)] := by
+      simp [dGroups, dGroup_markers]
+    have hs : ∀ n, slice txt n n = [] := by
+      intro n; simp [slice, List.drop_eq_nil_iff]
+    have hslice : slice txt (pre.length + (g.l.rt ++ rlns g.ls).length) (pre.length + (g.l.rt ++ rlns g.ls).length + 1) = [v] := by
+      refine slice_at txt (pre ++ (g.l.rt ++ rlns g.ls)) [v] (g.h.text ++ dgps v sp []) _ _ ?_ (by simp) (by simp)
+      rw [htxt]; simp [Gp.dt]
+    rw [e, rItems1_unused]
+    simp only [pairs, List.filterMap_cons, List.filterMap_nil, List.head?_cons, List.head?_nil, Option.getD_some, Option.getD_none,
+      unusedBlockD_trStart, unusedBlockD_secEnd_tr, unusedBlockD_trEnd_self, hslice, List.map_cons, List.map_nil, List.cons_append,
+      List.nil_append]
+  | g' :: gs, g, pre, htxt => by
+    have ih := dText_unused sp txt gs g' (pre ++ (g.dt v) ++ sp) (by rw [htxt]; simp [dgps])
+    have hlen : (pre ++ (g.dt v) ++ sp).length = pre.length + (g.dt v).length + sp.length := by simp; omega
+    rw [hlen] at ih
+    have e : (dGroups v sp pre.length (g :: g' :: gs)).flatMap sGroupMarkers = imk (rItems1 pre.length g.l g.ls) ++
+        (((pre.length + (g.l.rt ++ rlns g.ls).length + 1, Marker.trStart) : Nat × Marker) ::
+          (pre.length + (g.l.rt ++ rlns g.ls).length + 1 + g.h.text.length, Marker.trEnd) ::
+          (dGroups v sp (pre.length + (g.dt v).length + sp.length) (g' :: gs)).flatMap sGroupMarkers) := by
+      simp [dGroups, dGroup_markers]
+    obtain ⟨T, hnext⟩ : ∃ T, (dGroups v sp (pre.length + (g.dt v).length + sp.length) (g' :: gs)).flatMap sGroupMarkers =
+        (pre.length + (g.dt v).length + sp.length + g'.l.d.length + 2, Marker.secStart) :: T :=
+      ⟨_, by simp [dGroups, dGroup_markers, rItems1, imk]; rfl⟩
+    have hslice : slice txt (pre.length + (g.l.rt ++ rlns g.ls).length) (pre.length + (g.l.rt ++ rlns g.ls).length + 1) = [v] := by
+      refine slice_at txt (pre ++ (g.l.rt ++ rlns g.ls)) [v] (g.h.text ++ dgps v sp (g' :: gs)) _ _ ?_ (by simp) (by simp)
+      rw [htxt]; simp [Gp.dt]
+    rw [e, rItems1_unused]
+    rw [hnext] at ih ⊢
+    simp only [pairs, List.filterMap_cons, List.head?_cons, Option.getD_some, unusedBlockD_trStart, unusedBlockD_trEnd_sec,
+      unusedBlockD_secStart, unusedBlockD_secEnd_tr, hslice] at ih ⊢
+    simp only [List.map_cons, List.cons_append] at ih ⊢
+    rw [← ih]
+
+/-- **C01 (layout desc–Sec–Twp/Rge, chunk level, no lexical premise), with the unused text**: as
+    `C01_chunk_canonical_desc_STR`, and the only unused text are the characters `v` in front of the Twp/Rges (and an empty block
+    at the end of the text) -/
+theorem C01_chunk_canonical_desc_STR_unused (mc : MC) (pc : ParserCfg) (hns : isLegal Gen.LEGAL_NS mc.ns = true)
+    (hew : isLegal Gen.LEGAL_EW mc.ew = true) (sp : Str) (hsp : SepOk sp) (g : Gp) (gs : List Gp) (hok : g.Ok)
+    (hgs : ∀ x ∈ gs, x.Ok) (parentLayout : Str) (hml : pc.mandateLayout = true → parentLayout = DESC_STR) :
+    ∃ c, parseChunkCore mc pc (dText v sp g gs) false parentLayout = .ok c ∧ c.fl.e = [] ∧ c.fl.w = [] ∧
+      (pc.secWithin = false → c.comps = docComps (g :: gs) ∧ c.unused.map (·.2) = (g :: gs).map (fun _ => [v]) ++ [[]]) := by
+  have hlay : chunkLayoutOf pc (dText v sp g gs) false parentLayout = DESC_STR := by
+    unfold chunkLayoutOf
+    simp only [Bool.false_eq_true, if_false]
+    split
+    · rename_i h; exact hml h
+    · exact deduceLayout_dText (v := v) sp hsp g gs hok hgs
+  have htr := twprgeFinder_dText (v := v) mc hns hew sp hsp g gs hok hgs
+  have hsec := secFinder_dText (v := v) sp hsp g gs hok hgs pc.requireColon
+  have hne := dGroups_items_ne (v := v) sp (g :: gs) 0
+  have hg : dGroups v sp 0 (g :: gs) ≠ [] := dGroups_ne (v := v) sp 0 g gs
+  have hcopy : (DESC_STR == COPY_ALL) = false := by decide
+  have htrl : (dtrOut v sp 0 (g :: gs)).map (·.twprge) = (dGroups v sp 0 (g :: gs)).map (·.tr) := by
+    rw [← trsOf_dGroups]; simp [trsOf, List.map_map, Function.comp_def]
+  have hsecl : (secsOf (dGroups v sp 0 (g :: gs))).map (·.secs) = allSecs (dGroups v sp 0 (g :: gs)) := secsOf_secs _
+  have hmark' : populateMarkers (dText v sp g gs).length (secsOf (dGroups v sp 0 (g :: gs))) (dtrOut v sp 0 (g :: gs)) =
+      Lay.descStr.markers (dGroups v sp 0 (g :: gs)) (dText v sp g gs).length := by
+    rw [← trsOf_dGroups]; exact populateMarkers_dText (v := v) sp hsp g gs hok
+  have W := C20_walk_all_layouts .descStr (dText v sp g gs) (dGroups v sp 0 (g :: gs))
+    (dText v sp g gs).length { w := [], wl := [] } hne hg
+  rw [show Lay.descStr.str = DESC_STR from rfl] at W
+  obtain ⟨w1, w2, w3, w4, w5, w6⟩ := W
+  obtain ⟨f1, f2⟩ := finishChunk_clean pc _ w2 w3 w5 w6
+  refine ⟨finishChunk pc (parseMeaningful (startChunk { w := [], wl := [] } (dGroups v sp 0 (g :: gs))) (dText v sp g gs)
+    DESC_STR (Lay.descStr.markers (dGroups v sp 0 (g :: gs)) (dText v sp g gs).length)), ?_, ?_, ?_, ?_⟩
+  · unfold parseChunkCore
+    simp only [hlay, htr, hsec, hcopy, hmark', htrl, hsecl]
+    rfl
+  · rw [f1]; exact (congrArg (·.e) w4)
+  · rw [f1]; exact (congrArg (·.w) w4)
+  · intro hsw
+    refine ⟨((f2 hsw).1).trans (w1.trans ?_), ?_⟩
+    · have := dGroups_comps (v := v) sp hsp (dText v sp g gs) gs g [] [] wsOk_nil (by simp [dText]) hok hgs
+      show strComps (dText v sp g gs) 0 (dGroups v sp 0 (g :: gs)) = _
+      simpa using this
+    · rw [(f2 hsw).2]
+      show (parseMeaningful _ _ DESC_STR _).unused.map (·.2) = _
+      rw [parseMeaningful_pairs_STR, fold_unusedD, getNextTwprge_unused, getNextSec_unused, startChunk_unused]
+      have hmk : Lay.descStr.markers (dGroups v sp 0 (g :: gs)) (dText v sp g gs).length =
+          (0, Marker.textStart) :: (dGroups v sp 0 (g :: gs)).flatMap sGroupMarkers := by
+        have hend := endOf_dGroups (v := v) sp gs g 0
+        rw [Nat.zero_add] at hend
+        obtain ⟨initM, hM⟩ := sMarkers_last _ hg
+        rw [hend] at hM
+        have hc : Lay.descStr.core (dGroups v sp 0 (g :: gs)) = (0, Marker.textStart) :: (dGroups v sp 0 (g :: gs)).flatMap sGroupMarkers := rfl
+        unfold Lay.markers withEnd
+        rw [hc, if_pos]
+        rw [hM]
+        have : (0, Marker.textStart) :: (initM ++ [(((g.dt v) ++ dgps v sp gs).length, Marker.trEnd)]) =
+            ((0, Marker.textStart) :: initM) ++ [(((g.dt v) ++ dgps v sp gs).length, Marker.trEnd)] := rfl
+        rw [this]
+        simp only [lastPos, List.getLast?_concat, Option.map_some, Option.getD_some, dText]
+      rw [hmk]
+      have hun := dText_unused (v := v) sp (dText v sp g gs) gs g [] (by simp [dText])
+      simp only [List.length_nil] at hun
+      obtain ⟨T, hT⟩ : ∃ T, (dGroups v sp 0 (g :: gs)).flatMap sGroupMarkers = (0 + g.l.d.length + 2, Marker.secStart) :: T :=
+        ⟨_, by simp [dGroups, dGroup_markers, rItems1, imk]; rfl⟩
+      rw [hT] at hun ⊢
+      have h0 : unusedBlockD (dText v sp g gs) ((0, Marker.textStart), (0 + g.l.d.length + 2, Marker.secStart)) = none := by
+        simp [unusedBlockD]
+      simp only [pairs, List.filterMap_cons, List.head?_cons, Option.getD_some, h0] at hun ⊢
+      rw [hun]
+      rfl
+
+/-! ## Part 10 — preprocessing of the canonical text of the layout desc–Sec–Twp/Rge
+
+Every scrubber rewrites a Twp/Rge into its canonical text and a blank — also the LAST one, so the intermediate texts end in
+blanks (`fin`), which `pp_twprge_comma_remove` reduces to one blank and the final strip removes. -/
+
+def dgpsF (v : Char) (sp fin : Str) : List Gp → Str
+  | [] => fin
+  | g :: gs => sp ++ ((g.dt v) ++ dgpsF v sp fin gs)
+
+/-- the canonical text with `fin` (blanks / line breaks) behind the last Twp/Rge -/
+def dTextF (v : Char) (sp fin : Str) (g : Gp) (gs : List Gp) : Str := (g.dt v) ++ dgpsF v sp fin gs
+
+theorem dgpsF_eq (sp fin : Str) : ∀ gs : List Gp, dgpsF v sp fin gs = dgps v sp gs ++ fin
+  | [] => rfl
+  | g :: gs => by simp [dgpsF, dgps, dgpsF_eq sp fin gs]
+
+theorem dTextF_eq (sp fin : Str) (g : Gp) (gs : List Gp) : dTextF v sp fin g gs = dText v sp g gs ++ fin := by
+  simp [dTextF, dText, dgpsF_eq]
+
+theorem dTextF_nil (sp : Str) (g : Gp) (gs : List Gp) : dTextF v sp [] g gs = dText v sp g gs := by simp [dTextF_eq]
+
+/-- the header matches (`mkL` for the last one) -/
+def dhdrMsF (v : Char) (mk mkL : Hd → Nat → Match) (sp : Str) : Nat → Gp → List Gp → List Match
+  | q, g, [] => [mkL g.h (q + (g.l.rt ++ rlns g.ls).length + 1)]
+  | q, g, g' :: gs => mk g.h (q + (g.l.rt ++ rlns g.ls).length + 1) :: dhdrMsF v mk mkL sp (q + (g.dt v).length + sp.length) g' gs
+
+/-- tiling by headers, the white space behind a header swallowed with it if `eat` -/
+theorem dTilesF (r : Rx) (hg : GapSkips r) (hr : RGap r) (hd : DGap r) (sp fin : Str) (hsp : SepOk sp) (eat : Bool)
+    (mk : Hd → Nat → Match)
+    (htok : ∀ (h : Hd) (l : Ln) (rest : Str) (prev : Option Char) (pos : Nat), h.Ok → l.Ok →
+       isWord Gen.cs_14d6aa8a prev = false →
+       matchHere r ⟨prev, h.text ++ (sp ++ (l.d ++ rest)), pos, []⟩ false = some (mk h pos) ∧ (mk h pos).start = pos ∧
+       (mk h pos).stop = pos + h.text.length + (if eat then sp.length else 0))
+    (mkL : Hd → Nat → Match)
+    (htokL : ∀ (h : Hd) (prev : Option Char) (pos : Nat), h.Ok → isWord Gen.cs_14d6aa8a prev = false →
+       matchHere r ⟨prev, h.text ++ fin, pos, []⟩ false = some (mkL h pos) ∧ (mkL h pos).start = pos ∧
+       (mkL h pos).stop = pos + h.text.length + (if eat then fin.length else 0))
+    (hfinT : eat = false → ∀ p pos, Tiles r p fin pos []) :
+    ∀ (gs : List Gp) (g : Gp) (w : Str) (q : Nat) (prev : Option Char), WsOk w → g.Ok → (∀ x ∈ gs, x.Ok) →
+      Tiles r prev (w ++ ((g.dt v) ++ dgpsF v sp fin gs)) q (dhdrMsF v mk mkL sp (q + w.length) g gs) := by
+  intro gs
+  induction gs with
+  | nil =>
+    intro g w q prev hw hok _
+    have hl := hok.ls g.l (by simp [Gp.lines])
+    have hls : ∀ x ∈ g.ls, x.Ok := fun x hx => hok.ls x (by simp [Gp.lines, hx])
+    have htxt : w ++ ((g.dt v) ++ dgpsF v sp fin []) = (w ++ (g.l.rt ++ rlns g.ls)) ++ (v :: (g.h.text ++ fin)) := by
+      simp [Gp.dt, dgpsF]
+    rw [htxt]
+    refine Tiles.skipSeg (rbody_skips hg hr w hw g.l g.ls _ hl hls) _ _ ?_
+    refine Tiles.skip _ v _ _ _ (matchHere_of_failsOn (hd.hdr v g.h _ VSep.ok hok.h) _ _ false) ?_
+    obtain ⟨h1, h2, h3⟩ := htokL g.h (some v) (q + (w ++ (g.l.rt ++ rlns g.ls)).length + 1) hok.h isWord_v
+    have hpos : q + (w ++ (g.l.rt ++ rlns g.ls)).length + 1 = q + w.length + (g.l.rt ++ rlns g.ls).length + 1 := by
+      simp only [List.length_append]; omega
+    simp only [dhdrMsF]
+    rw [← hpos]
+    cases eat with
+    | false =>
+      simp only [Bool.false_eq_true, if_false, Nat.add_zero] at h3
+      exact Tiles.tok _ g.h.text fin _ _ [] h1 h2 h3 g.h.text_ne (hfinT rfl _ _)
+    | true =>
+      simp only [if_true] at h3
+      have hne : g.h.text ++ fin ≠ [] := by simp [Hd.text, canonText]
+      have := Tiles.tok (some v) (g.h.text ++ fin) [] _ _ [] (by simpa using h1) h2
+        (by rw [h3]; simp only [List.length_append]; omega) hne (Tiles.nil _ _ (matchHere_of_failsOn hg.fin0 _ _ false))
+      simpa using this
+  | cons g' gs ih =>
+    intro g w q prev hw hok hgs
+    have hok' := hgs g' (by simp)
+    have hgs' : ∀ x ∈ gs, x.Ok := fun x hx => hgs x (by simp [hx])
+    have hl := hok.ls g.l (by simp [Gp.lines])
+    have hls : ∀ x ∈ g.ls, x.Ok := fun x hx => hok.ls x (by simp [Gp.lines, hx])
+    have hl' := hok'.ls g'.l (by simp [Gp.lines])
+    have htxt : w ++ ((g.dt v) ++ dgpsF v sp fin (g' :: gs)) =
+        (w ++ (g.l.rt ++ rlns g.ls)) ++ (v :: (g.h.text ++ (sp ++ ((g'.dt v) ++ dgpsF v sp fin gs)))) := by
+      simp [Gp.dt, dgpsF]
+    rw [htxt]
+    refine Tiles.skipSeg (rbody_skips hg hr w hw g.l g.ls _ hl hls) _ _ ?_
+    refine Tiles.skip _ v _ _ _ (matchHere_of_failsOn (hd.hdr v g.h _ VSep.ok hok.h) _ _ false) ?_
+    have hdt : (g'.dt v) ++ dgpsF v sp fin gs = g'.l.d ++ ((',' :: ' ' :: g'.l.ref) ++ rlns g'.ls ++ v :: g'.h.text ++ dgpsF v sp fin gs) := by
+      simp [Gp.dt, Ln.rt]
+    obtain ⟨h1, h2, h3⟩ := htok g.h g'.l ((',' :: ' ' :: g'.l.ref) ++ rlns g'.ls ++ v :: g'.h.text ++ dgpsF v sp fin gs) (some v)
+      (q + (w ++ (g.l.rt ++ rlns g.ls)).length + 1) hok.h hl' isWord_v
+    rw [← hdt] at h1
+    have hpos : q + (w ++ (g.l.rt ++ rlns g.ls)).length + 1 = q + w.length + (g.l.rt ++ rlns g.ls).length + 1 := by
+      simp only [List.length_append]; omega
+    rw [show dhdrMsF v mk mkL sp (q + w.length) g (g' :: gs) = mk g.h (q + w.length + (g.l.rt ++ rlns g.ls).length + 1) ::
+      dhdrMsF v mk mkL sp (q + w.length + (g.dt v).length + sp.length) g' gs from rfl]
+    rw [← hpos]
+    cases eat with
+    | false =>
+      simp only [Bool.false_eq_true, if_false, Nat.add_zero] at h3
+      refine Tiles.tok _ g.h.text _ _ _ _ h1 h2 h3 g.h.text_ne ?_
+      have := ih g' sp (q + (w ++ (g.l.rt ++ rlns g.ls)).length + 1 + g.h.text.length) (lastOr (some v) g.h.text) hsp.ws hok' hgs'
+      have hq : q + (w ++ (g.l.rt ++ rlns g.ls)).length + 1 + g.h.text.length + sp.length = q + w.length + (g.dt v).length + sp.length := by
+        rw [g.dt_length v]; simp only [List.length_append]; omega
+      rw [hq] at this
+      exact this
+    | true =>
+      simp only [if_true] at h3
+      have hne : g.h.text ++ sp ≠ [] := by simp [Hd.text, canonText]
+      have e : g.h.text ++ (sp ++ ((g'.dt v) ++ dgpsF v sp fin gs)) = (g.h.text ++ sp) ++ ((g'.dt v) ++ dgpsF v sp fin gs) := by simp
+      rw [e] at h1 ⊢
+      refine Tiles.tok _ (g.h.text ++ sp) _ _ _ _ h1 h2 (by rw [h3]; simp only [List.length_append]; omega) hne ?_
+      have := ih g' [] (q + (w ++ (g.l.rt ++ rlns g.ls)).length + 1 + (g.h.text ++ sp).length) (lastOr (some v) (g.h.text ++ sp))
+        wsOk_nil hok' hgs'
+      have hq : q + (w ++ (g.l.rt ++ rlns g.ls)).length + 1 + (g.h.text ++ sp).length + ([] : Str).length =
+          q + w.length + (g.dt v).length + sp.length := by
+        rw [g.dt_length v]; simp only [List.length_append, List.length_nil]; omega
+      rw [hq] at this
+      simpa using this
+
+/-- **one scrubbing pass along the headers** of the desc–Sec–Twp/Rge text -/
+theorem rewrite_dhdrF (p : Pat) (ns ew sp fin : Str) (hsp : SepOk sp) (hfin : FinB fin) (eat : Bool) (mk mkL : Hd → Nat → Match) (text : Str)
+    (hstart : ∀ h pos, (mk h pos).start = pos)
+    (hstop : ∀ h pos, (mk h pos).stop = pos + h.text.length + (if eat then sp.length else 0))
+    (hstartL : ∀ h pos, (mkL h pos).start = pos)
+    (hstopL : ∀ h pos, (mkL h pos).stop = pos + h.text.length + (if eat then fin.length else 0))
+    (hcan : ∀ (h : Hd) (pre ctx : Str), h.Ok → h.Canon → EndsTwprge ctx → text = pre ++ (h.text ++ ctx) →
+      canonTR p (mk h pre.length) text ns ew false = h.text)
+    (hcanL : ∀ (h : Hd) (pre ctx : Str), h.Ok → h.Canon → EndsTwprge ctx → text = pre ++ (h.text ++ ctx) →
+      canonTR p (mkL h pre.length) text ns ew false = h.text) :
+    ∀ (gs : List Gp) (g : Gp) (pre mid : Str), (g.Ok ∧ g.h.Canon) → (∀ x ∈ gs, x.Ok ∧ x.h.Canon) →
+      text = pre ++ mid ++ ((g.dt v) ++ dgpsF v sp fin gs) →
+      rewrite p text ns ew false (dhdrMsF v mk mkL sp (pre ++ mid).length g gs) pre.length =
+        mid ++ ((g.dt v) ++ dgpsF v (newSep eat sp) (newSep eat fin) gs)
+  | [], g, pre, mid, hgc, _, htext => by
+    have hP : (pre ++ mid ++ (g.l.rt ++ rlns g.ls) ++ [v]).length = (pre ++ mid).length + (g.l.rt ++ rlns g.ls).length + 1 := by
+      simp only [List.length_append, List.length_cons, List.length_nil]
+    have hm := hcanL g.h (pre ++ mid ++ (g.l.rt ++ rlns g.ls) ++ [v]) fin hgc.1.h hgc.2 (endsTwprge_fin fin hfin)
+      (by rw [htext]; simp [Gp.dt, dgpsF])
+    rw [hP] at hm
+    have hsl : slice text pre.length ((pre ++ mid).length + (g.l.rt ++ rlns g.ls).length + 1) = mid ++ (g.l.rt ++ rlns g.ls) ++ [v] :=
+      slice_at text pre _ (g.h.text ++ fin) _ _ (by rw [htext]; simp [Gp.dt, dgpsF]) rfl
+        (by simp only [List.length_append, List.length_cons, List.length_nil]; omega)
+    simp only [dhdrMsF, rewrite, hstartL, hstopL, hm, hsl, dgpsF]
+    cases eat with
+    | false =>
+      have hd : text.drop ((pre ++ mid).length + (g.l.rt ++ rlns g.ls).length + 1 + g.h.text.length + 0) = fin := by
+        have : text = (pre ++ mid ++ (g.l.rt ++ rlns g.ls) ++ [v] ++ g.h.text) ++ fin := by rw [htext]; simp [Gp.dt, dgpsF]
+        rw [this]
+        have hl : (pre ++ mid).length + (g.l.rt ++ rlns g.ls).length + 1 + g.h.text.length + 0 =
+            (pre ++ mid ++ (g.l.rt ++ rlns g.ls) ++ [v] ++ g.h.text).length := by
+          simp only [List.length_append, List.length_cons, List.length_nil]; omega
+        rw [hl, List.drop_left]
+      simp only [Bool.false_eq_true, if_false, hd, newSep]
+      simp [Gp.dt]
+    | true =>
+      have hd : text.drop ((pre ++ mid).length + (g.l.rt ++ rlns g.ls).length + 1 + g.h.text.length + fin.length) = [] := by
+        rw [List.drop_eq_nil_iff, htext]; simp [Gp.dt, dgpsF]; omega
+      simp only [if_true, hd, newSep]
+      simp [Gp.dt]
+  | g' :: gs, g, pre, mid, hgc, hgs, htext => by
+    have hg' := hgs g' (by simp)
+    have hgs' : ∀ x ∈ gs, x.Ok ∧ x.h.Canon := fun x hx => hgs x (by simp [hx])
+    have hP : (pre ++ mid ++ (g.l.rt ++ rlns g.ls) ++ [v]).length = (pre ++ mid).length + (g.l.rt ++ rlns g.ls).length + 1 := by
+      simp only [List.length_append, List.length_cons, List.length_nil]
+    have hm := hcan g.h (pre ++ mid ++ (g.l.rt ++ rlns g.ls) ++ [v]) (sp ++ ((g'.dt v) ++ dgpsF v sp fin gs)) hgc.1.h hgc.2
+      (endsTwprge_sep sp _ hsp) (by rw [htext]; simp [Gp.dt, dgpsF])
+    rw [hP] at hm
+    have hsl : slice text pre.length ((pre ++ mid).length + (g.l.rt ++ rlns g.ls).length + 1) = mid ++ (g.l.rt ++ rlns g.ls) ++ [v] :=
+      slice_at text pre _ (g.h.text ++ dgpsF v sp fin (g' :: gs)) _ _ (by rw [htext]; simp [Gp.dt]) rfl
+        (by simp only [List.length_append, List.length_cons, List.length_nil]; omega)
+    rw [show dhdrMsF v mk mkL sp (pre ++ mid).length g (g' :: gs) = mk g.h ((pre ++ mid).length + (g.l.rt ++ rlns g.ls).length + 1) ::
+      dhdrMsF v mk mkL sp ((pre ++ mid).length + (g.dt v).length + sp.length) g' gs from rfl]
+    simp only [rewrite, hstart, hstop, hm, hsl]
+    cases eat with
+    | false =>
+      have ih := rewrite_dhdrF p ns ew sp fin hsp hfin false mk mkL text hstart hstop hstartL hstopL hcan hcanL gs g'
+        (pre ++ mid ++ (g.dt v)) sp hg' hgs' (by rw [htext]; simp [dgpsF])
+      have hl1 : (pre ++ mid ++ (g.dt v) ++ sp).length = (pre ++ mid).length + (g.dt v).length + sp.length := by
+        simp only [List.length_append]
+      have hl2 : (pre ++ mid ++ (g.dt v)).length = (pre ++ mid).length + (g.l.rt ++ rlns g.ls).length + 1 + g.h.text.length + 0 := by
+        rw [List.length_append (as := pre ++ mid), g.dt_length v]; omega
+      rw [hl1, hl2] at ih
+      simp only [Bool.false_eq_true, if_false, ih, newSep]
+      simp [Gp.dt, dgpsF]
+    | true =>
+      have ih := rewrite_dhdrF p ns ew sp fin hsp hfin true mk mkL text hstart hstop hstartL hstopL hcan hcanL gs g'
+        (pre ++ mid ++ (g.dt v) ++ sp) [] hg' hgs' (by rw [htext]; simp [dgpsF])
+      have hl1 : (pre ++ mid ++ (g.dt v) ++ sp ++ []).length = (pre ++ mid).length + (g.dt v).length + sp.length := by
+        simp only [List.length_append, List.length_nil]; omega
+      have hl2 : (pre ++ mid ++ (g.dt v) ++ sp).length = (pre ++ mid).length + (g.l.rt ++ rlns g.ls).length + 1 + g.h.text.length + sp.length := by
+        rw [List.length_append, List.length_append (as := pre ++ mid), g.dt_length v]; omega
+      rw [hl1, hl2] at ih
+      simp only [if_true, ih, newSep]
+      simp [Gp.dt, dgpsF]
+
+/-- one pass of a scrubber whose matches are the headers -/
+theorem scrub_dText (name : String) (p : Pat) (hp : findPat name = p) (hocr : (name == Gen.PLSS_OCR_SCRUBBER) = false)
+    (hg : GapSkips p.rx) (hr : RGap p.rx) (hd : DGap p.rx) (sp fin : Str) (hsp : SepOk sp) (hfin : FinB fin) (eat : Bool) (mk mkL : Hd → Nat → Match)
+    (hstart : ∀ h pos, (mk h pos).start = pos)
+    (hstop : ∀ h pos, (mk h pos).stop = pos + h.text.length + (if eat then sp.length else 0))
+    (hstartL : ∀ h pos, (mkL h pos).start = pos)
+    (hstopL : ∀ h pos, (mkL h pos).stop = pos + h.text.length + (if eat then fin.length else 0))
+    (htok : ∀ (h : Hd) (l : Ln) (rest : Str) (prev : Option Char) (pos : Nat), h.Ok → l.Ok →
+       isWord Gen.cs_14d6aa8a prev = false →
+       matchHere p.rx ⟨prev, h.text ++ (sp ++ (l.d ++ rest)), pos, []⟩ false = some (mk h pos))
+    (htokL : ∀ (h : Hd) (prev : Option Char) (pos : Nat), h.Ok → isWord Gen.cs_14d6aa8a prev = false →
+       matchHere p.rx ⟨prev, h.text ++ fin, pos, []⟩ false = some (mkL h pos))
+    (hfinT : eat = false → ∀ pv pos, Tiles p.rx pv fin pos [])
+    (ns ew : Str) (h1 : isLegal Gen.LEGAL_NS ns = true) (h2 : isLegal Gen.LEGAL_EW ew = true)
+    (hcan : ∀ (text : Str) (h : Hd) (pre ctx : Str), h.Ok → h.Canon → EndsTwprge ctx → text = pre ++ (h.text ++ ctx) →
+      canonTR p (mk h pre.length) text ns ew false = h.text)
+    (hcanL : ∀ (text : Str) (h : Hd) (pre ctx : Str), h.Ok → h.Canon → EndsTwprge ctx → text = pre ++ (h.text ++ ctx) →
+      canonTR p (mkL h pre.length) text ns ew false = h.text)
+    (g : Gp) (gs : List Gp) (hgc : g.Ok ∧ g.h.Canon) (hgs : ∀ x ∈ gs, x.Ok ∧ x.h.Canon) :
+    subScrubber name (dTextF v sp fin g gs) ns ew = .ok (dTextF v (newSep eat sp) (newSep eat fin) g gs) := by
+  have hgs' : ∀ x ∈ gs, x.Ok := fun x hx => (hgs x hx).1
+  have hfi : p.rx.finditer (dTextF v sp fin g gs) = dhdrMsF v mk mkL sp 0 g gs := by
+    have := (dTilesF (v := v) p.rx hg hr hd sp fin hsp eat mk
+      (fun h l rest prev pos hh hl hprev => ⟨htok h l rest prev pos hh hl hprev, hstart h pos, hstop h pos⟩) mkL
+      (fun h prev pos hh hprev => ⟨htokL h prev pos hh hprev, hstartL h pos, hstopL h pos⟩) hfinT
+      gs g [] 0 none wsOk_nil hgc.1 hgs').finditer_eq
+    simpa [dTextF] using this
+  rw [C08_subScrubber_rewrites name _ ns ew h1 h2, hp, hocr, hfi]
+  have := rewrite_dhdrF (v := v) p ns ew sp fin hsp hfin eat mk mkL (dTextF v sp fin g gs) hstart hstop hstartL hstopL (hcan _) (hcanL _)
+    gs g [] [] hgc hgs (by simp [dTextF])
+  simp only [List.append_nil, List.length_nil, List.nil_append] at this
+  rw [this]; rfl
+
+theorem twprge_hcanD (ns ew : Str) (text : Str) (h : Hd) (pre ctx : Str) (hok : h.Ok) (hc : h.Canon) (hctx : EndsTwprge ctx)
+    (htext : text = pre ++ (h.text ++ ctx)) : canonTR twprge (twMk h pre.length) text ns ew false = h.text := by
+  have hv := h.valid hok ctx hctx
+  have htext' : text = pre ++ (h.sp.text ++ ctx) := by rw [htext, h.sp_text]
+  rw [htext']
+  exact (h.sp.canonTR_at pre _ hv ns ew).trans (h.canon_text hok hc)
+
+/-- scrubber 1 (`twprge_regex`) -/
+theorem scrub1_dText (sp fin : Str) (hsp : SepOk sp) (hfin : FinB fin) (ns ew : Str) (h1 : isLegal Gen.LEGAL_NS ns = true)
+    (h2 : isLegal Gen.LEGAL_EW ew = true) (g : Gp) (gs : List Gp) (hgc : g.Ok ∧ g.h.Canon) (hgs : ∀ x ∈ gs, x.Ok ∧ x.h.Canon) :
+    subScrubber "twprge_regex" (dTextF v sp fin g gs) ns ew = .ok (dTextF v (' ' :: sp) (' ' :: fin) g gs) :=
+  scrub_dText "twprge_regex" twprge rfl (by decide) twprge_gapSkips twprge_rGap twprge_dGap sp fin hsp hfin false twMk twMk (fun _ _ => rfl)
+    (fun h pos => by simp [twMk, Spelling.matchAt, h.sp_text]) (fun _ _ => rfl)
+    (fun h pos => by simp [twMk, Spelling.matchAt, h.sp_text])
+    (fun h l rest prev pos hh hl hprev => (twprge_tokD h _ prev pos hh (endsTwprge_sep sp _ hsp) hprev).1)
+    (fun h prev pos hh hprev => (twprge_tokD h _ prev pos hh (endsTwprge_fin fin hfin) hprev).1)
+    (fun _ => fin_tiles twprge_mustDigit fin hfin) ns ew h1 h2
+    (fun text h pre ctx hh hc hctx ht => twprge_hcanD ns ew text h pre ctx hh hc hctx ht)
+    (fun text h pre ctx hh hc hctx ht => twprge_hcanD ns ew text h pre ctx hh hc hctx ht) g gs hgc hgs
+
+/-- the common part of scrubbers 2–4 -/
+theorem scrubPP_dText (name : String) (p : Pat) (hp : findPat name = p) (hocr : (name == Gen.PLSS_OCR_SCRUBBER) = false)
+    (hg : GapSkips p.rx) (hr : RGap p.rx) (hd : DGap p.rx) (hmust : p.rx.mustHitP (fun cs => cs.sub digitD) = true)
+    (hidx : p.idx? "twpnum" = some 3 ∧ p.idx? "ns" = some 4 ∧ p.idx? "rgenum" = some 6 ∧ p.idx? "ew" = some 7)
+    (caps : Str → Str → Nat → Caps) (hcaps : ∀ t r pos stop, CanonAt ⟨pos, stop, caps t r pos⟩ pos t r)
+    (hat : ∀ (t r : Str) (nc ec : Char) (ctx : Str), CanonHyp t r nc ec ctx → ∀ (prev : Option Char) (pos : Nat),
+      isWord Gen.cs_14d6aa8a prev = false →
+      matchHere p.rx ⟨prev, canonText t nc r ec ++ ctx, pos, []⟩ false = some ⟨pos, pos + (5 + t.length + r.length), caps t r pos⟩)
+    (sp fin : Str) (hsp : SepOk sp) (hfin : FinB fin) (ns ew : Str) (h1 : isLegal Gen.LEGAL_NS ns = true) (h2 : isLegal Gen.LEGAL_EW ew = true)
+    (g : Gp) (gs : List Gp) (hgc : g.Ok ∧ g.h.Canon) (hgs : ∀ x ∈ gs, x.Ok ∧ x.h.Canon) :
+    subScrubber name (dTextF v sp fin g gs) ns ew = .ok (dTextF v (' ' :: sp) (' ' :: fin) g gs) := by
+  have hcanPP : ∀ (text : Str) (h : Hd) (pre ctx : Str), h.Ok → h.Canon → EndsTwprge ctx → text = pre ++ (h.text ++ ctx) →
+      canonTR p (⟨pre.length, pre.length + (5 + h.t.length + h.r.length), caps h.t h.r pre.length⟩ : Match) text ns ew false = h.text := by
+    intro text h pre ctx hh hc _ htext
+    have htext' : text = pre ++ (canonText h.t h.ns h.r h.ew ++ ctx) := by rw [htext]; rfl
+    rw [htext']
+    exact (canonTR_of_canonAt p hidx _ h.t h.r h.ns h.ew pre _ (hcaps _ _ _ _) hh.ns hh.ew ns ew).trans (h.canon_canonText hc)
+  exact scrub_dText name p hp hocr hg hr hd sp fin hsp hfin false
+    (fun h pos => ⟨pos, pos + (5 + h.t.length + h.r.length), caps h.t h.r pos⟩)
+    (fun h pos => ⟨pos, pos + (5 + h.t.length + h.r.length), caps h.t h.r pos⟩) (fun _ _ => rfl)
+    (fun h pos => by simp [h.text_length]) (fun _ _ => rfl) (fun h pos => by simp [h.text_length])
+    (fun h l rest prev pos hh hl hprev => hat h.t h.r h.ns h.ew _ (h.canonHyp hh _ (endsTwprge_sep sp _ hsp)) prev pos hprev)
+    (fun h prev pos hh hprev => hat h.t h.r h.ns h.ew _ (h.canonHyp hh _ (endsTwprge_fin fin hfin)) prev pos hprev)
+    (fun _ => fin_tiles hmust fin hfin) ns ew h1 h2 hcanPP hcanPP g gs hgc hgs
+
+/-- the characters of the text -/
+theorem docCh_dgroup (g : Gp) (hok : g.Ok) : ∀ c ∈ (g.dt v), DocCh c := by
+  intro c hc
+  simp only [Gp.dt, List.mem_append, List.mem_cons] at hc
+  rcases hc with (hc | hc) | rfl | hc
+  · exact docCh_rline g.l (hok.ls g.l (by simp [Gp.lines])) c hc
+  · exact docCh_rlns g.ls (fun x hx => hok.ls x (by simp [Gp.lines, hx])) c hc
+  · exact Or.inl hdrPlain_v
+  · exact docCh_hdr g.h hok.h c hc
+
+theorem docCh_dgpsF (sp fin : Str) (hsp : SepOk sp) (hfin : FinB fin) : ∀ (gs : List Gp), (∀ g ∈ gs, g.Ok) →
+    ∀ c ∈ dgpsF v sp fin gs, DocCh c
+  | [], _, c, hc => by
+    rcases hfin c hc with rfl | rfl <;> exact Or.inl (by decide)
+  | g :: gs, hgs, c, hc => by
+    simp only [dgpsF, List.mem_append] at hc
+    rcases hc with hc | hc | hc
+    · rcases hsp.chars c hc with rfl | rfl <;> exact Or.inl (by decide)
+    · exact docCh_dgroup g (hgs g (by simp)) c hc
+    · exact docCh_dgpsF sp fin hsp hfin gs (fun x hx => hgs x (by simp [hx])) c hc
+
+theorem docCh_dTextF (sp fin : Str) (hsp : SepOk sp) (hfin : FinB fin) (g : Gp) (gs : List Gp) (hok : g.Ok) (hgs : ∀ x ∈ gs, x.Ok) :
+    ∀ c ∈ dTextF v sp fin g gs, DocCh c := by
+  intro c hc
+  rw [dTextF, List.mem_append] at hc
+  rcases hc with hc | hc
+  · exact docCh_dgroup g hok c hc
+  · exact docCh_dgpsF sp fin hsp hfin gs hgs c hc
+
+/-- scrubber 5 (`pp_twprge_pm`) finds nothing -/
+theorem scrub5_dText (sp fin : Str) (hsp : SepOk sp) (hfin : FinB fin) (ns ew : Str) (h1 : isLegal Gen.LEGAL_NS ns = true)
+    (h2 : isLegal Gen.LEGAL_EW ew = true) (g : Gp) (gs : List Gp) (hok : g.Ok) (hgs : ∀ x ∈ gs, x.Ok) :
+    subScrubber "pp_twprge_pm" (dTextF v sp fin g gs) ns ew = .ok (dTextF v sp fin g gs) := by
+  have hm : Gen.pp_twprge_pm.mustHitP (fun cs => cs.sub pD) = true := by decide +kernel
+  refine scrub_none "pp_twprge_pm" ppPmPat rfl _ ns ew h1 h2 (finditer_nil_of_noHit hm _ ?_)
+  intro c hc
+  exact docCh_avoid pD (by decide) (by decide +kernel) (by decide) (docCh_dTextF sp fin hsp hfin g gs hok hgs c hc)
+
+theorem comma_hcanD (e : Str) (ns ew : Str) (text : Str) (h : Hd) (pre ctx : Str) (hok : h.Ok) (hc : h.Canon) (hctx : EndsTwprge ctx)
+    (htext : text = pre ++ (h.text ++ ctx)) : canonTR commaPat (commaMk e h pre.length) text ns ew false = h.text := by
+  have hv := h.valid hok ctx hctx
+  have htext' : text = pre ++ (h.sp.text ++ ctx) := by rw [htext, h.sp_text]
+  have := (h.sp.canonTR_at pre _ hv ns ew).trans (h.canon_text hok hc)
+  rw [← htext'] at this
+  rw [← this]
+  simp only [canonTR, twpPart, rgePart, dirPart, commaMk, comma_group]
+
+/-- scrubber 6 (`pp_twprge_comma_remove`): every header with ALL the white space behind it becomes the header and one blank -/
+theorem scrub6_dText (sp fin : Str) (hsp : SepOk sp) (hfin : FinB fin) (ns ew : Str) (h1 : isLegal Gen.LEGAL_NS ns = true)
+    (h2 : isLegal Gen.LEGAL_EW ew = true) (g : Gp) (gs : List Gp) (hgc : g.Ok ∧ g.h.Canon) (hgs : ∀ x ∈ gs, x.Ok ∧ x.h.Canon) :
+    subScrubber "pp_twprge_comma_remove" (dTextF v sp fin g gs) ns ew = .ok (dTextF v [' '] [' '] g gs) :=
+  scrub_dText "pp_twprge_comma_remove" commaPat rfl (by decide) comma_gapSkips comma_rGap comma_dGap sp fin hsp hfin true (commaMk sp) (commaMk fin)
+    (fun _ _ => rfl) (fun h pos => by simp [commaMk]) (fun _ _ => rfl) (fun h pos => by simp [commaMk])
+    (fun h l rest prev pos hh hl hprev => by
+      obtain ⟨d0, d', e, hd0⟩ := inert_head_notWs hl.d
+      have := comma_tokR sp hsp h d0 (d' ++ rest) hd0 prev pos hh hprev
+      rw [e]
+      have e2 : commaPat.rx = Gen.pp_twprge_comma_remove := rfl
+      rw [e2]
+      simpa using this)
+    (fun h prev pos hh hprev => comma_tokL fin hfin h prev pos hh hprev) (fun h => by cases h) ns ew h1 h2
+    (fun text h pre ctx hh hc hctx ht => comma_hcanD sp ns ew text h pre ctx hh hc hctx ht)
+    (fun text h pre ctx hh hc hctx ht => comma_hcanD fin ns ew text h pre ctx hh hc hctx ht) g gs hgc hgs
+
+/-! ### white-space reduction -/
+
+theorem good_dgroup_after (x : Str) (hx : Good x) (w : Char) (g : Gp) (hok : g.Ok) : Good (x ++ w :: (g.dt v)) := by
+  have h1 := good_rline_after x hx w g.l (hok.ls g.l (by simp [Gp.lines]))
+  have h2 := good_rlns g.ls _ h1 (fun y hy => hok.ls y (by simp [Gp.lines, hy]))
+  have h3 := h2.join (good_hdr g.h hok.h) v
+  simpa [Gp.dt, List.append_assoc] using h3
+
+theorem good_dgps : ∀ (gs : List Gp) (x : Str), Good x → (∀ g ∈ gs, g.Ok) → Good (x ++ dgps v [' '] gs)
+  | [], x, hx, _ => by simpa [dgps] using hx
+  | g :: gs, x, hx, hgs => by
+    have h1 := good_dgroup_after (v := v) x hx ' ' g (hgs g (by simp))
+    have := good_dgps gs _ h1 (fun y hy => hgs y (by simp [hy]))
+    simpa [dgps, List.append_assoc] using this
+
+theorem good_dText (g : Gp) (gs : List Gp) (hok : g.Ok) (hgs : ∀ x ∈ gs, x.Ok) : Good (dText v [' '] g gs) := by
+  have hl := hok.ls g.l (by simp [Gp.lines])
+  have h0 : Good g.l.rt := by
+    have := ((good_desc g.l.d hl.d).snoc ',' ⟨by decide, by decide⟩).join (good_ref g.l hl) ' '
+    simpa [Ln.rt, List.append_assoc] using this
+  have h2 := good_rlns g.ls _ h0 (fun y hy => hok.ls y (by simp [Gp.lines, hy]))
+  have h3 := h2.join (good_hdr g.h hok.h) v
+  have := good_dgps (v := v) gs _ h3 hgs
+  simpa [dText, Gp.dt, List.append_assoc] using this
+
+/-- the final strip removes what stands behind the last Twp/Rge -/
+theorem pyStrip_dText_fin (sp fin : Str) (hfin : FinB fin) (g : Gp) (gs : List Gp) (hok : g.Ok) (hgs : ∀ x ∈ gs, x.Ok) :
+    pyStrip (dText v sp g gs ++ fin) = dText v sp g gs := by
+  have h0 := pyStrip_dText (v := v) sp g gs hok hgs
+  have hl := hok.ls g.l (by simp [Gp.lines])
+  obtain ⟨d0, d', e, h1, h2⟩ := hl.d.head_cons
+  have hne : d0 ≠ ' ' := by rintro rfl; rw [headDanger_blank] at h2; cases h2
+  have hd0 : pyIsSpace d0 = false := notSpace_of_safe h1 hne
+  have hlf : ∀ Y, lstripBy pyIsSpace (d0 :: Y) = d0 :: Y := fun Y => Pretty.lstripBy_head_false _ _ _ hd0
+  have hsp : ∀ c ∈ fin, pyIsSpace c = true := by
+    intro c hc
+    rcases hfin c hc with rfl | rfl
+    · exact pyIsSpace_blank
+    · exact pyIsSpace_nl'
+  have hhead : dText v sp g gs = d0 :: (d' ++ ((',' :: ' ' :: g.l.ref) ++ rlns g.ls ++ v :: g.h.text ++ dgps v sp gs)) := by
+    simp [dText, Gp.dt, Ln.rt, e]
+  unfold pyStrip stripBy at h0 ⊢
+  rw [hhead] at h0 ⊢
+  rw [hlf] at h0
+  rw [List.cons_append, hlf, ← List.cons_append, Pretty.rstripBy_append_all _ _ _ hsp]
+  exact h0
+
+theorem reduceWhitespace_dText (fin : Str) (hfin : FinB fin) (g : Gp) (gs : List Gp) (hok : g.Ok) (hgs : ∀ x ∈ gs, x.Ok) :
+    reduceWhitespace (dTextF v [' '] fin g gs) = some (dText v [' '] g gs) := by
+  have hgood := good_dText (v := v) g gs hok hgs
+  have hch : ∀ c ∈ dText v [' '] g gs, DocCh c := by
+    have := docCh_dTextF (v := v) [' '] [] sepOk_blank finB_nil g gs hok hgs
+    rwa [dTextF_nil] at this
+  have hl := hok.ls g.l (by simp [Gp.lines])
+  obtain ⟨d0, d', e, h1, h2⟩ := hl.d.head_cons
+  have hne : d0 ≠ ' ' := by rintro rfl; rw [headDanger_blank] at h2; cases h2
+  have hd0 : CharSet.mem [(9, 9), (32, 32)] d0 = false := by
+    have hsub : CharSet.sub [(9, 9), (32, 32)] ((Gen.PY_SPACE : CharSet) ++ (Danger ++ HeadDanger)) = true := by decide +kernel
+    exact noHit_of_notMem (head_out h1 h2) _ hsub
+  have hhead : dText v [' '] g gs = d0 :: (d' ++ ((',' :: ' ' :: g.l.ref) ++ rlns g.ls ++ v :: g.h.text ++ dgps v [' '] gs)) := by
+    simp [dText, Gp.dt, Ln.rt, e]
+  have hstep : reduceWhitespaceStep (dText v [' '] g gs) = dText v [' '] g gs := by
+    generalize hT : dText v [' '] g gs = T at hgood hch hhead
+    have e0 : Gen.inl_plss_preprocess_reduce_whitespace_0.sub (S " ") T = T := sub_blank_runs T hgood.np
+    have e1 : Gen.inl_plss_preprocess_reduce_whitespace_1.sub (S " ") T = T :=
+      sub_id_of_noHit (P := fun cs => cs.sub [(9, 9)]) (by decide) _ _
+        (fun c hc => docCh_avoid [(9, 9)] (by decide) (by decide +kernel) (by decide) (hch c hc))
+    have e2 : Gen.inl_plss_preprocess_reduce_whitespace_2.sub (S "\n") T = T :=
+      sub_id_of_noHit (P := fun cs => cs.sub [(13, 13)]) (by decide) _ _
+        (fun c hc => docCh_avoid [(13, 13)] (by decide) (by decide +kernel) (by decide) (hch c hc))
+    have e3 : Gen.inl_plss_preprocess_reduce_whitespace_3.sub (S "\n\n") T = T := sub_nl_runs T hgood.np
+    have e4 : Gen.inl_plss_preprocess_reduce_whitespace_4.sub [] T = T := by
+      rw [hhead]; exact sub_bos_blank d0 _ hd0
+    unfold reduceWhitespaceStep
+    simp only [e0, e1, e2, e3, e4]
+  unfold reduceWhitespace
+  simp only [dTextF_eq, pyStrip_dText_fin [' '] fin hfin g gs hok hgs]
+  rw [show 2 * (dText v [' '] g gs).length + 8 = (2 * (dText v [' '] g gs).length + 7) + 1 from rfl]
+  exact Tract.untilStable_of_fixed _ _ _ hstep
+
+/-! ### `find_twprge` and `plss_preprocess` -/
+
+theorem map_canon_dhdrF (p : Pat) (mk mkL : Hd → Nat → Match) (sp fin ns ew text : Str) (hsp : SepOk sp) (hfin : FinB fin)
+    (hcan : ∀ (h : Hd) (pre ctx : Str), h.Ok → h.Canon → EndsTwprge ctx → text = pre ++ (h.text ++ ctx) →
+      canonTR p (mk h pre.length) text ns ew false = h.text)
+    (hcanL : ∀ (h : Hd) (pre ctx : Str), h.Ok → h.Canon → EndsTwprge ctx → text = pre ++ (h.text ++ ctx) →
+      canonTR p (mkL h pre.length) text ns ew false = h.text) :
+    ∀ (gs : List Gp) (g : Gp) (pre : Str), (g.Ok ∧ g.h.Canon) → (∀ x ∈ gs, x.Ok ∧ x.h.Canon) → text = pre ++ ((g.dt v) ++ dgpsF v sp fin gs) →
+      (dhdrMsF v mk mkL sp pre.length g gs).map (fun m => canonTR p m text ns ew false) = (g :: gs).map (fun x => x.h.text)
+  | [], g, pre, hgc, _, htext => by
+    have hP : (pre ++ (g.l.rt ++ rlns g.ls) ++ [v]).length = pre.length + (g.l.rt ++ rlns g.ls).length + 1 := by
+      simp only [List.length_append, List.length_cons, List.length_nil]
+    have hm := hcanL g.h (pre ++ (g.l.rt ++ rlns g.ls) ++ [v]) fin hgc.1.h hgc.2 (endsTwprge_fin fin hfin)
+      (by rw [htext]; simp [Gp.dt, dgpsF])
+    rw [hP] at hm
+    simp only [dhdrMsF, List.map_cons, List.map_nil, hm]
+  | g' :: gs, g, pre, hgc, hgs, htext => by
+    have hP : (pre ++ (g.l.rt ++ rlns g.ls) ++ [v]).length = pre.length + (g.l.rt ++ rlns g.ls).length + 1 := by
+      simp only [List.length_append, List.length_cons, List.length_nil]
+    have hm := hcan g.h (pre ++ (g.l.rt ++ rlns g.ls) ++ [v]) (sp ++ ((g'.dt v) ++ dgpsF v sp fin gs)) hgc.1.h hgc.2
+      (endsTwprge_sep sp _ hsp) (by rw [htext]; simp [Gp.dt, dgpsF])
+    rw [hP] at hm
+    have ih := map_canon_dhdrF p mk mkL sp fin ns ew text hsp hfin hcan hcanL gs g' (pre ++ (g.dt v) ++ sp) (hgs g' (by simp))
+      (fun x hx => hgs x (by simp [hx])) (by rw [htext]; simp [dgpsF])
+    have hl : (pre ++ (g.dt v) ++ sp).length = pre.length + (g.dt v).length + sp.length := by simp only [List.length_append]
+    rw [hl] at ih
+    rw [show dhdrMsF v mk mkL sp pre.length g (g' :: gs) = mk g.h (pre.length + (g.l.rt ++ rlns g.ls).length + 1) ::
+      dhdrMsF v mk mkL sp (pre.length + (g.dt v).length + sp.length) g' gs from rfl]
+    simp only [List.map_cons, hm]
+    congr 1
+
+/-- `find_twprge` on the text: the Twp/Rges, in order -/
+theorem findTwprgeRaw_dText (sp fin : Str) (hsp : SepOk sp) (hfin : FinB fin) (ns ew : Str) (h1 : isLegal Gen.LEGAL_NS ns = true)
+    (h2 : isLegal Gen.LEGAL_EW ew = true) (g : Gp) (gs : List Gp) (hgc : g.Ok ∧ g.h.Canon) (hgs : ∀ x ∈ gs, x.Ok ∧ x.h.Canon) :
+    findTwprgeRaw (dTextF v sp fin g gs) ns ew = .ok ((g :: gs).map (fun x => x.h.text)) := by
+  have hfi : twprge.rx.finditer (dTextF v sp fin g gs) = dhdrMsF v twMk twMk sp 0 g gs := by
+    have := (dTilesF (v := v) Gen.twprge_regex twprge_gapSkips twprge_rGap twprge_dGap sp fin hsp false twMk
+      (fun h l rest prev pos hh hl hprev => by
+        have := twprge_tokD h (sp ++ (l.d ++ rest)) prev pos hh (endsTwprge_sep sp _ hsp) hprev
+        simpa using this) twMk
+      (fun h prev pos hh hprev => by
+        have := twprge_tokD h fin prev pos hh (endsTwprge_fin fin hfin) hprev
+        simpa using this)
+      (fun _ => fin_tiles twprge_mustDigit fin hfin) gs g [] 0 none wsOk_nil hgc.1 (fun x hx => (hgs x hx).1)).finditer_eq
+    have e2 : twprge.rx = Gen.twprge_regex := rfl
+    rw [e2]
+    simpa [dTextF] using this
+  rw [C08_findTwprgeRaw_order _ ns ew h1 h2, hfi]
+  have := map_canon_dhdrF (v := v) twprge twMk twMk sp fin ns ew (dTextF v sp fin g gs) hsp hfin
+    (fun h pre ctx hh hc hctx ht => twprge_hcanD ns ew _ h pre ctx hh hc hctx ht)
+    (fun h pre ctx hh hc hctx ht => twprge_hcanD ns ew _ h pre ctx hh hc hctx ht) gs g [] hgc hgs (by simp [dTextF])
+  simp only [List.length_nil] at this
+  rw [this]
+
+/-- **`plss_preprocess` on the canonical text of the layout desc–Sec–Twp/Rge** (whatever blanks / line breaks stand behind
+    the Twp/Rges, also behind the last one): the separator behind every inner Twp/Rge becomes one blank, what stands behind
+    the last Twp/Rge is removed, everything else is kept; no `fixed_twprge`, no divergence -/
+theorem plssPreprocess_dText (mc : MC) (defNS defEW : Option Str)
+    (hm1 : isLegal Gen.LEGAL_NS mc.ns = true) (hm2 : isLegal Gen.LEGAL_EW mc.ew = true)
+    (h1 : isLegal Gen.LEGAL_NS (resolve defNS mc.ns) = true) (h2 : isLegal Gen.LEGAL_EW (resolve defEW mc.ew) = true)
+    (sp fin : Str) (hsp : SepOk sp) (hfin : FinB fin) (g : Gp) (gs : List Gp) (hgc : g.Ok ∧ g.h.Canon)
+    (hgs : ∀ x ∈ gs, x.Ok ∧ x.h.Canon) :
+    plssPreprocess mc (dTextF v sp fin g gs) defNS defEW false =
+      .ok { text := dText v [' '] g gs, fixed := [], diverged := false } := by
+  have hgs' : ∀ x ∈ gs, x.Ok := fun x hx => (hgs x hx).1
+  have hsp1 := sepOk_cons_blank hsp
+  have hsp2 := sepOk_cons_blank hsp1
+  have hsp3 := sepOk_cons_blank hsp2
+  have hsp4 := sepOk_cons_blank hsp3
+  have hf1 := hfin.cons_blank
+  have hf2 := hf1.cons_blank
+  have hf3 := hf2.cons_blank
+  have hf4 := hf3.cons_blank
+  have ho := findTwprgeRaw_dText (v := v) sp fin hsp hfin mc.ns mc.ew hm1 hm2 g gs hgc hgs
+  have hp := findTwprgeRaw_dText (v := v) [' '] [] sepOk_blank finB_nil mc.ns mc.ew hm1 hm2 g gs hgc hgs
+  rw [dTextF_nil] at hp
+  have s1 := scrub1_dText (v := v) sp fin hsp hfin _ _ h1 h2 g gs hgc hgs
+  have s2 := scrubPP_dText (v := v) "pp_twprge_no_nswe" ppNswePat rfl (by decide) nswe_gapSkips nswe_rGap nswe_dGap nswe_mustDigit (by decide) nsweCaps canonAt_nswe
+    (fun t r nc ec ctx h prev pos hprev => no_nswe_at t r nc ec ctx h prev pos hprev) _ _ hsp1 hf1 _ _ h1 h2 g gs hgc hgs
+  have s3 := scrubPP_dText (v := v) "pp_twprge_no_nsr" ppNsrPat rfl (by decide) nsr_gapSkips nsr_rGap nsr_dGap nsr_mustDigit (by decide) nsrCaps canonAt_nsr
+    (fun t r nc ec ctx h prev pos hprev => no_nsr_at t r nc ec ctx h prev pos hprev) _ _ hsp2 hf2 _ _ h1 h2 g gs hgc hgs
+  have s4 := scrubPP_dText (v := v) "pp_twprge_no_ewt" ppEwtPat rfl (by decide) ewt_gapSkips ewt_rGap ewt_dGap ewt_mustDigit (by decide) ewtCaps canonAt_ewt
+    (fun t r nc ec ctx h prev pos hprev => no_ewt_at t r nc ec ctx h prev pos hprev) _ _ hsp3 hf3 _ _ h1 h2 g gs hgc hgs
+  have s5 := scrub5_dText (v := v) _ _ hsp4 hf4 _ _ h1 h2 g gs hgc.1 hgs'
+  have s6 := scrub6_dText (v := v) _ _ hsp4 hf4 _ _ h1 h2 g gs hgc hgs
+  have hrw := reduceWhitespace_dText (v := v) [' '] finB_blank g gs hgc.1 hgs'
+  have hnames : scrubberNames false = ["twprge_regex", "pp_twprge_no_nswe", "pp_twprge_no_nsr", "pp_twprge_no_ewt",
+    "pp_twprge_pm", "pp_twprge_comma_remove"] := rfl
+  unfold plssPreprocess
+  simp only [ho, hnames, List.foldlM_cons, List.foldlM_nil, s1, s2, s3, s4, s5, s6, bind, Except.bind, pure, Except.pure, hrw, hp,
+    C08_fixed_nil_of_same]
+
+/-! ## Part 11 — the whole parser on the canonical text of the layout desc–Sec–Twp/Rge -/
+
+/-- **C01 — the layout desc–Sec–Twp/Rge on TEXT, through the whole parser, with no lexical premise.**
+    For every abstract description — a non-empty list of standard Twp/Rges (numbers below 1000), each with a non-empty list
+    of (two-digit section, inert block) — the canonical text `dTextF v sp fin g gs` (per group the lines `<block>, Sec nn:`, a
+    blank or line break `v`, the Twp/Rge; any blanks / line breaks `sp` between the groups and `fin`, possibly none, at the end) is parsed
+    by `PLSSParser` (layout deduced or given as desc_STR; any `require_colon` mode, any `clean_up`, any legal default
+    directions; no OCR scrubbing, no segmenting, no `sec_within`) into exactly one tract per line, in reading order, with the
+    Twp/Rge that closes its group, its section and its block verbatim; the layout is desc_STR; the preprocessed text has one
+    blank between the groups; there is no error flag; no tract has an error Twp/Rge/Sec. -/
+theorem C01_canonical_forward_desc_STR (mc : MC) (uid0 : Nat) (a : ParserArgs) (sp fin : Str) (hsp : SepOk sp) (hfin : FinB fin)
+    (g : Gp) (gs : List Gp) (hstd : ∀ x ∈ g :: gs, StdGp x)
+    (hm1 : isLegal Gen.LEGAL_NS mc.ns = true) (hm2 : isLegal Gen.LEGAL_EW mc.ew = true)
+    (h1 : isLegal Gen.LEGAL_NS (resolve a.defaultNS mc.ns) = true) (h2 : isLegal Gen.LEGAL_EW (resolve a.defaultEW mc.ew) = true)
+    (ha1 : a.ocrScrub = false) (ha2 : a.segment = false) (ha3 : a.secWithin = false)
+    (hlay : a.layout = none ∨ a.layout = some DESC_STR) (hd : Str) (c : Config.Cfg)
+    (hhd : handedDownText a = .ok hd) (hcfg : Config.ofText hd = .ok c) :
+    ∃ out, plssParser mc uid0 (dTextF v sp fin g gs) a = .ok out ∧ out.layout = DESC_STR ∧
+      out.text = dText v [' '] g gs ∧ out.fl.e = [] ∧
+      out.tracts.map (fun t => (t.trs, t.desc)) = (docTracts (g :: gs)).map (fun p => (TRS.trsToDict (some p.1), p.2)) ∧
+      (∀ t ∈ out.tracts, TRS.isError t.trs = false) := by
+  have hok : g.Ok := (hstd g (by simp)).ok
+  have hgs : ∀ x ∈ gs, x.Ok := fun x hx => (hstd x (by simp [hx])).ok
+  have hgsc : ∀ x ∈ gs, x.Ok ∧ x.h.Canon := fun x hx => ⟨(hstd x (by simp [hx])).ok, (hstd x (by simp [hx])).canon⟩
+  have hall : ∀ x ∈ g :: gs, x.Ok := fun x hx => (hstd x hx).ok
+  -- preprocessing
+  have hpp := plssPreprocess_dText (v := v) mc a.defaultNS a.defaultEW hm1 hm2 h1 h2 sp fin hsp hfin g gs ⟨hok, (hstd g (by simp)).canon⟩ hgsc
+  -- the layout
+  have hdl := deduceLayout_dText (v := v) [' '] sepOk_blank g gs hok hgs
+  -- the chunk
+  let pc : ParserCfg := { mandateLayout := !a.segment && a.layout.isSome, requireColon := a.requireColon, secWithin := a.secWithin }
+  obtain ⟨ck, k1, k2, _, k4⟩ := C01_chunk_canonical_desc_STR_unused (v := v) mc pc hm1 hm2 [' '] sepOk_blank g gs hok hgs DESC_STR (fun _ => rfl)
+  obtain ⟨k5, k6⟩ := k4 ha3
+  have hne : ck.comps.isEmpty = false := by
+    rw [k5]; simp [docComps, Gp.lines]
+  -- the tracts
+  obtain ⟨ts, hts, hlen⟩ := C03_buildTracts_total uid0 hd a.parseQQ a.source (dTextF v sp fin g gs) TRS.trsToDict c hcfg
+    ((docPairs (g :: gs)).map (fun p => (p.2.d, p.1 ++ [p.2.n1, p.2.n2], false))) 0
+  have hpairs := TractsOf.buildTracts_pairs _ _ _ _ _ _ _ _ _ hts
+  have hidx : secWithinIndexes ((docPairs (g :: gs)).map (fun p => (p.2.d, p.1 ++ [p.2.n1, p.2.n2], false))) = [] :=
+    secWithinIndexes_false _ (by intro s hs; simp only [List.mem_map] at hs; obtain ⟨p, _, rfl⟩ := hs; rfl)
+  have hunused : ∀ u ∈ ck.unused, u.2.length < Gen.MIN_REPORTABLE_UNUSED_LEN := by
+    intro u hu
+    have : u.2 ∈ ck.unused.map (·.2) := List.mem_map_of_mem hu
+    rw [k6] at this
+    simp only [List.mem_append, List.mem_map, List.mem_singleton] at this
+    rcases this with ⟨_, _, e⟩ | e
+    · rw [← e]; show 1 < Gen.MIN_REPORTABLE_UNUSED_LEN; decide
+    · rw [e]; decide
+  have hnoerr : ∀ t ∈ ts, TRS.isError t.trs = false := by
+    intro t ht
+    have : (t.trs, t.desc) ∈ ts.map (fun t => (t.trs, t.desc)) := List.mem_map_of_mem ht
+    rw [hpairs] at this
+    simp only [List.map_map, List.mem_map, Function.comp_apply, Prod.mk.injEq] at this
+    obtain ⟨p, hp, e1, _⟩ := this
+    obtain ⟨a', b', ns, ew, ha', hb', hns, hew, hk, hl⟩ := docPairs_std _ hstd p hp
+    rw [← e1, hk]
+    exact (std_trs_ok a' b' ns ew ha' hb' hns hew p.2.n1 p.2.n2 hl.n1 hl.n2).1
+  have hany : ts.any (fun t => TRS.isError t.trs) = false := by
+    rw [List.any_eq_false]
+    intro t ht
+    simp [hnoerr t ht]
+  have herr : ∀ fl, errorTractFlag fl ts = fl := by
+    intro fl; unfold errorTractFlag; simp [hany]
+  have hspecs' := fun cu => tractSpecs_pairs cu (docPairs (g :: gs)) (docPairs_ok _ hall)
+  have hk1 : ∀ ml, parseChunkCore mc { mandateLayout := ml, requireColon := a.requireColon, secWithin := false }
+      (dText v [' '] g gs) false DESC_STR = .ok ck := by
+    intro ml
+    have : parseChunkCore mc pc (dText v [' '] g gs) false DESC_STR =
+        parseChunkCore mc { mandateLayout := ml, requireColon := a.requireColon, secWithin := false }
+          (dText v [' '] g gs) false DESC_STR := by
+      unfold parseChunkCore chunkLayoutOf
+      simp only [Bool.false_eq_true, if_false, pc, ha3, hdl]
+      cases ml <;> cases (!a.segment && a.layout.isSome) <;> simp [hdl, finishChunk, ha3]
+    rw [← this]; exact k1
+  let pfl := genFlagsChunk (dText v [' '] g gs) (fixedFlags [])
+  let P : ParentSt := { fl := { w := pfl.w ++ ck.fl.w, wl := pfl.wl ++ ck.fl.wl, e := pfl.e ++ ck.fl.e, el := pfl.el ++ ck.fl.el },
+                        comps := [] ++ ck.comps, unused := [] ++ ck.unused }
+  have hchunk : ∀ ml, chunkParser mc { mandateLayout := ml, requireColon := a.requireColon, secWithin := false } (dText v [' '] g gs) false DESC_STR
+      { fl := fixedFlags [] } = .ok P := by
+    intro ml
+    unfold chunkParser
+    rw [hk1 ml]
+    simp only [hne, Bool.false_eq_true, if_false]
+    rfl
+  have hblocks : parseAllBlocks mc (dText v [' '] g gs) DESC_STR a (fixedFlags []) = .ok P := by
+    have hcopy : (DESC_STR == COPY_ALL) = false := by decide
+    unfold parseAllBlocks
+    simp only [ha2, ha3, Bool.false_eq_true, if_false, parseBlocks, hcopy, hchunk]
+  have hPc : P.comps = (docPairs (g :: gs)).map (fun p => lnComp p.1 p.2) := by
+    show [] ++ ck.comps = _
+    rw [List.nil_append, k5, docComps_pairs]
+  have hrest : ∀ cu, ∃ out, (match tractSpecs cu P.comps with
+        | .error e => (.error e : Except PyErr ParserOut)
+        | .ok specs =>
+          match buildTracts uid0 hd a.parseQQ a.source (dTextF v sp fin g gs) TRS.trsToDict 0 specs with
+          | .error e => .error e
+          | .ok tracts =>
+            match secWithinFlags tracts (examineUnused P.fl P.unused) (secWithinIndexes specs) with
+            | .error e => .error e
+            | .ok fl1 =>
+              let fl := errorTractFlag fl1 tracts
+              let tracts := handDownFlags fl tracts
+              .ok { tracts := tracts, fl := fl, layout := DESC_STR, text := (dText v [' '] g gs), nextUid := uid0 + specs.length,
+                    diverged := false || tracts.any (·.diverged), handedDown := hd }) = .ok out ∧
+      out.layout = DESC_STR ∧ out.text = (dText v [' '] g gs) ∧ out.fl.e = [] ∧
+      out.tracts.map (fun t => (t.trs, t.desc)) = (docTracts (g :: gs)).map (fun p => (TRS.trsToDict (some p.1), p.2)) ∧
+      (∀ t ∈ out.tracts, TRS.isError t.trs = false) := by
+    intro cu
+    rw [hPc, hspecs' cu]
+    simp only [hts, hidx, secWithinFlags, herr]
+    refine ⟨_, rfl, rfl, rfl, ?_, ?_, ?_⟩
+    · simp only []
+      have hu : ∀ u ∈ P.unused, u.2.length < Gen.MIN_REPORTABLE_UNUSED_LEN := by
+        intro u hu; exact hunused u (by simpa [P] using hu)
+      rw [examineUnused_short _ _ hu]
+      show pfl.e ++ ck.fl.e = []
+      rw [k2, (genFlagsChunk_e _ _).1]
+      rfl
+    · simp only [handDownFlags, List.map_map, Function.comp_def]
+      rw [hpairs]
+      simp [docTracts, List.map_map, Function.comp_def]
+    · intro t ht
+      simp only [handDownFlags, List.mem_map] at ht
+      obtain ⟨t', ht', rfl⟩ := ht
+      exact hnoerr t' ht'
+  unfold plssParser
+  simp only [hhd, ha1, hpp]
+  rcases hlay with e | e
+  · simp only [e, hdl]
+    rw [hblocks]
+    exact hrest _
+  · simp only [e]
+    rw [hblocks]
+    exact hrest _
+
+end DescStr
+
+/-- **C01 — the layout Twp/Rge–desc–Sec through the whole parser when the layout is GIVEN** (`layout='TR_desc_S'`): as
+    `C01_canonical_forward_TR_desc_S`, without the premise on the length of the first block (it is needed only for
+    `deduce_layout`, see `C01_TR_desc_S_short_block_not_deduced`) -/
+theorem C01_canonical_forward_TR_desc_S_given (mc : MC) (uid0 : Nat) (a : ParserArgs) (sp : Str) (hsp : SepOk sp) (g : Gp) (gs : List Gp)
+    (hstd : ∀ x ∈ g :: gs, StdGp x)
+    (hm1 : isLegal Gen.LEGAL_NS mc.ns = true) (hm2 : isLegal Gen.LEGAL_EW mc.ew = true)
+    (h1 : isLegal Gen.LEGAL_NS (resolve a.defaultNS mc.ns) = true) (h2 : isLegal Gen.LEGAL_EW (resolve a.defaultEW mc.ew) = true)
+    (ha1 : a.ocrScrub = false) (ha2 : a.segment = false) (ha3 : a.secWithin = false)
+    (hlay : a.layout = some TR_DESC_S) (hd : Str) (c : Config.Cfg)
+    (hhd : handedDownText a = .ok hd) (hcfg : Config.ofText hd = .ok c) :
+    ∃ out, plssParser mc uid0 (rText sp g gs) a = .ok out ∧ out.layout = TR_DESC_S ∧
+      out.text = rText [' '] g gs ∧ out.fl.e = [] ∧
+      out.tracts.map (fun t => (t.trs, t.desc)) = (docTracts (g :: gs)).map (fun p => (TRS.trsToDict (some p.1), p.2)) ∧
+      (∀ t ∈ out.tracts, TRS.isError t.trs = false) := by
+  have hok : g.Ok := (hstd g (by simp)).ok
+  have hgs : ∀ x ∈ gs, x.Ok := fun x hx => (hstd x (by simp [hx])).ok
+  have hgsc : ∀ x ∈ gs, x.Ok ∧ x.h.Canon := fun x hx => ⟨(hstd x (by simp [hx])).ok, (hstd x (by simp [hx])).canon⟩
+  have hall : ∀ x ∈ g :: gs, x.Ok := fun x hx => (hstd x hx).ok
+  have hpp := plssPreprocess_rText mc a.defaultNS a.defaultEW hm1 hm2 h1 h2 sp hsp g gs hok (hstd g (by simp)).canon hgsc
+  obtain ⟨ck, k1, k2, _, k4⟩ := C01_chunk_canonical_TR_desc_S_unused mc
+    { mandateLayout := true, requireColon := a.requireColon, secWithin := false } hm1 hm2 [' '] sepOk_blank g gs hok hgs
+    (fun h => by cases h) TR_DESC_S (fun _ => rfl)
+  obtain ⟨k5, k6⟩ := k4 rfl
+  have hne : ck.comps.isEmpty = false := by
+    rw [k5]; simp [docComps, Gp.lines]
+  obtain ⟨ts, hts, hlen⟩ := C03_buildTracts_total uid0 hd a.parseQQ a.source (rText sp g gs) TRS.trsToDict c hcfg
+    ((docPairs (g :: gs)).map (fun p => (p.2.d, p.1 ++ [p.2.n1, p.2.n2], false))) 0
+  have hpairs := TractsOf.buildTracts_pairs _ _ _ _ _ _ _ _ _ hts
+  have hidx : secWithinIndexes ((docPairs (g :: gs)).map (fun p => (p.2.d, p.1 ++ [p.2.n1, p.2.n2], false))) = [] :=
+    secWithinIndexes_false _ (by intro s hs; simp only [List.mem_map] at hs; obtain ⟨p, _, rfl⟩ := hs; rfl)
+  have hunused : ∀ u ∈ ck.unused, u.2.length < Gen.MIN_REPORTABLE_UNUSED_LEN := by
+    intro u hu
+    have : u.2 ∈ ck.unused.map (·.2) := List.mem_map_of_mem hu
+    rw [k6] at this
+    simp only [List.mem_append, List.mem_map, List.mem_singleton] at this
+    rcases this with ⟨_, _, e⟩ | e
+    · rw [← e]; decide
+    · rw [e]; decide
+  have hnoerr : ∀ t ∈ ts, TRS.isError t.trs = false := by
+    intro t ht
+    have : (t.trs, t.desc) ∈ ts.map (fun t => (t.trs, t.desc)) := List.mem_map_of_mem ht
+    rw [hpairs] at this
+    simp only [List.map_map, List.mem_map, Function.comp_apply, Prod.mk.injEq] at this
+    obtain ⟨p, hp, e1, _⟩ := this
+    obtain ⟨a', b', ns, ew, ha', hb', hns, hew, hk, hl⟩ := docPairs_std _ hstd p hp
+    rw [← e1, hk]
+    exact (std_trs_ok a' b' ns ew ha' hb' hns hew p.2.n1 p.2.n2 hl.n1 hl.n2).1
+  have hany : ts.any (fun t => TRS.isError t.trs) = false := by
+    rw [List.any_eq_false]
+    intro t ht
+    simp [hnoerr t ht]
+  have herr : ∀ fl, errorTractFlag fl ts = fl := by
+    intro fl; unfold errorTractFlag; simp [hany]
+  have hspecs' := fun cu => tractSpecs_pairs cu (docPairs (g :: gs)) (docPairs_ok _ hall)
+  let pfl := genFlagsChunk (rText [' '] g gs) (fixedFlags [])
+  let P : ParentSt := { fl := { w := pfl.w ++ ck.fl.w, wl := pfl.wl ++ ck.fl.wl, e := pfl.e ++ ck.fl.e, el := pfl.el ++ ck.fl.el },
+                        comps := [] ++ ck.comps, unused := [] ++ ck.unused }
+  have hchunk : chunkParser mc { mandateLayout := true, requireColon := a.requireColon, secWithin := false } (rText [' '] g gs) false TR_DESC_S
+      { fl := fixedFlags [] } = .ok P := by
+    unfold chunkParser
+    rw [k1]
+    simp only [hne, Bool.false_eq_true, if_false]
+    rfl
+  have hblocks : parseAllBlocks mc (rText [' '] g gs) TR_DESC_S a (fixedFlags []) = .ok P := by
+    have hcopy : (TR_DESC_S == COPY_ALL) = false := by decide
+    unfold parseAllBlocks
+    simp only [ha2, ha3, hlay, Option.isSome_some, Bool.not_false, Bool.and_self, Bool.false_eq_true, if_false, parseBlocks, hcopy,
+      hchunk]
+  have hPc : P.comps = (docPairs (g :: gs)).map (fun p => lnComp p.1 p.2) := by
+    show [] ++ ck.comps = _
+    rw [List.nil_append, k5, docComps_pairs]
+  have hrest : ∀ cu, ∃ out, (match tractSpecs cu P.comps with
+        | .error e => (.error e : Except PyErr ParserOut)
+        | .ok specs =>
+          match buildTracts uid0 hd a.parseQQ a.source (rText sp g gs) TRS.trsToDict 0 specs with
+          | .error e => .error e
+          | .ok tracts =>
+            match secWithinFlags tracts (examineUnused P.fl P.unused) (secWithinIndexes specs) with
+            | .error e => .error e
+            | .ok fl1 =>
+              let fl := errorTractFlag fl1 tracts
+              let tracts := handDownFlags fl tracts
+              .ok { tracts := tracts, fl := fl, layout := TR_DESC_S, text := (rText [' '] g gs), nextUid := uid0 + specs.length,
+                    diverged := false || tracts.any (·.diverged), handedDown := hd }) = .ok out ∧
+      out.layout = TR_DESC_S ∧ out.text = (rText [' '] g gs) ∧ out.fl.e = [] ∧
+      out.tracts.map (fun t => (t.trs, t.desc)) = (docTracts (g :: gs)).map (fun p => (TRS.trsToDict (some p.1), p.2)) ∧
+      (∀ t ∈ out.tracts, TRS.isError t.trs = false) := by
+    intro cu
+    rw [hPc, hspecs' cu]
+    simp only [hts, hidx, secWithinFlags, herr]
+    refine ⟨_, rfl, rfl, rfl, ?_, ?_, ?_⟩
+    · simp only []
+      have hu : ∀ u ∈ P.unused, u.2.length < Gen.MIN_REPORTABLE_UNUSED_LEN := by
+        intro u hu; exact hunused u (by simpa [P] using hu)
+      rw [examineUnused_short _ _ hu]
+      show pfl.e ++ ck.fl.e = []
+      rw [k2, (genFlagsChunk_e _ _).1]
+      rfl
+    · simp only [handDownFlags, List.map_map, Function.comp_def]
+      rw [hpairs]
+      simp [docTracts, List.map_map, Function.comp_def]
+    · intro t ht
+      simp only [handDownFlags, List.mem_map] at ht
+      obtain ⟨t', ht', rfl⟩ := ht
+      exact hnoerr t' ht'
+  unfold plssParser
+  simp only [hhd, ha1, hpp, hlay]
+  rw [hblocks]
+  exact hrest _
+
+/-! ## Part 12 — all four documented layouts, uniformly -/
+
+/-- a group as a group of the layout Sec–desc–Twp/Rge (`Lemmas/LayoutText2.lean`): its lines, then its Twp/Rge -/
+def Gp.toS (g : Gp) : SGp := ⟨g.l, g.ls, g.h⟩
+
+/-- the canonical rendering of an abstract description (groups `g :: gs`: a Twp/Rge with its lines = two-digit section and
+    inert block) in each of the four documented layouts; `sp` = the free white space of the rendering -/
+def layText : Lay → Str → Gp → List Gp → Str
+  | .trsDesc, sp, g, gs => docText sp (g :: gs)
+  | .trDescS, sp, g, gs => rText sp g gs
+  | .sDescTr, sp, g, gs => sDoc sp g.toS (gs.map Gp.toS)
+  | .descStr, sp, g, gs => dText '\n' sp g gs
+
+theorem sDocTracts_toS (gs : List Gp) : sDocTracts (gs.map Gp.toS) = docTracts gs := by
+  induction gs with
+  | nil => rfl
+  | cons g gs ih =>
+    simp only [sDocTracts, docTracts, docPairs, List.map_cons, List.flatMap_cons, List.map_append] at ih ⊢
+    rw [ih]
+    simp [Gp.toS, SGp.lines, Gp.lines, List.map_map, Function.comp_def]
+
+theorem stdSGp_toS {g : Gp} (h : StdGp g) : StdSGp g.toS :=
+  ⟨fun l hl => h.ok.ls l hl, h.std⟩
+
+/-- **C01 — all four documented layouts on TEXT, through the whole parser, with no lexical premise.**
+    For every abstract description — a non-empty list of standard Twp/Rges (numbers below 1000), each with a non-empty list
+    of (two-digit section, inert block) — and EACH of the four documented layouts `L`, the canonical rendering of the
+    description in `L` (with any blanks / line breaks `sp` at the free position of the rendering) is parsed by `PLSSParser`
+    (layout deduced, or given as `L`; any `require_colon` mode, any `clean_up`, any legal default directions; no OCR scrubbing,
+    no segmenting, no `sec_within`) into the SAME tracts — one per line, in reading order, with the Twp/Rge of its group, its
+    section and its block verbatim; the layout reported is `L`; the preprocessed text is the rendering with one blank at the
+    free position; there is no error flag; no tract has an error Twp/Rge/Sec.
+    (Only for TR_desc_S with the layout to be deduced the first block must have at least 3 characters.) -/
+theorem C01_canonical_forward_all_layouts (L : Lay) (mc : MC) (uid0 : Nat) (a : ParserArgs) (sp : Str) (hsp : SepOk sp)
+    (g : Gp) (gs : List Gp) (hstd : ∀ x ∈ g :: gs, StdGp x)
+    (h3 : L = .trDescS → a.layout = none → 3 ≤ g.l.d.length)
+    (hm1 : isLegal Gen.LEGAL_NS mc.ns = true) (hm2 : isLegal Gen.LEGAL_EW mc.ew = true)
+    (h1 : isLegal Gen.LEGAL_NS (resolve a.defaultNS mc.ns) = true) (h2 : isLegal Gen.LEGAL_EW (resolve a.defaultEW mc.ew) = true)
+    (ha1 : a.ocrScrub = false) (ha2 : a.segment = false) (ha3 : a.secWithin = false)
+    (hlay : a.layout = none ∨ a.layout = some L.str) (hd : Str) (c : Config.Cfg)
+    (hhd : handedDownText a = .ok hd) (hcfg : Config.ofText hd = .ok c) :
+    ∃ out, plssParser mc uid0 (layText L sp g gs) a = .ok out ∧ out.layout = L.str ∧
+      out.text = layText L [' '] g gs ∧ out.fl.e = [] ∧
+      out.tracts.map (fun t => (t.trs, t.desc)) = (docTracts (g :: gs)).map (fun p => (TRS.trsToDict (some p.1), p.2)) ∧
+      (∀ t ∈ out.tracts, TRS.isError t.trs = false) := by
+  cases L with
+  | trsDesc => exact C01_canonical_forward mc uid0 a sp hsp g gs hstd hm1 hm2 h1 h2 ha1 ha2 ha3 hlay hd c hhd hcfg
+  | trDescS =>
+    rcases hlay with e | e
+    · exact C01_canonical_forward_TR_desc_S mc uid0 a sp hsp g gs hstd (h3 rfl e) hm1 hm2 h1 h2 ha1 ha2 ha3 (Or.inl e) hd c hhd hcfg
+    · exact C01_canonical_forward_TR_desc_S_given mc uid0 a sp hsp g gs hstd hm1 hm2 h1 h2 ha1 ha2 ha3 e hd c hhd hcfg
+  | sDescTr =>
+    have hS : ∀ x ∈ g.toS :: gs.map Gp.toS, StdSGp x := by
+      intro x hx
+      rw [← List.map_cons, List.mem_map] at hx
+      obtain ⟨y, hy, rfl⟩ := hx
+      exact stdSGp_toS (hstd y hy)
+    have := C01_canonical_forward_S_desc_TR_groups mc uid0 a sp [] hsp finB_nil g.toS (gs.map Gp.toS) hS hm1 hm2 h1 h2 ha1 ha2 ha3 hlay
+      hd c hhd hcfg
+    rw [List.append_nil, ← List.map_cons, sDocTracts_toS] at this
+    exact this
+  | descStr =>
+    have := C01_canonical_forward_desc_STR (v := '\n') mc uid0 a sp [] hsp finB_nil g gs hstd hm1 hm2 h1 h2 ha1 ha2 ha3 hlay hd c hhd hcfg
+    rw [dTextF_nil] at this
+    exact this
+
 /-! ## Part 5 — concrete instances (non-vacuity) -/
 
 namespace LayoutEx3
@@ -915,10 +3566,151 @@ theorem _root_.PyTRS.C01_TR_desc_S_short_block_not_deduced :
     Inert (S "xy") ∧ deduceLayout (rText [' '] ⟨stdHd 154 97 'n' 'w', ⟨'1', '4', S "xy"⟩, []⟩ []) = TRS_DESC := by
   decide +kernel
 
+/-- `C01_chunk_canonical_TR_desc_S_unused` on the concrete text (layout deduced, no hypothesis left) -/
+example : ∃ c, parseChunkCore {} pc (rText [' '] g1 [g2]) false TRS_DESC = .ok c ∧ c.fl.e = [] ∧ c.fl.w = [] ∧
+    (pc.secWithin = false → c.comps = docComps [g1, g2] ∧ c.unused.map (·.2) = [['\n'], []]) :=
+  C01_chunk_canonical_TR_desc_S_unused {} pc (by decide) (by decide) [' '] sepOk_blank g1 [g2] g1_std.ok g2s_ok (fun _ => by decide) TRS_DESC
+    (fun h => by cases h)
+
+example : MarkersOK ['\n', ' '] g1 [g2] := markersOK_rText _ ⟨by simp, fun c hc => by simp at hc; rcases hc with rfl | rfl <;> simp⟩ g1 [g2]
+
+example : deduceLayout (rText ['\n'] g1 [g2]) = TR_DESC_S :=
+  deduceLayout_rText ['\n'] sepOk_nl g1 [g2] g1_std.ok g2s_ok (by decide)
+
+/-- `plssPreprocess_rText` on the concrete text (line break behind the Twp/Rges) -/
+example : plssPreprocess {} (rText ['\n'] g1 [g2]) none none false =
+    .ok { text := rText [' '] g1 [g2], fixed := [], diverged := false } :=
+  plssPreprocess_rText {} none none (by decide) (by decide) (by decide) (by decide) ['\n'] sepOk_nl g1 [g2] g1_std.ok g1_std.canon
+    (fun x hx => ⟨g2s_ok x hx, by simp only [List.mem_singleton] at hx; subst hx; exact g2_std.canon⟩)
+
+/-- `C01_canonical_forward_TR_desc_S` on the concrete text, default arguments (layout deduced) -/
+example : ∃ out, plssParser {} 0 (rText ['\n'] g1 [g2]) {} = .ok out ∧ out.layout = TR_DESC_S ∧
+    out.text = rText [' '] g1 [g2] ∧ out.fl.e = [] ∧
+    out.tracts.map (fun t => (t.trs, t.desc)) = (docTracts [g1, g2]).map (fun p => (TRS.trsToDict (some p.1), p.2)) ∧
+    (∀ t ∈ out.tracts, TRS.isError t.trs = false) :=
+  C01_canonical_forward_TR_desc_S {} 0 {} ['\n'] sepOk_nl g1 [g2] all_std (by decide)
+    (by decide) (by decide) (by decide) (by decide) rfl rfl rfl (Or.inl rfl) hd0 cfg0 hd0_ok cfg0_ok
+
+example : rText ['\n'] g1 [g2] =
+    S "T154N-R97W\nhog valley by bluff, Sec 14:\nNE corner (brown well) & rhubarb field #, Sec 15:\nT7S-R102E\nwy Wyoming; f/k/a marker, Sec 36:" := by
+  decide +kernel
+
+example : docTracts [g1, g2] = [(S "154n97w14", S "hog valley by bluff"), (S "154n97w15", S "NE corner (brown well) & rhubarb field #"),
+    (S "7s102e36", S "wy Wyoming; f/k/a marker")] := by decide +kernel
+
+/-- `C01_canonical_forward_TR_desc_S_given` on a text whose first block has only 2 characters (layout given; replayed on the
+    library: `PLSSDesc('T154N-R97W xy, Sec 14:', layout='TR_desc_S')` gives the tract `154n97w14` with description `xy`, while
+    with the layout deduced — `C01_TR_desc_S_short_block_not_deduced` — the library answers TRS_desc and loses the block) -/
+example : ∃ out, plssParser {} 0 (rText [' '] ⟨stdHd 154 97 'n' 'w', ⟨'1', '4', S "xy"⟩, []⟩ []) { layout := some TR_DESC_S } = .ok out ∧
+    out.layout = TR_DESC_S ∧ out.text = rText [' '] ⟨stdHd 154 97 'n' 'w', ⟨'1', '4', S "xy"⟩, []⟩ [] ∧ out.fl.e = [] ∧
+    out.tracts.map (fun t => (t.trs, t.desc)) =
+      (docTracts [⟨stdHd 154 97 'n' 'w', ⟨'1', '4', S "xy"⟩, []⟩]).map (fun p => (TRS.trsToDict (some p.1), p.2)) ∧
+    (∀ t ∈ out.tracts, TRS.isError t.trs = false) :=
+  C01_canonical_forward_TR_desc_S_given {} 0 { layout := some TR_DESC_S } [' '] sepOk_blank _ []
+    (fun x hx => by
+      simp only [List.mem_singleton] at hx; subst hx
+      refine ⟨⟨stdHd_ok 154 97 'n' 'w' (by decide) (by decide) (Or.inl rfl) (Or.inr rfl), ?_⟩,
+        ⟨154, 97, 'n', 'w', by decide, by decide, Or.inl rfl, Or.inr rfl, rfl⟩⟩
+      intro l hl
+      simp only [Gp.lines, List.mem_cons, List.not_mem_nil, or_false] at hl
+      subst hl
+      exact ⟨by decide, by decide, by decide +kernel⟩)
+    (by decide) (by decide) (by decide) (by decide) rfl rfl rfl rfl
+    (Pretty.okOr (handedDownText { layout := some TR_DESC_S }) [])
+    (Pretty.okOr (Config.ofText (Pretty.okOr (handedDownText { layout := some TR_DESC_S }) [])) [])
+    (Pretty.except_ok_of _ _ (by decide +kernel)) (Pretty.except_ok_of _ _ (by decide +kernel))
+
+/-! ### the layout desc–Sec–Twp/Rge -/
+
+theorem dtext_eq : dText '\n' ['\n'] g1 [g2] =
+    S "hog valley by bluff, Sec 14:\nNE corner (brown well) & rhubarb field #, Sec 15:\nT154N-R97W\nwy Wyoming; f/k/a marker, Sec 36:\nT7S-R102E" := by
+  decide +kernel
+
+/-- `C01_chunk_canonical_desc_STR` on the concrete text (layout deduced) -/
+example : ∃ c, parseChunkCore {} pc (dText '\n' ['\n'] g1 [g2]) false TRS_DESC = .ok c ∧ c.fl.e = [] ∧ c.fl.w = [] ∧
+    (pc.secWithin = false → c.comps = docComps [g1, g2]) :=
+  C01_chunk_canonical_desc_STR {} pc (by decide) (by decide) ['\n'] sepOk_nl g1 [g2] g1_std.ok g2s_ok TRS_DESC (fun h => by cases h)
+
+example : Reports {} .cautious (dText '\n' [' '] g1 [g2]) .descStr (dGroups '\n' [' '] 0 [g1, g2]) :=
+  C01_reports_desc_STR {} (by decide) (by decide) [' '] sepOk_blank g1 [g2] g1_std.ok g2s_ok .cautious
+
+example : twprgeFinder {} (dText '\n' ['\n'] g1 [g2]) DESC_STR = .ok (trsOf (dGroups '\n' ['\n'] 0 [g1, g2]), {}) :=
+  (C01_finders_desc_STR {} (by decide) (by decide) ['\n'] sepOk_nl g1 [g2] g1_std.ok g2s_ok .no).1
+
+/-- `C01_chunk_canonical_desc_STR_unused` on the concrete text -/
+example : ∃ c, parseChunkCore {} pc (dText '\n' [' '] g1 [g2]) false TRS_DESC = .ok c ∧ c.fl.e = [] ∧ c.fl.w = [] ∧
+    (pc.secWithin = false → c.comps = docComps [g1, g2] ∧ c.unused.map (·.2) = [['\n'], ['\n'], []]) :=
+  C01_chunk_canonical_desc_STR_unused {} pc (by decide) (by decide) [' '] sepOk_blank g1 [g2] g1_std.ok g2s_ok TRS_DESC (fun h => by cases h)
+
+/-- `plssPreprocess_dText` on the concrete text (blank line between the groups, a line break at the end) -/
+example : plssPreprocess {} (dTextF '\n' ['\n', '\n'] ['\n'] g1 [g2]) none none false =
+    .ok { text := dText '\n' [' '] g1 [g2], fixed := [], diverged := false } :=
+  plssPreprocess_dText {} none none (by decide) (by decide) (by decide) (by decide) ['\n', '\n'] ['\n']
+    ⟨by simp, fun c hc => by simp at hc; exact Or.inr hc⟩ (fun c hc => by simp at hc; exact Or.inr hc) g1 [g2] ⟨g1_std.ok, g1_std.canon⟩
+    (fun x hx => ⟨g2s_ok x hx, by simp only [List.mem_singleton] at hx; subst hx; exact g2_std.canon⟩)
+
+/-- `C01_canonical_forward_desc_STR` on the concrete text, default arguments (layout deduced) -/
+example : ∃ out, plssParser {} 0 (dTextF '\n' ['\n'] [] g1 [g2]) {} = .ok out ∧ out.layout = DESC_STR ∧
+    out.text = dText '\n' [' '] g1 [g2] ∧ out.fl.e = [] ∧
+    out.tracts.map (fun t => (t.trs, t.desc)) = (docTracts [g1, g2]).map (fun p => (TRS.trsToDict (some p.1), p.2)) ∧
+    (∀ t ∈ out.tracts, TRS.isError t.trs = false) :=
+  C01_canonical_forward_desc_STR {} 0 {} ['\n'] [] sepOk_nl finB_nil g1 [g2] all_std
+    (by decide) (by decide) (by decide) (by decide) rfl rfl rfl (Or.inl rfl) hd0 cfg0 hd0_ok cfg0_ok
+
+example : dTextF '\n' ['\n'] [] g1 [g2] = dText '\n' ['\n'] g1 [g2] := dTextF_nil _ _ _
+
+/-- the variant with a BLANK between the last section reference of a group and the Twp/Rge -/
+example : dText ' ' ['\n'] g1 [g2] =
+    S "hog valley by bluff, Sec 14:\nNE corner (brown well) & rhubarb field #, Sec 15: T154N-R97W\nwy Wyoming; f/k/a marker, Sec 36: T7S-R102E" := by
+  decide +kernel
+
+/-- `C01_canonical_forward_desc_STR` on it (replayed on the library: same three tracts, layout desc_STR) -/
+example : ∃ out, plssParser {} 0 (dTextF ' ' ['\n'] [] g1 [g2]) {} = .ok out ∧ out.layout = DESC_STR ∧
+    out.text = dText ' ' [' '] g1 [g2] ∧ out.fl.e = [] ∧
+    out.tracts.map (fun t => (t.trs, t.desc)) = (docTracts [g1, g2]).map (fun p => (TRS.trsToDict (some p.1), p.2)) ∧
+    (∀ t ∈ out.tracts, TRS.isError t.trs = false) :=
+  C01_canonical_forward_desc_STR {} 0 {} ['\n'] [] sepOk_nl finB_nil g1 [g2] all_std
+    (by decide) (by decide) (by decide) (by decide) rfl rfl rfl (Or.inl rfl) hd0 cfg0 hd0_ok cfg0_ok
+
+/-! ### all four layouts -/
+
+/-- `C01_canonical_forward_all_layouts` on the concrete description, for EVERY layout, default arguments (layout deduced) -/
+example (L : Lay) : ∃ out, plssParser {} 0 (layText L ['\n'] g1 [g2]) {} = .ok out ∧ out.layout = L.str ∧
+    out.text = layText L [' '] g1 [g2] ∧ out.fl.e = [] ∧
+    out.tracts.map (fun t => (t.trs, t.desc)) = (docTracts [g1, g2]).map (fun p => (TRS.trsToDict (some p.1), p.2)) ∧
+    (∀ t ∈ out.tracts, TRS.isError t.trs = false) :=
+  C01_canonical_forward_all_layouts L {} 0 {} ['\n'] sepOk_nl g1 [g2] all_std (fun _ _ => by decide)
+    (by decide) (by decide) (by decide) (by decide) rfl rfl rfl (Or.inl rfl) hd0 cfg0 hd0_ok cfg0_ok
+
+/-- the four renderings of the concrete description -/
+example : [Lay.trsDesc, .trDescS, .sDescTr, .descStr].map (fun L => layText L ['\n'] g1 [g2]) =
+    [S "T154N-R97W\nSec 14: hog valley by bluff\nSec 15: NE corner (brown well) & rhubarb field #\nT7S-R102E\nSec 36: wy Wyoming; f/k/a marker",
+     S "T154N-R97W\nhog valley by bluff, Sec 14:\nNE corner (brown well) & rhubarb field #, Sec 15:\nT7S-R102E\nwy Wyoming; f/k/a marker, Sec 36:",
+     S "Sec 14: hog valley by bluff\nSec 15: NE corner (brown well) & rhubarb field #\nT154N-R97W\nSec 36: wy Wyoming; f/k/a marker\nT7S-R102E",
+     S "hog valley by bluff, Sec 14:\nNE corner (brown well) & rhubarb field #, Sec 15:\nT154N-R97W\nwy Wyoming; f/k/a marker, Sec 36:\nT7S-R102E"] := by
+  decide +kernel
+
 end LayoutEx3
 
 #print axioms C01_chunk_canonical_TR_desc_S_partial
 #print axioms C01_reports_TR_desc_S
 #print axioms C01_finders_TR_desc_S
+#print axioms markersOK_rText
+#print axioms deduceLayout_rText
+#print axioms C01_chunk_canonical_TR_desc_S
+#print axioms C01_chunk_canonical_TR_desc_S_full
+#print axioms C01_chunk_canonical_TR_desc_S_unused
+#print axioms C01_reports_canonical_TR_desc_S
+#print axioms plssPreprocess_rText
+#print axioms C01_canonical_forward_TR_desc_S
+#print axioms C01_canonical_forward_TR_desc_S_given
+#print axioms C01_finders_desc_STR
+#print axioms C01_reports_desc_STR
+#print axioms deduceLayout_dText
+#print axioms C01_chunk_canonical_desc_STR
+#print axioms C01_chunk_canonical_desc_STR_unused
+#print axioms plssPreprocess_dText
+#print axioms C01_canonical_forward_desc_STR
+#print axioms C01_canonical_forward_all_layouts
 
 end PyTRS
